@@ -9,6 +9,11 @@ import Mathlib.Tactic.NormNum
 import Mathlib.Tactic.Ring
 import Mathlib.Tactic.Linarith
 import Mathlib.Tactic.Push
+import Mathlib.Tactic.FieldSimp
+import Splipy.Model.Periodic
+import Splipy.Model.Split
+import Splipy.Model.Order
+import Splipy.Model.Sections
 
 /-!
 # The translated `SplineObject` methods are the hand model (work package t3)
@@ -22,6 +27,13 @@ definitions by `harness/props/_pyobject.py`, which attributes an error inside a 
 that do not mention generated code.  Proof style: generated bodies are never restated — loops are
 rewritten in place with the model's fold as the target, so a change of the translation's *layout*
 does not break the proofs, a change of its *meaning* does.
+
+Second part (t3b): `lower_periodic`, `make_periodic`, `order`, `split` (C07/C08/C12); `raise_order_implicit`,
+`raise_order`, `set_order`, `lower_order` (C05; `np.linalg.inv` is the model's certified `Mat.invChecked`,
+the explicit `raise_order_1D` branch is pinned and mapped to the model's `Exception`); the operators
+`__iadd__ … __div__`, `scale` with a sequence operand, `mirror`, `rotate`, `utils.rotation_matrix`
+(C09/C11; `sqrt`, `cos`, `sin` are abstract inputs); `section`, `corners` (C15).  In these sections a loop
+body is sometimes restated (`si_body`, `pcBody`, `lp_body`): such lemmas live in the section of the method.
 -/
 
 set_option linter.unusedSectionVars false
@@ -4147,5 +4159,4390 @@ theorem _root_.PyObject_derivative_eq (o : Obj K) (tol : K) (params : List (Para
     rw [this]
     exact derivative_core o tol params kw_d kw_above true hb hd1 hd3 hp hne hnc hD hD0 hA
   | some T => exact derivative_core o tol params kw_d kw_above T hb hd1 hd3 hp hne hnc hD hD0 hA
+
+end Splipy.PyO
+
+-- ---------------------------------------------------------------------------- t3b part 0
+
+namespace Splipy.PyO
+open Splipy Splipy.Generated Splipy.C06
+variable {K : Type} [Field K] [LinearOrder K] [FloorRing K]
+
+/-! ## `insert_knot` of the hand model: one more knot (no generated code) -/
+
+theorem insertAt_size (a : Array K) (mu : ℕ) (x : K) : (Basis.insertAt a mu x).size = a.size + 1 := by
+  unfold Basis.insertAt
+  simp only [Array.size_append, Array.size_push, Array.size_extract]
+  omega
+
+theorem foldl_set!_size {α : Type} (l : List α) (f : Array K → α → ℕ) (g : Array K → α → K) (a : Array K) :
+    (l.foldl (fun a i => a.set! (f a i) (g a i)) a).size = a.size := by
+  induction l generalizing a with
+  | nil => rfl
+  | cons x l ih => simp only [List.foldl_cons]; rw [ih]; simp
+
+theorem insertKnotDirect_size (b : Basis K) (x : K) (r : Basis K × Mat K) (h : b.insertKnotDirect x = .ok r) :
+    r.1.knots.size = b.knots.size + 1 ∧ (b.knots.size : Int) - (b.order : Int) - (b.periodic + 1) ≥ 0 := by
+  unfold Basis.insertKnotDirect at h
+  simp only [] at h
+  by_cases h1 : (b.knots.size : Int) - (b.order : Int) - (b.periodic + 1) < 0
+  · rw [if_pos h1] at h; exact absurd h (by simp)
+  · rw [if_neg h1] at h
+    refine ⟨?_, by omega⟩
+    split_ifs at h
+    · cases h; exact (foldl_set!_size _ _ _ _).trans (insertAt_size _ _ _)
+    · cases h; exact (foldl_set!_size _ _ _ _).trans (insertAt_size _ _ _)
+    · cases h; exact insertAt_size _ _ _
+    · cases h; exact insertAt_size _ _ _
+
+theorem insertKnotPlain_size (b : Basis K) (x : K) (r : Basis K × Mat K) (h : b.insertKnotPlain x = .ok r) :
+    r.1.knots.size = b.knots.size + 1 := by
+  unfold Basis.insertKnotPlain at h
+  cases hw : b.insertWrap x with
+  | error e => rw [hw] at h; exact absurd h (by simp)
+  | ok x' => rw [hw] at h; exact (insertKnotDirect_size b x' r h).1
+
+theorem foldl_push_size {α : Type} (l : List α) (f : Array K → K) (a : Array K) :
+    (l.foldl (fun (a : Array K) _ => a.push (f a)) a).size = a.size + l.length := by
+  induction l generalizing a with
+  | nil => rfl
+  | cons x l ih => simp only [List.foldl_cons, List.length_cons]; rw [ih]; simp; omega
+
+theorem foldlM_grow {α σ : Type} (sz : σ → ℕ) (l : List α) (step : σ → PyM σ)
+    (hstep : ∀ s s', step s = .ok s' → sz s' = sz s + 1) (s s' : σ)
+    (h : l.foldlM (fun st _ => step st) s = .ok s') : sz s' = sz s + l.length := by
+  induction l generalizing s with
+  | nil => simp only [List.foldlM_nil] at h; cases h; rfl
+  | cons a l ih =>
+    simp only [List.foldlM_cons] at h
+    cases hs : step s with
+    | error e => rw [hs] at h; exact absurd h (by simp)
+    | ok s1 =>
+      rw [hs] at h
+      have := ih s1 h
+      rw [this, hstep s s1 hs, List.length_cons]; omega
+
+theorem insertKnot_size (b : Basis K) (x : K) (r : Basis K × Mat K) (h : b.insertKnot x = .ok r) :
+    r.1.knots.size = b.knots.size + 1 ∧ (b.knots.size : Int) - (b.order : Int) - (b.periodic + 1) ≥ 0 := by
+  unfold Basis.insertKnot at h
+  cases hw : b.insertWrap x with
+  | error e => rw [hw] at h; exact absurd h (by simp)
+  | ok x' =>
+    rw [hw] at h
+    simp only [] at h
+    by_cases hc : b.periodic ≥ 0 ∧ (b.knots.size : Int) - (b.order : Int) - (b.periodic + 1) < (b.order : Int) + b.periodic
+    · rw [if_pos hc] at h
+      by_cases h1 : (b.knots.size : Int) - (b.order : Int) - (b.periodic + 1) < 0
+      · rw [if_pos h1] at h; exact absurd h (by simp)
+      · rw [if_neg h1] at h
+        by_cases h2 : (b.knots.size : Int) - (b.order : Int) - (b.periodic + 1) = 0
+        · rw [if_pos h2] at h; exact absurd h (by simp)
+        · rw [if_neg h2] at h
+          refine ⟨?_, by omega⟩
+          split at h
+          · exact absurd h (by simp)
+          · rename_i cover C z hfold
+            cases h
+            simp only [Array.size_extract]
+            have hg := foldlM_grow (fun (st : Basis K × Mat K × K) => st.1.knots.size) _ _
+              (fun s s' hs => by
+                split at hs
+                · exact absurd hs (by simp)
+                · rename_i c' Ck hp
+                  cases hs
+                  exact insertKnotPlain_size _ _ _ hp) _ _ hfold
+            simp only [List.length_range] at hg
+            have hck : (b.coverKnots ((b.order + b.periodic.toNat + b.numFunctions - 1) / b.numFunctions)).size
+                ≥ b.knots.size := by
+              unfold Basis.coverKnots
+              simp only []
+              rw [foldl_push_size]; omega
+            have hn : (b.numFunctions : Int) = (b.knots.size : Int) - (b.order : Int) - (b.periodic + 1) := by
+              unfold Basis.numFunctions
+              omega
+            have hR : 1 ≤ (b.order + b.periodic.toNat + b.numFunctions - 1) / b.numFunctions := by
+              rw [Nat.le_div_iff_mul_le (by omega)]
+              omega
+            omega
+    · rw [if_neg hc] at h
+      exact insertKnotDirect_size b x' r h
+
+end Splipy.PyO
+
+-- ---------------------------------------------------------------------------- t3b part 1
+
+namespace Splipy.PyO
+open Splipy Splipy.Generated Splipy.C06
+variable {K : Type} [Field K] [LinearOrder K] [FloorRing K]
+
+/-! ## `lower_periodic`: one pass of the hand model's loop (no generated code) -/
+
+theorem insertKnotDirect_fields (b : Basis K) (x : K) (r : Basis K × Mat K) (h : b.insertKnotDirect x = .ok r) :
+    r.1.periodic = b.periodic ∧ r.1.order = b.order := by
+  unfold Basis.insertKnotDirect at h
+  simp only [] at h
+  split_ifs at h <;> first | (cases h; exact ⟨rfl, rfl⟩) | (exact absurd h (by simp))
+
+theorem insertKnot_fields (b : Basis K) (x : K) (r : Basis K × Mat K) (h : b.insertKnot x = .ok r) :
+    r.1.periodic = b.periodic ∧ r.1.order = b.order := by
+  unfold Basis.insertKnot at h
+  cases hw : b.insertWrap x with
+  | error e => rw [hw] at h; exact absurd h (by simp)
+  | ok x' =>
+    rw [hw] at h
+    simp only [] at h
+    by_cases hc : b.periodic ≥ 0 ∧ (b.knots.size : Int) - (b.order : Int) - (b.periodic + 1) < (b.order : Int) + b.periodic
+    · rw [if_pos hc] at h
+      by_cases h1 : (b.knots.size : Int) - (b.order : Int) - (b.periodic + 1) < 0
+      · rw [if_pos h1] at h; exact absurd h (by simp)
+      · rw [if_neg h1] at h
+        by_cases h2 : (b.knots.size : Int) - (b.order : Int) - (b.periodic + 1) = 0
+        · rw [if_pos h2] at h; exact absurd h (by simp)
+        · rw [if_neg h2] at h
+          split at h
+          · exact absurd h (by simp)
+          · cases h; exact ⟨rfl, rfl⟩
+    · rw [if_neg hc] at h
+      exact insertKnotDirect_fields b x' r h
+
+/-- the body of the model's loop -/
+def lpStep (o : Obj K) (dir : ℕ) : PyM (Obj K) := do
+  let b := o.basis dir
+  let o1 ← o.insertKnots [b.start] dir
+  let cps := o1.cps.rollAxisNeg dir 1
+  let b1 ← (o1.basis dir).roll 1
+  let b2 : Basis K := { b1 with periodic := b1.periodic - 1,
+                                knots := b1.knots.extract 0 (b1.knots.size - 1) }
+  pure { o1 with bases := o1.bases.set! dir b2, cps := cps }
+
+theorem lp_loop_succ (target : Int) (dir f : ℕ) (o : Obj K) :
+    Obj.lowerPeriodic.loop target dir (f + 1) o
+      = (if target < (o.basis dir).periodic then lpStep o dir >>= Obj.lowerPeriodic.loop target dir f
+         else if target > (o.basis dir).periodic then .error .value else .ok o) := by
+  rw [Obj.lowerPeriodic.loop]
+  unfold lpStep
+  simp only [bind_assoc, pure_bind]
+  rfl
+
+/-- invariant of the loop: one basis per parametric axis, `dir` in range -/
+def LpInv (o : Obj K) (dir : ℕ) : Prop := o.cps.shape.length = o.bases.size + 1 ∧ dir < o.bases.size
+
+theorem insertKnots_single (o : Obj K) (x : K) (dir : ℕ) :
+    o.insertKnots [x] dir = (match (o.basis dir).insertKnot x with
+      | .error e => .error e
+      | .ok r => .ok { o with bases := o.bases.set! dir r.1,
+                              cps := Tensor.applyAxis (Mat.mul r.2 (Mat.identity (o.cps.shape.getD dir 0))) o.cps dir }) := by
+  unfold Obj.insertKnots
+  simp only [List.foldlM_cons, List.foldlM_nil]
+  cases (o.basis dir).insertKnot x <;> rfl
+
+theorem rollAxisNeg_shape (t : Tensor K) (d k : ℕ) : (t.rollAxisNeg d k).shape = t.shape := by
+  unfold Tensor.rollAxisNeg Tensor.reindexAxis Tensor.build3
+  simp only []
+  exact set_getD_self _ _ _
+
+theorem basis_set (bs : Array (Basis K)) (dir : ℕ) (h : dir < bs.size) (b : Basis K) (c : Tensor K) (r : Bool) :
+    (Obj.mk (bs.set! dir b) c r).basis dir = b := by
+  unfold Obj.basis
+  simp [Array.getD, h]
+
+theorem lpStep_facts (o o' : Obj K) (dir : ℕ) (hI : LpInv o dir) (h : lpStep o dir = .ok o') :
+    LpInv o' dir ∧ (o'.basis dir).periodic = (o.basis dir).periodic - 1 := by
+  unfold lpStep at h
+  simp only [] at h
+  rw [insertKnots_single] at h
+  cases hk : (o.basis dir).insertKnot (o.basis dir).start with
+  | error e => rw [hk] at h; exact absurd h (by simp)
+  | ok r =>
+    rw [hk] at h
+    simp only [ok_bind] at h
+    obtain ⟨f1, _⟩ := insertKnot_fields _ _ _ hk
+    rw [basis_set _ _ hI.2] at h
+    unfold Basis.roll at h
+    split_ifs at h with hp
+    · exact absurd h (by simp)
+    · simp only [ok_bind, pure_eq_ok] at h
+      cases h
+      refine ⟨⟨?_, ?_⟩, ?_⟩
+      · simp only [rollAxisNeg_shape, applyAxis_shape', List.length_set, Array.set!_eq_setIfInBounds,
+          Array.size_setIfInBounds]
+        exact hI.1
+      · simp only [Array.set!_eq_setIfInBounds, Array.size_setIfInBounds]; exact hI.2
+      · rw [basis_set _ _ (by simp only [Array.set!_eq_setIfInBounds, Array.size_setIfInBounds]; exact hI.2)]
+        simp only [f1]
+
+/-- the generated `while` loop followed by the final test is the model's fuelled loop -/
+theorem lp_loop (target : Int) (dir : ℕ) (c : PyObj K → PyM Bool) (body : PyObj K → PyM (PyObj K))
+    (post : PyObj K → PyM (PyObj K))
+    (hc : ∀ o, LpInv o dir → c (ofObj o) = .ok (decide (target < (o.basis dir).periodic)))
+    (hbody : ∀ o, LpInv o dir → body (ofObj o) = (lpStep o dir).map ofObj)
+    (hpost : ∀ o, LpInv o dir → post (ofObj o)
+      = if target > (o.basis dir).periodic then .error .value else .ok (ofObj o)) :
+    ∀ (n : ℕ) (o : Obj K), LpInv o dir → n = ((o.basis dir).periodic - target).toNat →
+      (whileFuelM n (ofObj o) c body >>= post) = (Obj.lowerPeriodic.loop target dir (n + 1) o).map ofObj := by
+  intro n
+  induction n with
+  | zero =>
+    intro o hI hn
+    have hle : ¬ target < (o.basis dir).periodic := by omega
+    rw [lp_loop_succ, if_neg hle]
+    simp only [whileFuelM, hc o hI, hle, decide_false, ok_bind, Bool.false_eq_true, if_false, hpost o hI]
+    split_ifs <;> rfl
+  | succ n ih =>
+    intro o hI hn
+    have hlt : target < (o.basis dir).periodic := by omega
+    rw [lp_loop_succ, if_pos hlt]
+    simp only [whileFuelM, hc o hI, hlt, decide_true, ok_bind, if_true, hbody o hI]
+    cases hs : lpStep o dir with
+    | error e => rfl
+    | ok o' =>
+      obtain ⟨hI', hp'⟩ := lpStep_facts o o' dir hI hs
+      simp only [map_ok, ok_bind]
+      exact ih o' hI' (by omega)
+
+end Splipy.PyO
+
+-- ---------------------------------------------------------------------------- t3b part 2
+
+namespace Splipy.PyO
+open Splipy Splipy.Generated Splipy.C06
+variable {K : Type} [Field K] [LinearOrder K] [FloorRing K]
+
+/-! ## small facts used by several methods (no generated code) -/
+
+theorem slice_dropLast_toArray (a : Array K) :
+    (slice a.toList none (some (-1))).toArray = a.extract 0 (a.size - 1) := by
+  rw [slice_dropLast]
+  apply Array.ext
+  · simp
+  · intro i h1 h2
+    simp [List.getElem_dropLast]
+
+theorem ofObj_dimension_shape (o o' : Obj K) (h : o'.cps.shape.getLastD 0 = o.cps.shape.getLastD 0)
+    (hr : o'.rational = o.rational) : o'.dimension = o.dimension := by
+  unfold Obj.dimension Obj.ncomp
+  rw [h, hr]
+
+/-! ### method: lower_periodic -/
+
+theorem lp_body (o : Obj K) (tol : K) (dir : ℕ) (hI : LpInv o dir) (hd2 : dir ≤ 2) :
+    (do
+      let tmp8 ← PyObject.start_dir (ofObj o) tol (DirTok.int dir)
+      let self_ ← PyObject.insert_knot (ofObj o) tol (Param.scalar tmp8) (DirTok.int dir)
+      let tmp9 ← npRoll self_.controlpoints (-1 : Int) (dir : Int)
+      let self_ : PyObj K := { self_ with controlpoints := tmp9 }
+      let tmp10 ← getBasis self_.bases (dir : Int)
+      let tmp11 ← basisRoll tmp10 (1 : Int)
+      let tmp12 ← setBasis self_.bases (dir : Int) tmp11
+      let self_ : PyObj K := { self_ with bases := tmp12 }
+      let tmp13 ← getBasis self_.bases (dir : Int)
+      let tmp14 ← getBasis self_.bases (dir : Int)
+      let tmp15 ← setBasis self_.bases (dir : Int) { tmp14 with periodic := (tmp13.periodic - (1 : Int)) }
+      let self_ : PyObj K := { self_ with bases := tmp15 }
+      let tmp16 ← getBasis self_.bases (dir : Int)
+      let tmp17 ← getBasis self_.bases (dir : Int)
+      let tmp18 ← setBasis self_.bases (dir : Int)
+        { tmp17 with knots := (slice tmp16.knots.toList none (some (-1 : Int))).toArray }
+      let self_ : PyObj K := { self_ with bases := tmp18 }
+      pure self_) = (lpStep o dir).map ofObj := by
+  obtain ⟨hb, hdir⟩ := hI
+  have hpd : o.pardim = o.bases.size := by unfold Obj.pardim; omega
+  rw [PyObject_start_dir_eq o tol _ (by omega) (by omega), checkDirection_int (by omega) hd2]
+  simp only [map_ok, ok_bind]
+  rw [PyObject_insert_knot_eq o tol _ _ hb, checkDirection_int (by omega) hd2]
+  simp only [ok_bind, ensure_listlike]
+  unfold lpStep
+  simp only []
+  cases hk : o.insertKnots [(o.basis dir).start] dir with
+  | error e => rfl
+  | ok o1 =>
+    have hk' := hk
+    rw [insertKnots_single] at hk'
+    have ho1 : o1.bases.size = o.bases.size ∧ o1.cps.shape.length = o.cps.shape.length := by
+      cases hi : (o.basis dir).insertKnot (o.basis dir).start with
+      | error e => rw [hi] at hk'; exact absurd hk' (by simp)
+      | ok r =>
+        rw [hi] at hk'
+        cases hk'
+        simp [applyAxis_shape']
+    simp only [ok_bind, pure_eq_ok, ofObj_cps, ofObj_bases]
+    unfold npRoll
+    rw [normIdx_nat (by omega)]
+    have hneg : ¬ ((0 : Int) ≤ -1) := by omega
+    simp only [hneg, if_false, ok_bind]
+    rw [getBasis_nat _ (by omega), ok_bind]
+    unfold basisRoll
+    have h1 : ¬ ((1 : Int) < 0) := by omega
+    simp only [h1, if_false]
+    have hguard : ¬ (((o1.basis dir).order : Int) + (o1.basis dir).periodic + 1 + 1 > ((o1.basis dir).knots.size : Int)) := by
+      cases hi : (o.basis dir).insertKnot (o.basis dir).start with
+      | error e => rw [hi] at hk'; exact absurd hk' (by simp)
+      | ok r =>
+        rw [hi] at hk'
+        cases hk'
+        obtain ⟨f1, f2⟩ := insertKnot_fields _ _ _ hi
+        obtain ⟨f3, f4⟩ := insertKnot_size _ _ _ hi
+        rw [basis_set _ _ hdir]
+        rw [f1, f2, f3]
+        push_cast
+        omega
+    have hbd : o1.bases.getD dir default = o1.basis dir := rfl
+    rw [hbd]
+    rw [show (if (o1.basis dir).periodic < 0 then (Except.error PyErr.runtime : PyM (Basis K))
+          else if ((o1.basis dir).order : Int) + (o1.basis dir).periodic + 1 + 1 > ((o1.basis dir).knots.size : Int)
+            then Except.error PyErr.value else (o1.basis dir).roll (Int.toNat 1)) = (o1.basis dir).roll 1 from by
+      by_cases hp : (o1.basis dir).periodic < 0
+      · rw [if_pos hp]; unfold Basis.roll; rw [if_pos hp]
+      · rw [if_neg hp, if_neg hguard]; rfl]
+    show (do let tmp11 ← (o1.basis dir).roll 1; _) = _
+    cases hroll : (o1.basis dir).roll 1 with
+    | error e => rfl
+    | ok b1 =>
+      simp only [ok_bind]
+      rw [setBasis_nat _ (by omega)]
+      simp only [ok_bind]
+      rw [getBasis_nat _ (by simp; omega), getD_set!_self _ _ (by omega)]
+      simp only [ok_bind]
+      rw [setBasis_nat _ (by simp; omega)]
+      simp only [ok_bind, set!_set!]
+      rw [getBasis_nat _ (by simp; omega), getD_set!_self _ _ (by omega)]
+      simp only [ok_bind]
+      rw [setBasis_nat _ (by simp; omega)]
+      simp only [ok_bind, set!_set!, map_ok, slice_dropLast_toArray]
+      have e1 : (- (-1 : Int)).toNat = 1 := by decide
+      rw [e1]
+      congr 1
+      unfold ofObj
+      simp only [PyObj.mk.injEq, true_and, and_true, Nat.cast_inj]
+      symm
+      apply ofObj_dimension_shape
+      · simp only [rollAxisNeg_shape]
+      · rfl
+
+theorem _root_.PyObject_lower_periodic_eq (o : Obj K) (tol : K) (target : Int) (d : DirTok)
+    (hb : o.cps.shape.length = o.bases.size + 1) :
+    PyObject.lower_periodic (ofObj o) tol target d = (do
+      let dir ← checkDirection d o.pardim
+      let o' ← o.lowerPeriodic target dir
+      pure (ofObj o')) := by
+  have hpd : o.pardim = o.bases.size := by unfold Obj.pardim; omega
+  unfold PyObject.lower_periodic
+  simp only [PyObject_pardim_eq o tol (by omega), ok_bind, PyObject_check_direction_eq]
+  cases hc : checkDirection d o.pardim with
+  | error e => rfl
+  | ok dir =>
+    have hdir := checkDirection_lt hc
+    have hd2 := checkDirection_le2 hc
+    have hI : LpInv o dir := ⟨hb, by omega⟩
+    simp only [map_ok, ok_bind, ofObj_bases]
+    rw [getBasis_nat _ (by omega), ok_bind]
+    unfold Obj.lowerPeriodic
+    have hbas : o.bases.getD dir default = o.basis dir := rfl
+    rw [hbas]
+    simp only [pure_eq_ok]
+    refine (lp_loop target dir _ _ _ ?_ ?_ ?_ _ o hI rfl).trans ?_
+    · intro o' hI'
+      simp only [ofObj_bases]
+      rw [getBasis_nat _ hI'.2]
+      rfl
+    · exact fun o' hI' => lp_body o' tol dir hI' hd2
+    · intro o' hI'
+      simp only [ofObj_bases]
+      rw [getBasis_nat _ hI'.2, ok_bind]
+      have hb' : o'.bases.getD dir default = o'.basis dir := rfl
+      rw [hb']
+      split_ifs <;> rfl
+    · cases Obj.lowerPeriodic.loop target dir (((o.basis dir).periodic - target).toNat + 1) o <;> rfl
+
+end Splipy.PyO
+
+-- ---------------------------------------------------------------------------- t3b part 3
+
+namespace Splipy.PyO
+open Splipy Splipy.Generated Splipy.C06 Splipy.Tensor
+variable {K : Type} [Field K] [LinearOrder K]
+
+/-! ## indexing one axis (`t[:, …, i, …, :]`), no generated code -/
+
+theorem build3_congr (shape : List ℕ) (ax m : ℕ) (f g : ℕ → ℕ → ℕ → K)
+    (h : ∀ a r i, a < Tensor.prod (shape.take ax) → r < m → i < Tensor.prod (shape.drop (ax + 1)) → f a r i = g a r i) :
+    Tensor.build3 shape ax m f = Tensor.build3 shape ax m g := by
+  unfold Tensor.build3 Tensor.split3
+  simp only []
+  congr 1
+  apply Array.ext
+  · simp
+  · intro k h1 h2
+    simp only [Array.size_ofFn] at h1
+    simp only [Array.getElem_ofFn]
+    set o := Tensor.prod (shape.take ax)
+    set inn := Tensor.prod (shape.drop (ax + 1))
+    have hinn : 0 < inn := by
+      rcases Nat.eq_zero_or_pos inn with h0 | h0
+      · rw [h0] at h1; simp at h1
+      · exact h0
+    have hm : 0 < m := by
+      rcases Nat.eq_zero_or_pos m with h0 | h0
+      · rw [h0] at h1; simp at h1
+      · exact h0
+    apply h
+    · apply Nat.div_lt_of_lt_mul
+      calc k < o * m * inn := h1
+        _ = inn * m * o := by ring
+    · exact Nat.mod_lt _ hm
+    · exact Nat.mod_lt _ hinn
+
+theorem takeAxis_shape' (t : Tensor K) (ax k : ℕ) : (t.takeAxis ax k).shape = t.shape.eraseIdx ax := by
+  unfold Tensor.takeAxis Tensor.reindexAxis Tensor.build3
+  simp only []
+  apply List.ext_getElem?
+  intro j
+  simp only [List.getElem?_eraseIdx, List.getElem?_set]
+  split_ifs <;> first | rfl | omega
+
+theorem takeAxis_size (t : Tensor K) (ax k : ℕ) :
+    (t.takeAxis ax k).data.size = Tensor.prod (t.shape.take ax) * Tensor.prod (t.shape.drop (ax + 1)) := by
+  unfold Tensor.takeAxis Tensor.reindexAxis
+  simp [Tensor.build3, Tensor.split3]
+
+theorem takeAxis_get' (t : Tensor K) (ax k : ℕ) {a i : ℕ} (ha : a < Tensor.prod (t.shape.take ax))
+    (hi : i < Tensor.prod (t.shape.drop (ax + 1))) :
+    (t.takeAxis ax k).get (a * Tensor.prod (t.shape.drop (ax + 1)) + i) = t.at3 ax a k i := by
+  unfold Tensor.takeAxis Tensor.reindexAxis
+  have := Tensor.build3_readback t.shape ax 1 (fun a r i => t.at3 ax a k i) (a := a) (r := 0) (i := i) ha (by omega) hi
+  simp only [Nat.mul_one, Nat.add_zero] at this
+  exact this
+
+theorem set_replicate_all (nd dir : ℕ) (tok : IdxTok) (h : dir < nd) :
+    (List.replicate nd IdxTok.all).set dir tok
+      = List.replicate dir IdxTok.all ++ tok :: List.replicate (nd - dir - 1) IdxTok.all := by
+  apply List.ext_getElem
+  · simp; omega
+  · intro k h1 h2
+    simp only [List.getElem_set, List.getElem_append, List.length_replicate, List.getElem_replicate,
+      List.getElem_cons]
+    by_cases hk : dir = k
+    · subst hk; simp
+    · by_cases hlt : k < dir
+      · simp [hk, hlt]
+      · have : ¬ (k - dir = 0) := by omega
+        simp [hk, hlt, this]
+
+/-- the fold of `npIndex` -/
+def ixStep (st : Tensor K × ℕ) (tok : IdxTok) : PyM (Tensor K × ℕ) :=
+  match tok with
+  | .all => pure (st.1, st.2 + 1)
+  | .range lo hi =>
+    let n := st.1.shape.getD st.2 0
+    pure (st.1.sliceAxis st.2 (sliceLo n lo) (max (sliceLo n lo) (sliceHi n hi)), st.2 + 1)
+  | .at i =>
+    match normIdx (st.1.shape.getD st.2 0) i with
+    | some k => pure (st.1.takeAxis st.2 k, st.2)
+    | none => .error .index
+
+theorem npIndex_eq (t : Tensor K) (ix : List IdxTok) :
+    npIndex t ix = if t.shape.length < ix.length then .error .index
+      else (ix.foldlM ixStep (t, 0)).map (fun st => st.1) := rfl
+
+theorem fold_all (t : Tensor K) (ax n : ℕ) :
+    (List.replicate n IdxTok.all).foldlM ixStep (t, ax) = .ok (t, ax + n) := by
+  induction n generalizing ax with
+  | zero => rfl
+  | succ n ih =>
+    rw [List.replicate_succ, List.foldlM_cons]
+    show (pure (t, ax + 1) >>= fun s => List.foldlM ixStep s (List.replicate n IdxTok.all)) = _
+    rw [pure_bind, ih]
+    congr 2; omega
+
+theorem npIndex_at (t : Tensor K) (dir : ℕ) (i : Int) (h : dir < t.shape.length) :
+    npIndex t ((List.replicate t.shape.length IdxTok.all).set dir (.at i))
+      = match normIdx (t.shape.getD dir 0) i with
+        | some k => .ok (t.takeAxis dir k)
+        | none => .error .index := by
+  rw [npIndex_eq, set_replicate_all _ _ _ h]
+  have hl : ¬ t.shape.length < (List.replicate dir IdxTok.all ++ IdxTok.at i ::
+      List.replicate (t.shape.length - dir - 1) IdxTok.all).length := by simp; omega
+  rw [if_neg hl, List.foldlM_append, fold_all]
+  simp only [ok_bind, Nat.zero_add, List.foldlM_cons]
+  rw [show ixStep (t, dir) (IdxTok.at i) = (match normIdx (t.shape.getD dir 0) i with
+      | some k => pure (t.takeAxis dir k, dir)
+      | none => .error .index) from rfl]
+  cases normIdx (t.shape.getD dir 0) i with
+  | none => rfl
+  | some k =>
+    simp only [pure_eq_ok, ok_bind]
+    rw [fold_all (t.takeAxis dir k) dir (t.shape.length - dir - 1)]
+    rfl
+
+theorem npIndex_range (t : Tensor K) (dir : ℕ) (lo hi : Option Int) (h : dir < t.shape.length) :
+    npIndex t ((List.replicate t.shape.length IdxTok.all).set dir (.range lo hi))
+      = .ok (t.sliceAxis dir (sliceLo (t.shape.getD dir 0) lo)
+          (max (sliceLo (t.shape.getD dir 0) lo) (sliceHi (t.shape.getD dir 0) hi))) := by
+  rw [npIndex_eq, set_replicate_all _ _ _ h]
+  have hl : ¬ t.shape.length < (List.replicate dir IdxTok.all ++ IdxTok.range lo hi ::
+      List.replicate (t.shape.length - dir - 1) IdxTok.all).length := by simp; omega
+  rw [if_neg hl, List.foldlM_append, fold_all]
+  simp only [ok_bind, Nat.zero_add, List.foldlM_cons]
+  rw [show ixStep (t, dir) (IdxTok.range lo hi) = pure (t.sliceAxis dir (sliceLo (t.shape.getD dir 0) lo)
+          (max (sliceLo (t.shape.getD dir 0) lo) (sliceHi (t.shape.getD dir 0) hi)), dir + 1) from rfl]
+  simp only [pure_eq_ok, ok_bind]
+  rw [fold_all _ (dir + 1) (t.shape.length - dir - 1)]
+  rfl
+
+theorem findIdx_replicate_all (n : ℕ) :
+    (List.replicate n IdxTok.all).findIdx (fun x => decide (x ≠ IdxTok.all)) = n := by
+  induction n with
+  | zero => rfl
+  | succ n ih =>
+    rw [List.replicate_succ, List.findIdx_cons]
+    simp only [ne_eq, not_true_eq_false, decide_false, cond_false]
+    rw [ih]
+
+theorem npSetIndex_at (t v : Tensor K) (dir : ℕ) (i : Int) (k : ℕ) (h : dir < t.shape.length)
+    (hk : normIdx (t.shape.getD dir 0) i = some k) (hv : v.shape = t.shape.eraseIdx dir) :
+    npSetIndex t ((List.replicate t.shape.length IdxTok.all).set dir (.at i)) v = .ok (putAxis t dir k v) := by
+  unfold npSetIndex
+  rw [set_replicate_all _ _ _ h]
+  have hl : ¬ t.shape.length < (List.replicate dir IdxTok.all ++ IdxTok.at i ::
+      List.replicate (t.shape.length - dir - 1) IdxTok.all).length := by simp; omega
+  rw [if_neg hl]
+  have hf : (List.replicate dir IdxTok.all ++ IdxTok.at i ::
+      List.replicate (t.shape.length - dir - 1) IdxTok.all).filter (fun x => decide (x ≠ IdxTok.all)) = [IdxTok.at i] := by
+    rw [List.filter_append, List.filter_cons]
+    simp [List.filter_replicate]
+  have hi : (List.replicate dir IdxTok.all ++ IdxTok.at i ::
+      List.replicate (t.shape.length - dir - 1) IdxTok.all).findIdx (fun x => decide (x ≠ IdxTok.all)) = dir := by
+    rw [List.findIdx_append, findIdx_replicate_all]
+    simp [List.findIdx_cons]
+  simp only [hf, hi, hk, hv, if_true]
+
+end Splipy.PyO
+
+-- ---------------------------------------------------------------------------- t3b part 4
+
+namespace Splipy.PyO
+open Splipy Splipy.Generated Splipy.C06 Splipy.Tensor
+variable {K : Type} [Field K] [LinearOrder K] [FloorRing K]
+
+/-! ## `make_periodic`: the merge loop (no generated code) -/
+
+/-- rows `< m` along `dir` already merged -/
+def mergeN (t : Tensor K) (dir k m : ℕ) : Tensor K :=
+  let n := t.shape.getD dir 0
+  Tensor.build3 t.shape dir n (fun a r i =>
+    if r < m then
+      Obj.periodicWeight k r * t.at3 dir a r i + (1 - Obj.periodicWeight k r) * t.at3 dir a (n - (k + 1) + r) i
+    else t.at3 dir a r i)
+
+theorem getD_01 (l : List ℕ) (d : ℕ) (h : d < l.length) : l.getD d 1 = l.getD d 0 := by
+  simp [List.getD_eq_getElem?_getD, h]
+
+theorem mergeN_shape (t : Tensor K) (dir k m : ℕ) : (mergeN t dir k m).shape = t.shape := by
+  unfold mergeN
+  simp only [Tensor.build3_shape]
+  exact set_getD_self _ _ _
+
+theorem split3_eq (t : Tensor K) (dir : ℕ) (h : dir < t.shape.length) :
+    Tensor.split3 t.shape dir = (Tensor.prod (t.shape.take dir), t.shape.getD dir 0, Tensor.prod (t.shape.drop (dir + 1))) := by
+  unfold Tensor.split3
+  rw [getD_01 _ _ h]
+
+theorem mergeN_at3 (t : Tensor K) (dir k m : ℕ) (h : dir < t.shape.length) {a r i : ℕ}
+    (ha : a < Tensor.prod (t.shape.take dir)) (hr : r < t.shape.getD dir 0) (hi : i < Tensor.prod (t.shape.drop (dir + 1))) :
+    (mergeN t dir k m).at3 dir a r i
+      = if r < m then
+          Obj.periodicWeight k r * t.at3 dir a r i
+            + (1 - Obj.periodicWeight k r) * t.at3 dir a (t.shape.getD dir 0 - (k + 1) + r) i
+        else t.at3 dir a r i := by
+  unfold mergeN
+  exact Tensor.build3_at3 _ _ _ _ h ha hr hi
+
+/-- re-assembling an array from its entries along one axis -/
+theorem build3_at3_self (t : Tensor K) (dir : ℕ) (h : dir < t.shape.length) (hwf : t.data.size = Tensor.prod t.shape) :
+    Tensor.build3 t.shape dir (t.shape.getD dir 0) (fun a r i => t.at3 dir a r i) = t := by
+  apply tensor_mk_ext
+  · rw [Tensor.build3_shape]; exact set_getD_self _ _ _
+  · have hprod := C06.prod_split t.shape dir h
+    rw [getD_01 _ _ h] at hprod
+    apply Array.ext
+    · rw [Tensor.build3_data_size, hwf, hprod]
+    · intro idx h1 h2
+      rw [Tensor.build3_data_size] at h1
+      set o := Tensor.prod (t.shape.take dir)
+      set n := t.shape.getD dir 0
+      set inn := Tensor.prod (t.shape.drop (dir + 1))
+      unfold Tensor.build3
+      simp only [split3_eq t dir h, Array.getElem_ofFn]
+      unfold Tensor.at3
+      simp only [split3_eq t dir h]
+      have hinn : 0 < inn := by
+        rcases Nat.eq_zero_or_pos inn with h0 | h0
+        · rw [h0] at h1; simp at h1
+        · exact h0
+      have hn : 0 < n := by
+        rcases Nat.eq_zero_or_pos n with h0 | h0
+        · rw [h0] at h1; simp at h1
+        · exact h0
+      have e : (idx / (inn * n) * n + idx / inn % n) * inn + idx % inn = idx := by
+        have h3 : idx / (inn * n) = idx / inn / n := by rw [Nat.div_div_eq_div_mul]
+        rw [h3, Nat.div_add_mod' (idx / inn) n, Nat.div_add_mod' idx inn]
+      rw [e]
+      simp [Tensor.get, Array.getD, h2]
+
+theorem mergeN_zero (t : Tensor K) (dir k : ℕ) (h : dir < t.shape.length) (hwf : t.data.size = Tensor.prod t.shape) :
+    mergeN t dir k 0 = t := by
+  unfold mergeN
+  simp only [Nat.not_lt_zero, if_false]
+  exact build3_at3_self t dir h hwf
+
+end Splipy.PyO
+
+-- ---------------------------------------------------------------------------- t3b part 5
+
+namespace Splipy.PyO
+open Splipy Splipy.Generated Splipy.C06 Splipy.Tensor
+variable {K : Type} [Field K] [LinearOrder K] [FloorRing K]
+
+theorem tAdd_tScale_get (x y : K) (A B : Tensor K) (hs : B.data.size = A.data.size) {j : ℕ} (hj : j < A.data.size) :
+    (tPlus (tScale x A) (tScale y B)).get j = x * A.get j + y * B.get j := by
+  unfold tPlus tScale
+  simp only [get_mk_ofFn, Array.size_ofFn, hj, hs, dif_pos]
+
+theorem tAdd_tScale_shape (x y : K) (A B : Tensor K) : (tPlus (tScale x A) (tScale y B)).shape = A.shape := rfl
+
+/-- one pass of the merge loop -/
+theorem mergeN_step (t : Tensor K) (dir k m : ℕ) (h : dir < t.shape.length) (hm : m ≤ k)
+    (hn : k + 1 ≤ t.shape.getD dir 0) :
+    putAxis (mergeN t dir k m) dir m
+      (tPlus (tScale (Obj.periodicWeight k m) ((mergeN t dir k m).takeAxis dir m))
+            (tScale (1 - Obj.periodicWeight k m)
+              ((mergeN t dir k m).takeAxis dir (t.shape.getD dir 0 - (k + 1) + m))))
+      = mergeN t dir k (m + 1) := by
+  set n := t.shape.getD dir 0 with hnd
+  set M := mergeN t dir k m with hM
+  have hMs : M.shape = t.shape := mergeN_shape t dir k m
+  unfold putAxis
+  rw [hMs, split3_eq t dir h]
+  simp only []
+  conv_rhs => unfold mergeN
+  simp only [← hnd]
+  apply build3_congr
+  intro a r i ha hr hi
+  have hsz : ∀ j, (M.takeAxis dir j).data.size
+      = Tensor.prod (t.shape.take dir) * Tensor.prod (t.shape.drop (dir + 1)) := by
+    intro j; rw [takeAxis_size, hMs]
+  have hflat : a * Tensor.prod (t.shape.drop (dir + 1)) + i
+      < Tensor.prod (t.shape.take dir) * Tensor.prod (t.shape.drop (dir + 1)) := by
+    have := Nat.mul_le_mul_right (Tensor.prod (t.shape.drop (dir + 1))) (Nat.succ_le_of_lt ha)
+    rw [Nat.succ_mul] at this
+    omega
+  by_cases hrm : r = m
+  · subst hrm
+    rw [if_pos rfl, if_pos (by omega)]
+    rw [tAdd_tScale_get _ _ _ _ (by rw [hsz, hsz]) (by rw [hsz]; exact hflat)]
+    have g1 := takeAxis_get' M dir r (a := a) (i := i) (by rw [hMs]; exact ha) (by rw [hMs]; exact hi)
+    have g2 := takeAxis_get' M dir (n - (k + 1) + r) (a := a) (i := i) (by rw [hMs]; exact ha) (by rw [hMs]; exact hi)
+    rw [hMs] at g1 g2
+    rw [g1, g2, hM, mergeN_at3 t dir k r h ha hr hi, if_neg (lt_irrefl r),
+      mergeN_at3 t dir k r h ha (by omega) hi, if_neg (by omega)]
+  · rw [if_neg hrm, hM, mergeN_at3 t dir k m h ha hr hi]
+    by_cases hlt : r < m
+    · rw [if_pos hlt, if_pos (by omega)]
+    · rw [if_neg hlt, if_neg (by omega)]
+
+/-- cutting the last `k+1` rows after the merge gives the model's `mergeCps` -/
+theorem mergeN_slice (t : Tensor K) (dir k : ℕ) (h : dir < t.shape.length) (hn : k + 1 ≤ t.shape.getD dir 0) :
+    (mergeN t dir k (k + 1)).sliceAxis dir 0 (t.shape.getD dir 0 - (k + 1)) = Obj.mergeCps t dir k := by
+  set n := t.shape.getD dir 0 with hnd
+  unfold Tensor.sliceAxis Tensor.reindexAxis Obj.mergeCps
+  rw [mergeN_shape]
+  simp only [← hnd, Nat.sub_zero]
+  apply build3_congr
+  intro a r i ha hr hi
+  rw [Nat.zero_add, mergeN_at3 t dir k (k + 1) h ha (by omega) hi]
+  by_cases hrk : r ≤ k
+  · rw [if_pos (by omega), if_pos hrk]
+  · rw [if_neg (by omega), if_neg hrk]
+
+end Splipy.PyO
+
+-- ---------------------------------------------------------------------------- t3b part 6
+
+namespace Splipy.PyO
+open Splipy Splipy.Generated Splipy.C06 Splipy.Tensor
+variable {K : Type} [Field K] [LinearOrder K] [FloorRing K]
+
+/-- one pass of the merge loop of `make_periodic` as the code writes it -/
+def mgStep (dir : Int) (x : Int × Int × K) (st : List IdxTok × List IdxTok × Tensor K) :
+    PyM (List IdxTok × List IdxTok × Tensor K) := do
+  let ixb ← setItem st.1 dir (IdxTok.at x.1)
+  let ixe ← setItem st.2.1 dir (IdxTok.at x.2.1)
+  let a ← npIndex st.2.2 ixb
+  let b ← npIndex st.2.2 ixe
+  let cps ← npSetIndex st.2.2 ixb (tPlus (tScale x.2.2 a) (tScale (1 - x.2.2) b))
+  pure (ixb, ixe, cps)
+
+theorem zip3_ranges (k : ℕ) (W : List K) (hW : W = (List.range (k + 1)).map (Obj.periodicWeight k)) :
+    zip3 (rangeI 0 ((k : Int) + 1)) (rangeI (-(k : Int) - 1) 0) W
+      = (List.range (k + 1)).map (fun (m : ℕ) => ((m : Int), (-(k : Int) - 1 + (m : Int)), Obj.periodicWeight k m)) := by
+  unfold zip3 rangeI
+  have e1 : ((k : Int) + 1 - 0).toNat = k + 1 := by omega
+  have e2 : ((0 : Int) - (-(k : Int) - 1)).toNat = k + 1 := by omega
+  rw [e1, e2, hW, List.zip_map', List.zip_map']
+  apply List.map_congr_left
+  intro m _
+  simp
+
+/-- the index list with entry `dir` replaced after `m` passes -/
+def ixAfter (nd dir : ℕ) (f : ℕ → Int) (m : ℕ) : List IdxTok :=
+  if m = 0 then List.replicate nd IdxTok.all else (List.replicate nd IdxTok.all).set dir (.at (f (m - 1)))
+
+theorem setItem_ixAfter (nd dir : ℕ) (f : ℕ → Int) (m : ℕ) (h : dir < nd) :
+    setItem (ixAfter nd dir f m) (dir : Int) (IdxTok.at (f m))
+      = .ok ((List.replicate nd IdxTok.all).set dir (.at (f m))) := by
+  unfold ixAfter
+  split_ifs
+  · rw [setItem_nat _ (by simpa using h)]
+  · rw [setItem_nat _ (by simpa using h), List.set_set]
+
+theorem normIdx_neg {n : ℕ} {i : Int} (h0 : i < 0) (h1 : 0 ≤ i + n) : normIdx n i = some (i + n).toNat := by
+  unfold normIdx
+  have : ¬ (0 ≤ i) := by omega
+  simp [this, h1]
+
+theorem normIdx_neg_none {n : ℕ} {i : Int} (h0 : i < 0) (h1 : i + n < 0) : normIdx n i = none := by
+  unfold normIdx
+  have : ¬ (0 ≤ i) := by omega
+  have : ¬ (0 ≤ i + n) := by omega
+  simp [*]
+
+theorem mgStep_ok (t : Tensor K) (dir k m : ℕ) (h : dir < t.shape.length) (hm : m ≤ k)
+    (hn : k + 1 ≤ t.shape.getD dir 0) :
+    mgStep (dir : Int) ((m : Int), (-(k : Int) - 1 + (m : Int)), Obj.periodicWeight k m)
+        (ixAfter t.shape.length dir (fun j => (j : Int)) m,
+         ixAfter t.shape.length dir (fun j => -(k : Int) - 1 + (j : Int)) m, mergeN t dir k m)
+      = .ok (ixAfter t.shape.length dir (fun j => (j : Int)) (m + 1),
+             ixAfter t.shape.length dir (fun j => -(k : Int) - 1 + (j : Int)) (m + 1), mergeN t dir k (m + 1)) := by
+  set n := t.shape.getD dir 0 with hnd
+  have hMs : (mergeN t dir k m).shape = t.shape := mergeN_shape t dir k m
+  unfold mgStep
+  simp only []
+  rw [setItem_ixAfter _ _ (fun j => (j : Int)) m h, ok_bind,
+    setItem_ixAfter _ _ (fun j => -(k : Int) - 1 + (j : Int)) m h, ok_bind]
+  have hb := npIndex_at (mergeN t dir k m) dir (m : Int) (by rw [hMs]; exact h)
+  have he := npIndex_at (mergeN t dir k m) dir (-(k : Int) - 1 + (m : Int)) (by rw [hMs]; exact h)
+  rw [hMs] at hb he
+  rw [normIdx_nat (show m < n by omega)] at hb
+  rw [normIdx_neg (by omega) (by omega)] at he
+  have e1 : (-(k : Int) - 1 + (m : Int) + (n : Int)).toNat = n - (k + 1) + m := by omega
+  rw [e1] at he
+  simp only [] at hb he
+  rw [hb, ok_bind, he, ok_bind]
+  have hs := npSetIndex_at (mergeN t dir k m)
+    (tPlus (tScale (Obj.periodicWeight k m) ((mergeN t dir k m).takeAxis dir m))
+      (tScale (1 - Obj.periodicWeight k m) ((mergeN t dir k m).takeAxis dir (n - (k + 1) + m))))
+    dir (m : Int) m (by rw [hMs]; exact h) (by rw [hMs]; exact normIdx_nat (by omega))
+    (by rw [tAdd_tScale_shape, takeAxis_shape'])
+  rw [hMs] at hs
+  rw [hs, ok_bind, mergeN_step t dir k m h hm hn]
+  simp only [pure_eq_ok, ixAfter, Nat.succ_ne_zero, if_false, Nat.add_sub_cancel]
+
+/-- the merge loop followed by the cut `cps[..., :-(k+1), ...]` -/
+theorem merge_loop (t : Tensor K) (dir k : ℕ) (h : dir < t.shape.length) (hwf : t.data.size = Tensor.prod t.shape)
+    (W : List K) (hW : W = (List.range (k + 1)).map (Obj.periodicWeight k)) :
+    (do
+      let st ← (zip3 (rangeI 0 ((k : Int) + 1)) (rangeI (-(k : Int) - 1) 0) W).foldlM
+        (fun s x => mgStep (dir : Int) x s)
+        (List.replicate t.shape.length IdxTok.all, List.replicate t.shape.length IdxTok.all, t)
+      let ixb ← setItem st.1 (dir : Int) (IdxTok.range none (some (-((k : Int) + 1))))
+      npIndex st.2.2 ixb)
+      = if t.shape.getD dir 0 < k + 1 then .error .index else .ok (Obj.mergeCps t dir k) := by
+  set n := t.shape.getD dir 0 with hnd
+  rw [zip3_ranges k W hW, List.foldlM_map]
+  by_cases hn : n < k + 1
+  · rw [if_pos hn, List.range_succ_eq_map, List.foldlM_cons]
+    have hfail : mgStep (dir : Int) (((0 : ℕ) : Int), (-(k : Int) - 1 + ((0 : ℕ) : Int)), Obj.periodicWeight k 0)
+        (List.replicate t.shape.length IdxTok.all, List.replicate t.shape.length IdxTok.all, t) = .error .index := by
+      unfold mgStep
+      simp only []
+      rw [setItem_nat _ (by simpa using h), ok_bind, setItem_nat _ (by simpa using h), ok_bind,
+        npIndex_at t dir _ h, npIndex_at t dir _ h, ← hnd]
+      simp only [Nat.cast_zero, add_zero]
+      rw [normIdx_neg_none (n := n) (i := -(k : Int) - 1) (by omega) (by omega)]
+      cases normIdx n (0 : Int) <;> rfl
+    rw [hfail]
+    rfl
+  · rw [if_neg hn]
+    have hn' : k + 1 ≤ n := by omega
+    have h0 : (List.replicate t.shape.length IdxTok.all, List.replicate t.shape.length IdxTok.all, t)
+        = (ixAfter t.shape.length dir (fun j => (j : Int)) 0,
+           ixAfter t.shape.length dir (fun j => -(k : Int) - 1 + (j : Int)) 0, mergeN t dir k 0) := by
+      rw [mergeN_zero t dir k h hwf]; rfl
+    rw [h0, foldlM_range_iter (k + 1) _
+      (fun m => (ixAfter t.shape.length dir (fun j => (j : Int)) m,
+                 ixAfter t.shape.length dir (fun j => -(k : Int) - 1 + (j : Int)) m, mergeN t dir k m))
+      (fun m hm => mgStep_ok t dir k m h (by omega) hn'), ok_bind]
+    simp only [ixAfter, Nat.succ_ne_zero, if_false, Nat.add_sub_cancel]
+    rw [setItem_nat _ (by simpa using h), ok_bind, List.set_set]
+    have hsl := npIndex_range (mergeN t dir k (k + 1)) dir none (some (-((k : Int) + 1))) (by rw [mergeN_shape]; exact h)
+    rw [mergeN_shape] at hsl
+    rw [hsl, ← hnd]
+    have e1 : sliceLo n none = 0 := rfl
+    have e2 : sliceHi n (some (-((k : Int) + 1))) = n - (k + 1) := by
+      unfold sliceHi
+      have : (-((k : Int) + 1)) < 0 := by omega
+      simp only [this, if_true]
+      omega
+    rw [e1, e2, Nat.zero_max, mergeN_slice t dir k h hn']
+
+end Splipy.PyO
+
+-- ---------------------------------------------------------------------------- t3b part 7
+
+namespace Splipy.PyO
+open Splipy Splipy.Generated Splipy.C06 Splipy.Tensor
+variable {K : Type} [Field K] [LinearOrder K] [FloorRing K]
+
+theorem merge_loop_k {β : Type} (t : Tensor K) (dir k : ℕ) (h : dir < t.shape.length)
+    (hwf : t.data.size = Tensor.prod t.shape)
+    (W : List K) (hW : W = (List.range (k + 1)).map (Obj.periodicWeight k)) (F : Tensor K → PyM β) :
+    (do
+      let st ← (zip3 (rangeI 0 ((k : Int) + 1)) (rangeI (-(k : Int) - 1) 0) W).foldlM
+        (fun s x => mgStep (dir : Int) x s)
+        (List.replicate t.shape.length IdxTok.all, List.replicate t.shape.length IdxTok.all, t)
+      let ixb ← setItem st.1 (dir : Int) (IdxTok.range none (some (-((k : Int) + 1))))
+      let r ← npIndex st.2.2 ixb
+      F r)
+      = if t.shape.getD dir 0 < k + 1 then .error .index else F (Obj.mergeCps t dir k) := by
+  have := congrArg (fun x => x >>= F) (merge_loop t dir k h hwf W hW)
+  simp only [bind_assoc] at this
+  rw [this]
+  split_ifs <;> rfl
+
+/-- `np.linspace(0, 1, k + 1) if k > 0 else [0.5]` -/
+theorem weights_eq (k : ℕ) :
+    (if ((k : Int) > 0) then npLinspace (0 : K) 1 ((k : Int) + 1) else [(1 : K) / 2])
+      = (List.range (k + 1)).map (Obj.periodicWeight k) := by
+  by_cases hk : k = 0
+  · subst hk
+    simp [Obj.periodicWeight]
+  · have h1 : (k : Int) > 0 := by omega
+    rw [if_pos h1]
+    unfold npLinspace
+    have h2 : ¬ ((k : Int) + 1 = 1) := by omega
+    rw [if_neg h2]
+    have e : ((k : Int) + 1).toNat = k + 1 := by omega
+    rw [e]
+    apply List.map_congr_left
+    intro i _
+    unfold Obj.periodicWeight
+    rw [if_neg hk]
+    push_cast
+    ring
+
+theorem mergeCps_shape (t : Tensor K) (dir k : ℕ) :
+    (Obj.mergeCps t dir k).shape = t.shape.set dir (t.shape.getD dir 0 - (k + 1)) := rfl
+
+/-! ### method: make_periodic -/
+
+/-- the common part: `continuity` already an int `c` -/
+theorem make_periodic_core (o : Obj K) (tol : K) (c : Int) (dir : ℕ)
+    (hb : o.cps.shape.length = o.bases.size + 1) (hdir : dir < o.bases.size) (hd3 : o.bases.size ≤ 3)
+    (hwf : o.cps.data.size = Tensor.prod o.cps.shape) (hnc : 1 ≤ o.ncomp)
+    (G : PyM (PyObj K))
+    (hG : (-1 ≤ c ∧ c ≤ ((o.basis dir).order : Int) - 2) → c ≠ -1 → ¬ (o.basis dir).periodic ≥ 0 →
+      G = (do
+        let nb ← basisMakePeriodic (o.basis dir) tol c
+        let cps ← (if o.cps.shape.getD dir 0 < c.toNat + 1 then (.error .index : PyM (Tensor K))
+                   else .ok (Obj.mergeCps o.cps dir c.toNat))
+        mkRaw (o.bases.size : Int) (o.bases.set! dir nb) cps o.rational)) :
+    (if ¬ (-1 ≤ c ∧ c ≤ ((o.basis dir).order : Int) - 2) then .error .value
+     else if c = -1 then .error .value
+     else if (o.basis dir).periodic ≥ 0 then .error .value
+     else G) = (o.makePeriodic tol (some c) dir).map ofObj := by
+  unfold Obj.makePeriodic
+  simp only []
+  by_cases h1 : (-1 ≤ c ∧ c ≤ ((o.basis dir).order : Int) - 2)
+  · by_cases h2 : c = -1
+    · simp [h1, h2]
+    · by_cases h3 : (o.basis dir).periodic ≥ 0
+      · simp [h1, h2, h3]
+      · rw [if_neg (not_not.mpr h1), if_neg h2, if_neg h3, hG h1 h2 h3]
+        simp only [h1, not_true_eq_false, if_false, h2, h3, pure_eq_ok, ok_bind]
+        have hc0 : ¬ (c < 0) := by omega
+        unfold basisMakePeriodic
+        rw [if_neg hc0]
+        cases hmp : (o.basis dir).makePeriodic tol c.toNat with
+        | error e => rfl
+        | ok nb =>
+          simp only [ok_bind]
+          by_cases hn : o.cps.shape.getD dir 0 < c.toNat + 1
+          · rw [if_pos hn, if_pos hn]; rfl
+          · rw [if_neg hn, if_neg hn]
+            show mkRaw _ _ _ _ = _
+            unfold mkRaw
+            have hsz : (((o.bases.set! dir nb).size : ℕ) : Int) = (o.bases.size : Int) := by simp
+            rw [if_pos hsz]
+            have hne : ¬ (Obj.mergeCps o.cps dir c.toNat).shape = [] := by
+              rw [mergeCps_shape]
+              intro h
+              have := congrArg List.length h
+              rw [List.length_set, hb] at this
+              simp at this
+            rw [if_neg hne]
+            show Except.ok _ = Except.ok _
+            congr 1
+            unfold ofObj
+            simp only [PyObj.mk.injEq, true_and, and_true]
+            have hlast : (Obj.mergeCps o.cps dir c.toNat).shape.getLastD 0 = o.cps.shape.getLastD 0 := by
+              rw [mergeCps_shape, getLastD_set _ _ _ _ (by omega)]
+            unfold Obj.dimension Obj.ncomp b2i
+            simp only [hlast]
+            have : 1 ≤ o.cps.shape.getLastD 0 := hnc
+            split_ifs <;> omega
+  · simp [h1]
+
+/-- what the code does after the three argument checks -/
+def mpGood (o : Obj K) (tol : K) (c : Int) (dir : ℕ) : PyM (PyObj K) := do
+  let nb ← basisMakePeriodic (o.basis dir) tol c
+  let cps ← (if o.cps.shape.getD dir 0 < c.toNat + 1 then (.error .index : PyM (Tensor K))
+             else .ok (Obj.mergeCps o.cps dir c.toNat))
+  mkRaw (o.bases.size : Int) (o.bases.set! dir nb) cps o.rational
+
+theorem _root_.PyObject_make_periodic_c_eq (o : Obj K) (tol : K) (c : Int) (d : DirTok)
+    (hb : o.cps.shape.length = o.bases.size + 1) (hd3 : o.bases.size ≤ 3)
+    (hwf : o.cps.data.size = Tensor.prod o.cps.shape) (hnc : 1 ≤ o.ncomp) :
+    PyObject.make_periodic_c (ofObj o) tol c d = (do
+      let dir ← checkDirection d o.pardim
+      let o' ← o.makePeriodic tol (some c) dir
+      pure (ofObj o')) := by
+  have hpd : o.pardim = o.bases.size := by unfold Obj.pardim; omega
+  unfold PyObject.make_periodic_c
+  simp only [PyObject_pardim_eq o tol (by omega), ok_bind, PyObject_check_direction_eq]
+  cases hc : checkDirection d o.pardim with
+  | error e => rfl
+  | ok dir =>
+    have hdir : dir < o.bases.size := by have := checkDirection_lt hc; omega
+    simp only [map_ok, ok_bind, ofObj_bases, ofObj_cps, ofObj_rational]
+    rw [getBasis_nat _ hdir]
+    simp only [ok_bind]
+    have hbas : o.bases.getD dir default = o.basis dir := rfl
+    simp only [hbas]
+    have key := make_periodic_core o tol c dir hb hdir hd3 hwf hnc (mpGood o tol c dir) (fun _ _ _ => rfl)
+    have hR : (do let o' ← o.makePeriodic tol (some c) dir; pure (ofObj o'))
+        = (o.makePeriodic tol (some c) dir).map ofObj := by
+      cases o.makePeriodic tol (some c) dir <;> rfl
+    rw [hR, ← key]
+    by_cases h1 : (-1 ≤ c ∧ c ≤ ((o.basis dir).order : Int) - 2)
+    · by_cases h2 : c = -1
+      · subst h2
+        have h1a : ((-1 : Int) ≤ (o.basis dir).order - 2) := h1.2
+        simp [h1a]
+      · by_cases h3 : (o.basis dir).periodic ≥ 0
+        · rw [if_neg (not_not.mpr h1), if_neg h2, if_pos h3]
+          simp [h1.1, h1.2, h2, h3]
+        · rw [if_neg (not_not.mpr h1), if_neg h2, if_neg h3]
+          simp only [h1.1, h1.2, h2, h3, if_true, if_false, ok_bind, pure_eq_ok, decide_true, not_true_eq_false]
+          obtain ⟨k, rfl⟩ : ∃ k : ℕ, c = (k : Int) := ⟨c.toNat, by omega⟩
+          unfold mpGood
+          cases hmp : basisMakePeriodic (o.basis dir) tol (k : Int) with
+          | error e => rfl
+          | ok nb =>
+            simp only [ok_bind, forEach]
+            have hall : listMul [IdxTok.all] ((o.pardim : Int) + 1) = List.replicate o.cps.shape.length IdxTok.all := by
+              have : (o.pardim : Int) + 1 = ((o.cps.shape.length : ℕ) : Int) := by
+                unfold Obj.pardim; omega
+              rw [this, listMul_singleton]
+            rw [hall, weights_eq k]
+            rw [foldlM_congr' _ _ (fun s x => mgStep (dir : Int) x s) _ (by intro s x; rfl)]
+            rw [merge_loop_k o.cps dir k (by omega) hwf _ rfl]
+            simp only [Int.toNat_natCast]
+            by_cases hn : o.cps.shape.getD dir 0 < k + 1
+            · rw [if_pos hn, if_pos hn]; rfl
+            · rw [if_neg hn, if_neg hn]
+              rw [setBasis_nat _ hdir]
+              simp only [ok_bind]
+              have hct : ctorFirst ((o.bases.size : ℕ) : Int) = .ok ((o.bases.size : ℕ) : Int) := by
+                unfold ctorFirst
+                rw [if_pos (by omega)]
+              rw [hct]
+              rfl
+    · rw [if_pos h1]
+      by_cases h1a : (-1 : Int) ≤ c
+      · have h1b : ¬ (c ≤ ((o.basis dir).order : Int) - 2) := fun h => h1 ⟨h1a, h⟩
+        simp [h1a, h1b]
+      · simp [h1a]
+
+theorem _root_.PyObject_make_periodic_eq (o : Obj K) (tol : K) (d : DirTok)
+    (hb : o.cps.shape.length = o.bases.size + 1) (hd3 : o.bases.size ≤ 3)
+    (hwf : o.cps.data.size = Tensor.prod o.cps.shape) (hnc : 1 ≤ o.ncomp) :
+    PyObject.make_periodic (ofObj o) tol d = (do
+      let dir ← checkDirection d o.pardim
+      let o' ← o.makePeriodic tol none dir
+      pure (ofObj o')) := by
+  have hpd : o.pardim = o.bases.size := by unfold Obj.pardim; omega
+  cases hc : checkDirection d o.pardim with
+  | error e =>
+    unfold PyObject.make_periodic
+    simp only [PyObject_pardim_eq o tol (by omega), ok_bind, PyObject_check_direction_eq, hc]
+    rfl
+  | ok dir =>
+    have hdir : dir < o.bases.size := by have := checkDirection_lt hc; omega
+    have hnone : o.makePeriodic tol none dir = o.makePeriodic tol (some (((o.basis dir).order : Int) - 2)) dir := rfl
+    have key := PyObject_make_periodic_c_eq o tol (((o.basis dir).order : Int) - 2) d hb hd3 hwf hnc
+    rw [hc] at key
+    simp only [ok_bind] at key ⊢
+    rw [hnone, ← key]
+    unfold PyObject.make_periodic PyObject.make_periodic_c
+    simp only [PyObject_pardim_eq o tol (by omega), ok_bind, PyObject_check_direction_eq, hc, map_ok, ofObj_bases]
+    rw [getBasis_nat _ hdir]
+    rfl
+
+end Splipy.PyO
+
+-- ---------------------------------------------------------------------------- t3b part 8
+
+namespace Splipy.PyO
+open Splipy Splipy.Generated Splipy.C06 Splipy.Tensor
+variable {K : Type} [Field K] [LinearOrder K]
+
+/-! ### method: order -/
+
+theorem _root_.PyObject_order_eq (o : Obj K) (tol : K) :
+    PyObject.order (ofObj o) tol = .ok (o.bases.toList.map (fun b => ((b.order : ℕ) : Int))) := by
+  simp only [PyObject.order, ofObj_bases]
+  exact listComp_ok _ _ (fun (b : Basis K) => ((b.order : ℕ) : Int)) (fun x _ => rfl)
+
+/-! ### method: order_dir -/
+
+theorem _root_.PyObject_order_dir_eq (o : Obj K) (tol : K) (d : DirTok) (h : 1 ≤ o.cps.shape.length)
+    (hb : o.bases.size = o.pardim) :
+    PyObject.order_dir (ofObj o) tol d
+      = (checkDirection d o.pardim).map (fun k => (((o.basis k).order : ℕ) : Int)) := by
+  simp only [PyObject.order_dir, PyObject_pardim_eq o tol h, ok_bind, PyObject_check_direction_eq]
+  cases hc : checkDirection d o.pardim with
+  | error e => rfl
+  | ok k =>
+    have hk : k < o.pardim := checkDirection_lt hc
+    simp only [map_ok, ok_bind, ofObj_bases]
+    rw [getBasis_nat _ (by omega)]
+    rfl
+
+end Splipy.PyO
+
+-- ---------------------------------------------------------------------------- t3b part 9
+
+namespace Splipy.PyO
+open Splipy Splipy.Generated Splipy.C06
+variable {K : Type} [Field K] [LinearOrder K] [FloorRing K]
+
+/-! ### method: split -/
+
+theorem insertFold_fields (xs : List K) (b0 : Basis K) (C0 : Mat K) (r : Basis K × Mat K)
+    (h : xs.foldlM (fun (bc : Basis K × Mat K) x => do
+        let (b', Ck) ← bc.1.insertKnot x
+        pure (b', Mat.mul Ck bc.2)) (b0, C0) = .ok r) :
+    r.1.periodic = b0.periodic ∧ r.1.order = b0.order ∧ b0.knots.size ≤ r.1.knots.size := by
+  induction xs generalizing b0 C0 with
+  | nil => simp only [List.foldlM_nil] at h; cases h; exact ⟨rfl, rfl, le_refl _⟩
+  | cons x xs ih =>
+    simp only [List.foldlM_cons] at h
+    cases hi : b0.insertKnot x with
+    | error e => rw [hi] at h; exact absurd h (by simp)
+    | ok r1 =>
+      rw [hi] at h
+      obtain ⟨f1, f2⟩ := insertKnot_fields _ _ _ hi
+      obtain ⟨f3, _⟩ := insertKnot_size _ _ _ hi
+      obtain ⟨g1, g2, g3⟩ := ih _ _ h
+      exact ⟨g1.trans f1, g2.trans f2, by omega⟩
+
+/-- what `insert_knot` leaves unchanged -/
+theorem insertKnots_facts (o o' : Obj K) (xs : List K) (dir : ℕ) (hI : LpInv o dir)
+    (h : o.insertKnots xs dir = .ok o') :
+    LpInv o' dir ∧ (o'.basis dir).order = (o.basis dir).order ∧ (o'.basis dir).periodic = (o.basis dir).periodic ∧
+      o'.rational = o.rational ∧ o'.bases.size = o.bases.size ∧ o'.cps.shape.length = o.cps.shape.length ∧
+      o'.cps.shape.getLastD 0 = o.cps.shape.getLastD 0 ∧ (o.basis dir).knots.size ≤ (o'.basis dir).knots.size := by
+  unfold Obj.insertKnots at h
+  simp only [] at h
+  cases hf : xs.foldlM (fun (bc : Basis K × Mat K) x => do
+        let (b', Ck) ← bc.1.insertKnot x
+        pure (b', Mat.mul Ck bc.2)) (o.basis dir, Mat.identity (o.cps.shape.getD dir 0)) with
+  | error e => rw [hf] at h; exact absurd h (by simp)
+  | ok r =>
+    rw [hf] at h
+    obtain ⟨f1, f2, f3⟩ := insertFold_fields _ _ _ _ hf
+    cases h
+    obtain ⟨hb, hdir⟩ := hI
+    refine ⟨⟨?_, ?_⟩, ?_, ?_, rfl, ?_, ?_, ?_, ?_⟩
+    · simp [applyAxis_shape', hb]
+    · simpa using hdir
+    · rw [basis_set _ _ hdir]; exact f2
+    · rw [basis_set _ _ hdir]; exact f1
+    · simp
+    · simp [applyAxis_shape']
+    · simp only [applyAxis_shape']
+      exact getLastD_set _ _ _ _ (by omega)
+    · rw [basis_set _ _ hdir]; exact f3
+
+theorem listMul_single_int {α : Type} (x : α) (n : Int) : listMul [x] n = List.replicate n.toNat x := by
+  have := listMul_singleton x n.toNat
+  unfold listMul at this ⊢
+  simpa using this
+
+/-- one pass of the insertion loop of the hand model -/
+def siStep (o0 : Obj K) (tol : K) (dir : ℕ) (so : Obj K) (k : K) : PyM (Obj K) := do
+  let c ← (o0.basis dir).continuity tol k
+  let cont : Int := match c with
+    | none => ((o0.basis dir).order : Int) - 1
+    | some c => c
+  so.insertKnots (List.replicate (cont + 1).toNat k) dir
+
+theorem splitInsert_eq (o : Obj K) (tol : K) (ks : List K) (dir : ℕ) :
+    o.splitInsert tol ks dir = ks.foldlM (siStep o tol dir) o := rfl
+
+/-- the generated body of the first loop -/
+theorem si_body (o0 so : Obj K) (tol : K) (dir : ℕ) (k : K) (hd2 : dir ≤ 2) (h0 : dir < o0.bases.size)
+    (hI : LpInv so dir) :
+    (do
+      let splitting_obj := ofObj so
+      let tmp5 ← getBasis o0.bases (dir : Int)
+      let tmp6 ← basisContinuity tmp5 tol k
+      let continuity := tmp6
+      let st7 ← (if (continuity = none) then do
+          let continuity := (some ((((o0.basis dir).order : ℕ) : Int) - (1 : Int)))
+          pure continuity
+        else do
+          pure continuity)
+      let continuity := st7
+      let tmp8 ← extCount (Option.map (fun (c : Int) => c + (1 : Int)) continuity)
+      let splitting_obj ← PyObject.insert_knot splitting_obj tol (Param.list (listMul ([k] : List K) tmp8)) (DirTok.int (dir : Int))
+      pure splitting_obj) = (siStep o0 tol dir so k).map ofObj := by
+  obtain ⟨hb, hdir⟩ := hI
+  have hpd : so.pardim = so.bases.size := by unfold Obj.pardim; omega
+  rw [getBasis_nat _ h0]
+  simp only [ok_bind, basisContinuity]
+  have hbd : o0.bases.getD dir default = o0.basis dir := rfl
+  rw [hbd]
+  unfold siStep
+  cases hc : (o0.basis dir).continuity tol k with
+  | error e => rfl
+  | ok c =>
+    simp only [ok_bind, pure_eq_ok]
+    cases c with
+    | none =>
+      simp only [if_true, ok_bind, Option.map_some, extCount]
+      rw [PyObject_insert_knot_eq so tol _ _ hb, checkDirection_int (by omega) hd2]
+      simp only [ok_bind, ensure_listlike, listMul_single_int]
+      cases so.insertKnots _ dir <;> rfl
+    | some c =>
+      have hne : ¬ (some c = (none : Option Int)) := by simp
+      simp only [hne, if_false, ok_bind, Option.map_some, extCount]
+      rw [PyObject_insert_knot_eq so tol _ _ hb, checkDirection_int (by omega) hd2]
+      simp only [ok_bind, ensure_listlike, listMul_single_int]
+      cases so.insertKnots _ dir <;> rfl
+
+/-- invariant of the insertion loop relative to the object `o0` the method was called on -/
+def SiInv (o0 : Obj K) (dir : ℕ) (so : Obj K) : Prop :=
+  LpInv so dir ∧ (so.basis dir).order = (o0.basis dir).order ∧ (so.basis dir).periodic = (o0.basis dir).periodic ∧
+    so.rational = o0.rational ∧ so.bases.size = o0.bases.size ∧ so.cps.shape.length = o0.cps.shape.length ∧
+    so.cps.shape.getLastD 0 = o0.cps.shape.getLastD 0 ∧ (o0.basis dir).knots.size ≤ (so.basis dir).knots.size
+
+theorem siStep_inv (o0 so so' : Obj K) (tol : K) (dir : ℕ) (k : K) (hI : SiInv o0 dir so)
+    (h : siStep o0 tol dir so k = .ok so') : SiInv o0 dir so' := by
+  unfold siStep at h
+  cases hc : (o0.basis dir).continuity tol k with
+  | error e => rw [hc] at h; exact absurd h (by simp)
+  | ok c =>
+    rw [hc] at h
+    simp only [ok_bind] at h
+    obtain ⟨g0, g1, g2, g3, g4, g5, g6, g7⟩ := insertKnots_facts _ _ _ _ hI.1 h
+    obtain ⟨_, i1, i2, i3, i4, i5, i6, i7⟩ := hI
+    exact ⟨g0, g1.trans i1, g2.trans i2, g3.trans i3, g4.trans i4, g5.trans i5, g6.trans i6, le_trans i7 g7⟩
+
+/-- the insertion loop, with the generated body abstracted -/
+theorem si_loop {β : Type} (o0 : Obj K) (tol : K) (dir : ℕ) (body : K → PyObj K → PyM (PyObj K))
+    (hbody : ∀ so k, LpInv so dir → body k (ofObj so) = (siStep o0 tol dir so k).map ofObj)
+    (F : PyObj K → PyM β) (G : Obj K → PyM β)
+    (ks : List K) (so : Obj K) (hI : SiInv o0 dir so)
+    (hFG : ∀ so', SiInv o0 dir so' → ks.foldlM (siStep o0 tol dir) so = .ok so' → F (ofObj so') = G so') :
+    (forEach ks (ofObj so) body >>= F) = (ks.foldlM (siStep o0 tol dir) so >>= G) := by
+  unfold forEach
+  rcases foldlM_sim (fun s t => s = ofObj t ∧ SiInv o0 dir t) ks (fun s x => body x s) (siStep o0 tol dir)
+      (ofObj so) so ⟨rfl, hI⟩ (by
+    rintro s t a ⟨rfl, hI'⟩
+    rw [hbody t a hI'.1]
+    cases hs : siStep o0 tol dir t a with
+    | error e => exact Or.inl ⟨e, rfl, rfl⟩
+    | ok t' => exact Or.inr ⟨ofObj t', t', rfl, rfl, rfl, siStep_inv _ _ _ _ _ _ hI' hs⟩) with
+    ⟨e, h1, h2⟩ | ⟨s', t', h1, h2, rfl, hI'⟩
+  · rw [h1, h2]; rfl
+  · rw [h1, h2]
+    exact hFG t' hI' h2
+
+end Splipy.PyO
+
+-- ---------------------------------------------------------------------------- t3b part 10
+
+namespace Splipy.PyO
+open Splipy Splipy.Generated Splipy.C06
+variable {K : Type} [Field K] [LinearOrder K] [FloorRing K]
+
+/-! ## `split`: the piece loop of the hand model, slices, constructor (no generated code) -/
+
+/-- one pass of the piece loop of the hand model (`Obj.splitPieces`) -/
+def spStep (self so : Obj K) (tol : K) (dir : ℕ) (st : List (Obj K) × ℕ × ℕ) (k : K) :
+    PyM (List (Obj K) × ℕ × ℕ) :=
+  let p := (self.basis dir).order
+  let b := so.basis dir
+  let s := (self.basis dir).start
+  let e := (self.basis dir).stop
+  let (res, lastCp, lastKnot) := st
+  if s < k ∧ k < e then do
+    let mu := b.bisectL k
+    let nCp := mu - lastKnot
+    let cp := so.cps.sliceAxis dir lastCp (lastCp + nCp)
+    let nb ← Basis.mk? p (b.knots.extract lastKnot (mu + p)) (-1) tol
+    pure (res ++ [{ bases := so.bases.set! dir nb, cps := cp, rational := so.rational }],
+          lastCp + nCp, mu)
+  else pure st
+
+theorem splitPieces_eq (self so : Obj K) (tol : K) (ks : List K) (dir : ℕ) :
+    Obj.splitPieces self so tol ks dir = (do
+      let (res, lastCp, lastKnot) ← ks.foldlM (spStep self so tol dir) ([], 0, 0)
+      let nb ← Basis.mk? (self.basis dir).order ((so.basis dir).knots.extract lastKnot (so.basis dir).knots.size) (-1) tol
+      pure (res ++ [{ bases := so.bases.set! dir nb, cps := so.cps.sliceAxis dir lastCp (so.cps.shape.getD dir 0),
+                      rational := so.rational }])) := rfl
+
+/-- the split values are met in increasing order of their position in the refined knot vector, and no
+    position lies beyond the control net (`last` = position of the previous cut) -/
+def SplitOrdered (b : Basis K) (s e : K) (n : ℕ) : ℕ → List K → Prop
+  | _, [] => True
+  | last, k :: ks =>
+    if s < k ∧ k < e then last ≤ b.bisectL k ∧ b.bisectL k ≤ n ∧ SplitOrdered b s e n (b.bisectL k) ks
+    else SplitOrdered b s e n last ks
+
+theorem slice_toArray_extract (a : Array K) (lo hi : ℕ) :
+    (slice a.toList (some (lo : Int)) (some (hi : Int))).toArray = a.extract lo hi := by
+  unfold slice sliceLo sliceHi
+  have h1 : ¬ ((lo : Int) < 0) := by omega
+  have h2 : ¬ ((hi : Int) < 0) := by omega
+  simp only [h1, h2, if_false, Int.toNat_natCast, Array.length_toList]
+  apply Array.ext'
+  rw [Array.toList_extract]
+  simp only [List.toList_toArray]
+  rw [show a.size = a.toList.length by simp, ← List.take_eq_take_min]
+  rw [List.drop_take]
+  show _ = List.take (hi - lo) (List.drop lo a.toList)
+  by_cases h : lo ≤ a.toList.length
+  · rw [Nat.min_eq_left h]
+  · have hm : min lo a.toList.length = a.toList.length := by omega
+    rw [hm, List.drop_eq_nil_of_le (le_refl _), List.drop_eq_nil_of_le (by omega)]
+    simp
+
+theorem slice_toArray_extract_none (a : Array K) (lo : ℕ) :
+    (slice a.toList (some (lo : Int)) none).toArray = a.extract lo a.size := by
+  have := slice_toArray_extract a lo a.size
+  rw [← this]
+  unfold slice sliceHi
+  have h2 : ¬ (((a.size : ℕ) : Int) < 0) := by omega
+  simp [h2]
+
+theorem bisectLeftAux_congr' (a a' : ℕ → K) (v : K) (lo hi : ℕ) (h : ∀ i, i < hi → a i = a' i) :
+    bisectLeftAux a v lo hi = bisectLeftAux a' v lo hi := by
+  fun_induction bisectLeftAux a v lo hi with
+  | case1 lo hi hlt mid hc ih =>
+    rw [bisectLeftAux.eq_1 a', dif_pos hlt]
+    have : a' ((lo + hi) / 2) < v := by rw [← h _ (by omega)]; exact hc
+    simp only [this, if_true]
+    exact ih h
+  | case2 lo hi hlt mid hc ih =>
+    rw [bisectLeftAux.eq_1 a', dif_pos hlt]
+    have : ¬ a' ((lo + hi) / 2) < v := by rw [← h _ (by omega)]; exact hc
+    simp only [this, if_false]
+    exact ih (fun i hi' => h i (by omega))
+  | case3 lo hi hlt =>
+    rw [bisectLeftAux.eq_1 a', dif_neg hlt]
+
+theorem pyBisectLeft_knots (b : Basis K) (v : K) : pyBisectLeft b.knots.toList v = ((b.bisectL v : ℕ) : Int) := by
+  unfold pyBisectLeft Basis.bisectL
+  simp only [Array.length_toList]
+  congr 1
+  unfold bisectLeft
+  apply bisectLeftAux_congr'
+  intro i hi
+  simp [Basis.kn, hi]
+
+theorem sliceAxis_shape (t : Tensor K) (d lo hi : ℕ) : (t.sliceAxis d lo hi).shape = t.shape.set d (hi - lo) := rfl
+
+theorem mkRaw_ofObj (n : ℕ) (bs : Array (Basis K)) (cps : Tensor K) (r : Bool) (hn : bs.size = n)
+    (hs : cps.shape ≠ []) (hnc : 1 ≤ cps.shape.getLastD 0) :
+    mkRaw (n : Int) bs cps r = .ok (ofObj ⟨bs, cps, r⟩) := by
+  unfold mkRaw
+  rw [if_pos (by rw [hn]), if_neg hs]
+  congr 1
+  unfold ofObj
+  simp only [PyObj.mk.injEq, true_and, and_true]
+  unfold Obj.dimension Obj.ncomp b2i
+  simp only []
+  split_ifs <;> omega
+
+/-! ### method: split -/
+
+/-- state of the generated piece loop: `(cp_slice, bases, last_knot_i, last_cp_i, results)` -/
+abbrev PcState (K : Type) [Field K] [LinearOrder K] := List IdxTok × Array (Basis K) × Int × Int × List (PyObj K)
+
+/-- the generated body of the piece loop (`self_ = ofObj o`, `splitting_obj = ofObj so`, `b = so.basis dir`) -/
+def pcBody (o so : Obj K) (tol : K) (dir : ℕ) (x27 : K) (st27 : PcState K) : PyM (PcState K) := do
+  let cp_slice := st27.1
+  let bases := st27.2.1
+  let last_knot_i := st27.2.2.1
+  let last_cp_i := st27.2.2.2.1
+  let results := st27.2.2.2.2
+  let k := x27
+  let tmp28 ← PyObject.start_dir (ofObj o) tol (DirTok.int (dir : Int))
+  let tmp30 ← (if (tmp28 < k) then do
+      let tmp29 ← PyObject.end_dir (ofObj o) tol (DirTok.int (dir : Int))
+      pure (decide (k < tmp29))
+    else pure false)
+  let st31 ← (if (tmp30 = true) then do
+      let mu := (pyBisectLeft (so.basis dir).knots.toList k)
+      let n_cp := (mu - last_knot_i)
+      let knot_slice := (IdxTok.range (some last_knot_i) (some (mu + (((o.basis dir).order : ℕ) : Int))))
+      let cp_slice ← setItem cp_slice (dir : Int) (IdxTok.range (some last_cp_i) (some (last_cp_i + n_cp)))
+      let tmp32 ← npIndex (ofObj so).controlpoints cp_slice
+      let cp := tmp32
+      let tmp33 ← sliceTok (so.basis dir).knots.toList knot_slice
+      let tmp34 ← mkBasis (((o.basis dir).order : ℕ) : Int) tmp33 tol
+      let bases ← setBasis bases (dir : Int) tmp34
+      let args := (bases, cp, (ofObj so).rational)
+      let tmp35 ← mkRaw ((o.bases.size : ℕ) : Int) args.1 args.2.1 args.2.2
+      let results := listAdd results [tmp35]
+      let last_knot_i := mu
+      let last_cp_i := (last_cp_i + n_cp)
+      pure (cp_slice, bases, results, last_knot_i, last_cp_i)
+    else do
+      pure (cp_slice, bases, results, last_knot_i, last_cp_i))
+  let cp_slice := st31.1
+  let bases := st31.2.1
+  let results := st31.2.2.1
+  let last_knot_i := st31.2.2.2.1
+  let last_cp_i := st31.2.2.2.2
+  pure (cp_slice, bases, last_knot_i, last_cp_i, results)
+
+/-- the generated state and the state of the hand model's loop -/
+def PcRel (so : Obj K) (dir : ℕ) (s : PcState K) (t : List (Obj K) × ℕ × ℕ) : Prop :=
+  (∃ tok, s.1 = (List.replicate so.cps.shape.length IdxTok.all).set dir tok) ∧
+  (∃ b, s.2.1 = so.bases.set! dir b) ∧ s.2.2.1 = ((t.2.2 : ℕ) : Int) ∧ s.2.2.2.1 = ((t.2.1 : ℕ) : Int) ∧
+  s.2.2.2.2 = t.1.map ofObj ∧ t.2.1 = t.2.2 ∧ t.2.2 ≤ so.cps.shape.getD dir 0
+
+theorem mkBasis_nat (p : ℕ) (l : List K) (tol : K) : mkBasis (p : Int) l tol = Basis.mk? p l.toArray (-1) tol := by
+  unfold mkBasis
+  have : ¬ ((p : Int) < 0) := by omega
+  simp [this]
+
+theorem pc_step (o so : Obj K) (tol : K) (dir : ℕ) (hIo : LpInv o dir) (hd2 : dir ≤ 2) (hS : SiInv o dir so)
+    (hnc : 1 ≤ o.ncomp) (k : K) (s : PcState K) (t : List (Obj K) × ℕ × ℕ) (hR : PcRel so dir s t)
+    (hg : ((o.basis dir).start < k ∧ k < (o.basis dir).stop) →
+      t.2.2 ≤ (so.basis dir).bisectL k ∧ (so.basis dir).bisectL k ≤ so.cps.shape.getD dir 0) :
+    (∃ e, pcBody o so tol dir k s = .error e ∧ spStep o so tol dir t k = .error e) ∨
+    (∃ s' t', pcBody o so tol dir k s = .ok s' ∧ spStep o so tol dir t k = .ok t' ∧ PcRel so dir s' t' ∧
+      t'.2.2 = (if (o.basis dir).start < k ∧ k < (o.basis dir).stop then (so.basis dir).bisectL k else t.2.2)) := by
+  obtain ⟨hbo, hdiro⟩ := hIo
+  obtain ⟨⟨hbs, hdirs⟩, i1, i2, i3, i4, i5, i6, i7⟩ := hS
+  obtain ⟨res, lc, lk⟩ := t
+  obtain ⟨cs, bs, lki, lci, rs⟩ := s
+  obtain ⟨⟨tok0, hcs⟩, ⟨b0, hbs0⟩, hlk, hlc, hrs, hcl, hle⟩ := hR
+  simp only [] at hcs hbs0 hlk hlc hrs hcl hle hg
+  subst hcs hbs0 hlk hlc hrs hcl
+  have hpdo : o.pardim = o.bases.size := by unfold Obj.pardim; omega
+  unfold pcBody spStep
+  simp only []
+  rw [PyObject_start_dir_eq o tol _ (by omega) (by omega), checkDirection_int (by omega) hd2]
+  simp only [map_ok, ok_bind]
+  by_cases hs : (o.basis dir).start < k
+  · rw [if_pos hs, PyObject_end_dir_eq o tol _ (by omega) (by omega), checkDirection_int (by omega) hd2]
+    simp only [map_ok, ok_bind, pure_eq_ok, decide_eq_true_eq]
+    by_cases he : k < (o.basis dir).stop
+    · obtain ⟨hg1, hg2⟩ := hg ⟨hs, he⟩
+      rw [if_pos he, if_pos ⟨hs, he⟩]
+      simp only [pyBisectLeft_knots]
+      rw [setItem_nat _ (by simp; omega)]
+      simp only [ok_bind, List.set_set, ofObj_cps, ofObj_rational]
+      rw [npIndex_range so.cps dir _ _ (by omega)]
+      simp only [ok_bind, sliceTok]
+      have e1 : (((so.basis dir).bisectL k : ℕ) : Int) + (((o.basis dir).order : ℕ) : Int)
+          = (((so.basis dir).bisectL k + (o.basis dir).order : ℕ) : Int) := by push_cast; rfl
+      rw [e1, mkBasis_nat, slice_toArray_extract]
+      cases hmk : Basis.mk? (o.basis dir).order
+          ((so.basis dir).knots.extract lc ((so.basis dir).bisectL k + (o.basis dir).order)) (-1) tol with
+      | error e => exact Or.inl ⟨e, rfl, rfl⟩
+      | ok nb =>
+        simp only [ok_bind]
+        rw [setBasis_nat _ (by simp; omega)]
+        simp only [ok_bind, set!_set!]
+        have e2 : ((lc : ℕ) : Int) + ((((so.basis dir).bisectL k : ℕ) : Int) - ((lc : ℕ) : Int))
+            = (((so.basis dir).bisectL k : ℕ) : Int) := by omega
+        have e3 : sliceLo (so.cps.shape.getD dir 0) (some ((lc : ℕ) : Int)) = lc := by
+          unfold sliceLo
+          have : ¬ (((lc : ℕ) : Int) < 0) := by omega
+          simp only [this, if_false, Int.toNat_natCast]; omega
+        have e4 : sliceHi (so.cps.shape.getD dir 0) (some (((so.basis dir).bisectL k : ℕ) : Int))
+            = (so.basis dir).bisectL k := by
+          unfold sliceHi
+          have : ¬ ((((so.basis dir).bisectL k : ℕ) : Int) < 0) := by omega
+          simp only [this, if_false, Int.toNat_natCast]; omega
+        rw [e2, e3, e4, max_eq_right hg1]
+        have e5 : lc + ((so.basis dir).bisectL k - lc) = (so.basis dir).bisectL k := by omega
+        rw [e5]
+        rw [mkRaw_ofObj o.bases.size _ _ _ (by simp; omega)
+          (by rw [sliceAxis_shape]; intro h; have := congrArg List.length h; rw [List.length_set, List.length_nil] at this; omega)
+          (by rw [sliceAxis_shape, getLastD_set _ _ _ _ (by omega), i6]; exact hnc)]
+        refine Or.inr ⟨_, _, rfl, rfl, ⟨⟨_, rfl⟩, ⟨_, rfl⟩, rfl, rfl, ?_, rfl, hg2⟩, ?_⟩
+        · simp [listAdd]
+        · rw [if_pos ⟨hs, he⟩]
+    · rw [if_neg he, if_neg (fun h => he h.2)]
+      refine Or.inr ⟨_, _, rfl, rfl, ⟨⟨_, rfl⟩, ⟨_, rfl⟩, rfl, rfl, rfl, rfl, hle⟩, ?_⟩
+      rw [if_neg (fun h => he h.2)]
+  · rw [if_neg hs]
+    simp only [pure_eq_ok, ok_bind]
+    rw [if_neg (by simp), if_neg (fun h => hs h.1)]
+    refine Or.inr ⟨_, _, rfl, rfl, ⟨⟨_, rfl⟩, ⟨_, rfl⟩, rfl, rfl, rfl, rfl, hle⟩, ?_⟩
+    rw [if_neg (fun h => hs h.1)]
+
+theorem pc_loop (o so : Obj K) (tol : K) (dir : ℕ) (hIo : LpInv o dir) (hd2 : dir ≤ 2) (hS : SiInv o dir so)
+    (hnc : 1 ≤ o.ncomp) : ∀ (ks : List K) (s : PcState K) (t : List (Obj K) × ℕ × ℕ), PcRel so dir s t →
+    SplitOrdered (so.basis dir) (o.basis dir).start (o.basis dir).stop (so.cps.shape.getD dir 0) t.2.2 ks →
+    (∃ e, ks.foldlM (fun s x => pcBody o so tol dir x s) s = .error e ∧
+          ks.foldlM (spStep o so tol dir) t = .error e) ∨
+    (∃ s' t', ks.foldlM (fun s x => pcBody o so tol dir x s) s = .ok s' ∧
+          ks.foldlM (spStep o so tol dir) t = .ok t' ∧ PcRel so dir s' t') := by
+  intro ks
+  induction ks with
+  | nil => intro s t hR _; exact Or.inr ⟨s, t, rfl, rfl, hR⟩
+  | cons k ks ih =>
+    intro s t hR hO
+    unfold SplitOrdered at hO
+    have hg : ((o.basis dir).start < k ∧ k < (o.basis dir).stop) →
+        t.2.2 ≤ (so.basis dir).bisectL k ∧ (so.basis dir).bisectL k ≤ so.cps.shape.getD dir 0 := by
+      intro h; rw [if_pos h] at hO; exact ⟨hO.1, hO.2.1⟩
+    rcases pc_step o so tol dir hIo hd2 hS hnc k s t hR hg with ⟨e, h1, h2⟩ | ⟨s', t', h1, h2, hR', ht'⟩
+    · exact Or.inl ⟨e, by simp [List.foldlM_cons, h1], by simp [List.foldlM_cons, h2]⟩
+    · simp only [List.foldlM_cons, h1, h2, ok_bind]
+      apply ih s' t' hR'
+      rw [ht']
+      by_cases h : (o.basis dir).start < k ∧ k < (o.basis dir).stop
+      · rw [if_pos h] at hO ⊢; exact hO.2.2
+      · rw [if_neg h] at hO ⊢; exact hO
+
+end Splipy.PyO
+
+-- ---------------------------------------------------------------------------- t3b part 11
+
+namespace Splipy.PyO
+open Splipy Splipy.Generated Splipy.C06
+variable {K : Type} [Field K] [LinearOrder K] [FloorRing K]
+
+/-! ### method: split -/
+
+/-- guard of the piece loop: see `SplitOrdered` -/
+def PiecesOrdered (self so : Obj K) (dir : ℕ) (ks : List K) : Prop :=
+  SplitOrdered (so.basis dir) (self.basis dir).start (self.basis dir).stop (so.cps.shape.getD dir 0) 0 ks
+
+theorem replicate_set_self {α : Type} (n i : ℕ) (a : α) : (List.replicate n a).set i a = List.replicate n a := by
+  apply List.ext_getElem
+  · simp
+  · intro k h1 h2
+    simp [List.getElem_set]
+
+theorem len_npShape (t : Tensor K) : len (npShape t) = (t.shape.length : Int) := by
+  simp [len, npShape]
+
+theorem np_tail (o so : Obj K) (tol : K) (dir : ℕ) (hIo : LpInv o dir) (hd2 : dir ≤ 2) (hS : SiInv o dir so)
+    (hnc : 1 ≤ o.ncomp) (ks : List K) (hO : PiecesOrdered o so dir ks) :
+    (do
+      let st27 ← forEach ks ((listMul ([IdxTok.all] : List IdxTok) (len (npShape (ofObj o).controlpoints))),
+          (ofObj so).bases, (0 : Int), (0 : Int), ([] : List (PyObj K))) (pcBody o so tol dir)
+      let cp_slice := st27.1
+      let bases := st27.2.1
+      let last_knot_i := st27.2.2.1
+      let last_cp_i := st27.2.2.2.1
+      let results := st27.2.2.2.2
+      let knot_slice := (IdxTok.range (some last_knot_i) none)
+      let cp_slice ← setItem cp_slice (dir : Int) (IdxTok.range (some last_cp_i) none)
+      let tmp36 ← sliceTok (so.basis dir).knots.toList knot_slice
+      let tmp37 ← mkBasis (((o.basis dir).order : ℕ) : Int) tmp36 tol
+      let bases ← setBasis bases (dir : Int) tmp37
+      let tmp38 ← npIndex (ofObj so).controlpoints cp_slice
+      let cp := tmp38
+      let args := (bases, cp, (ofObj so).rational)
+      let tmp39 ← mkRaw ((o.bases.size : ℕ) : Int) args.1 args.2.1 args.2.2
+      let results := listAdd results [tmp39]
+      pure (PyRes.objs results))
+    = (Obj.splitPieces o so tol ks dir).map (fun ps => PyRes.objs (ps.map ofObj)) := by
+  have hIo' := hIo
+  have hS' := hS
+  obtain ⟨hbo, hdiro⟩ := hIo
+  obtain ⟨⟨hbs, hdirs⟩, i1, i2, i3, i4, i5, i6, i7⟩ := hS
+  rw [splitPieces_eq]
+  unfold forEach
+  have hR0 : PcRel so dir ((listMul ([IdxTok.all] : List IdxTok) (len (npShape (ofObj o).controlpoints))),
+      (ofObj so).bases, (0 : Int), (0 : Int), ([] : List (PyObj K))) (([] : List (Obj K)), 0, 0) := by
+    refine ⟨⟨IdxTok.all, ?_⟩, ⟨so.bases.getD dir default, ?_⟩, rfl, rfl, rfl, rfl, Nat.zero_le _⟩
+    · simp only [ofObj_cps, len_npShape, listMul_singleton, replicate_set_self, i5]
+    · simp only [ofObj_bases]; exact (set!_getD_self _ _ hdirs).symm
+  rcases pc_loop o so tol dir hIo' hd2 hS' hnc ks _ _ hR0 hO with ⟨e, h1, h2⟩ | ⟨s', t', h1, h2, hR⟩
+  · rw [h1, h2]; rfl
+  · rw [h1, h2]
+    obtain ⟨res, lc, lk⟩ := t'
+    obtain ⟨cs, bs, lki, lci, rs⟩ := s'
+    obtain ⟨⟨tok0, hcs⟩, ⟨b0, hbs0⟩, hlk, hlc, hrs, hcl, hle⟩ := hR
+    simp only [] at hcs hbs0 hlk hlc hrs hcl hle
+    subst hcs hbs0 hlk hlc hrs hcl
+    simp only [ok_bind]
+    rw [setItem_nat _ (by simp; omega)]
+    simp only [ok_bind, List.set_set, sliceTok, mkBasis_nat, slice_toArray_extract_none, ofObj_cps, ofObj_rational]
+    cases hmk : Basis.mk? (o.basis dir).order ((so.basis dir).knots.extract lc (so.basis dir).knots.size) (-1) tol with
+    | error e => rfl
+    | ok nb =>
+      simp only [ok_bind]
+      rw [setBasis_nat _ (by simp; omega)]
+      simp only [ok_bind, set!_set!]
+      rw [npIndex_range so.cps dir _ _ (by omega)]
+      simp only [ok_bind]
+      have e3 : sliceLo (so.cps.shape.getD dir 0) (some ((lc : ℕ) : Int)) = lc := by
+        unfold sliceLo
+        have : ¬ (((lc : ℕ) : Int) < 0) := by omega
+        simp only [this, if_false, Int.toNat_natCast]; omega
+      have e4 : sliceHi (so.cps.shape.getD dir 0) none = so.cps.shape.getD dir 0 := rfl
+      rw [e3, e4, max_eq_right hle]
+      rw [mkRaw_ofObj o.bases.size _ _ _ (by simp; omega)
+        (by rw [sliceAxis_shape]; intro h; have := congrArg List.length h; rw [List.length_set, List.length_nil] at this; omega)
+        (by rw [sliceAxis_shape, getLastD_set _ _ _ _ (by omega), i6]; exact hnc)]
+      simp [listAdd]
+
+end Splipy.PyO
+
+namespace Splipy.PyO
+open Splipy Splipy.Generated Splipy.C06
+variable {K : Type} [Field K] [LinearOrder K] [FloorRing K]
+
+theorem SiInv.refl (o : Obj K) (dir : ℕ) (hI : LpInv o dir) : SiInv o dir o :=
+  ⟨hI, rfl, rfl, rfl, rfl, rfl, rfl, le_refl _⟩
+
+theorem split_fuel_np (f : ℕ) (o : Obj K) (tol : K) (ks : List K) (dir : ℕ) (hI : LpInv o dir) (hd2 : dir ≤ 2)
+    (hd3 : o.bases.size ≤ 3) (hnc : 1 ≤ o.ncomp) (hnp : ¬ (o.basis dir).periodic > -1)
+    (hO : ∀ so, o.splitInsert tol ks dir = .ok so → PiecesOrdered o so dir ks) :
+    PyObject.split_fuel (f + 1) (ofObj o) tol (Param.list ks) (DirTok.int dir) = (do
+      let so ← o.splitInsert tol ks dir
+      let ps ← Obj.splitPieces o so tol ks dir
+      pure (PyRes.objs (ps.map ofObj))) := by
+  have hI' := hI
+  obtain ⟨hb, hdir⟩ := hI
+  have hpd : o.pardim = o.bases.size := by unfold Obj.pardim; omega
+  unfold PyObject.split_fuel
+  simp only [ensure_listlike, PyObject_pardim_eq o tol (by omega), ok_bind, PyObject_check_direction_eq]
+  rw [checkDirection_int (by omega) hd2]
+  simp only [map_ok, ok_bind]
+  rw [PyObject_order_dir_eq o tol _ (by omega) (by omega), checkDirection_int (by omega) hd2]
+  simp only [map_ok, ok_bind, pure_eq_ok]
+  rw [splitInsert_eq]
+  refine (si_loop o tol dir _ ?_ _ _ ks o (SiInv.refl o dir hI') ?_).trans rfl
+  · intro so k hIs
+    exact si_body o so tol dir k hd2 hdir hIs
+  · intro so hS hso
+    have hS' := hS
+    obtain ⟨⟨hbs, hdirs⟩, i1, i2, i3, i4, i5, i6, i7⟩ := hS
+    simp only [ofObj_bases]
+    rw [getBasis_nat _ hdirs]
+    simp only [ok_bind]
+    have hnp' : ¬ (so.bases.getD dir default).periodic > -1 := by
+      change ¬ (so.basis dir).periodic > -1; rw [i2]; exact hnp
+    rw [if_neg hnp']
+    have hc : ctorFirst ((o.bases.size : ℕ) : Int) = .ok ((o.bases.size : ℕ) : Int) := by
+      unfold ctorFirst; rw [if_pos]; constructor <;> omega
+    rw [hc]
+    simp only [ok_bind]
+    have key := np_tail o so tol dir hI' hd2 hS' hnc ks (hO so hso)
+    rw [show (do let ps ← o.splitPieces so tol ks dir; Except.ok (PyRes.objs (List.map ofObj ps)))
+        = (o.splitPieces so tol ks dir).map (fun ps => PyRes.objs (ps.map ofObj)) from by
+      cases o.splitPieces so tol ks dir <;> rfl]
+    rw [← key]
+    rfl
+
+end Splipy.PyO
+
+-- ---------------------------------------------------------------------------- t3b part 12
+
+namespace Splipy.PyO
+open Splipy Splipy.Generated Splipy.C06
+variable {K : Type} [Field K] [LinearOrder K] [FloorRing K]
+
+/-! ### method: split -/
+
+/-- the value `split` returns: one object (periodic direction, one split point) or a list of pieces -/
+def resOf : SplitRes K → PyRes K
+  | .single o => .obj (ofObj o)
+  | .many ps => .objs (ps.map ofObj)
+
+/-- the object of the periodic branch after `roll`, `np.roll` and dropping the ghost knots -/
+def openAt (so : Obj K) (dir mu : ℕ) (b1 : Basis K) : Obj K :=
+  { so with
+    bases := so.bases.set! dir
+      { b1 with knots := b1.knots.extract 0 (b1.knots.size - (so.basis dir).periodic.toNat - 1), periodic := -1 },
+    cps := so.cps.rollAxisNeg dir mu }
+
+/-- Guard of `PyObject_split_eq`, in terms of the hand model's own intermediate objects: in every piece loop
+    that runs, the split values are met in increasing knot position and inside the control net
+    (`PiecesOrdered`).  The model keeps positions in `ℕ` (truncated subtraction, unclamped slices), the
+    code in Python ints with numpy's clamped slices: they agree exactly under this condition. -/
+def SplitGuard (o : Obj K) (tol : K) (ks : List K) (dir : ℕ) : Prop :=
+  ∀ so, o.splitInsert tol ks dir = .ok so →
+    if (so.basis dir).periodic > -1 then
+      ∀ b1, (so.basis dir).roll ((so.basis dir).bisectL (ks.headD 0)) = .ok b1 →
+        ∀ so3, (openAt so dir ((so.basis dir).bisectL (ks.headD 0)) b1).splitInsert tol ks.tail dir = .ok so3 →
+          PiecesOrdered (openAt so dir ((so.basis dir).bisectL (ks.headD 0)) b1) so3 dir ks.tail
+    else PiecesOrdered o so dir ks
+
+theorem rollAxisPos_zero (t : Tensor K) (ax : ℕ) : t.rollAxisPos ax 0 = t.rollAxisNeg ax 0 := by
+  unfold Tensor.rollAxisPos Tensor.rollAxisNeg
+  simp only []
+  congr 1
+  funext r
+  simp
+
+theorem npRoll_neg (t : Tensor K) (dir mu : ℕ) (h : dir < t.shape.length) :
+    npRoll t (-(mu : Int)) (dir : Int) = .ok (t.rollAxisNeg dir mu) := by
+  unfold npRoll
+  rw [normIdx_nat h]
+  simp only []
+  by_cases h0 : mu = 0
+  · subst h0
+    simp [rollAxisPos_zero]
+  · have : ¬ ((0 : Int) ≤ -(mu : Int)) := by omega
+    rw [if_neg this]
+    simp
+
+theorem slice_tail {α : Type} (x : α) (l : List α) : slice (x :: l) (some (1 : Int)) none = l := by
+  unfold slice sliceLo sliceHi
+  simp
+
+theorem slice_ghost (a : Array K) (r : ℕ) :
+    (slice a.toList none (some (-(r : Int) - 1))).toArray = a.extract 0 (a.size - r - 1) := by
+  unfold slice sliceLo sliceHi
+  have h : (-(r : Int) - 1) < 0 := by omega
+  simp only [h, if_true, List.drop_zero, Array.length_toList]
+  apply Array.ext'
+  rw [Array.toList_extract]
+  simp only [List.toList_toArray]
+  rw [List.extract_eq_take_drop]
+  simp only [List.drop_zero, Nat.sub_zero]
+  congr 1
+  omega
+
+theorem split_fuel_eq (f : ℕ) (o : Obj K) (tol : K) (knots : Param K) (d : DirTok)
+    (hb : o.cps.shape.length = o.bases.size + 1) (hd3 : o.bases.size ≤ 3) (hnc : 1 ≤ o.ncomp)
+    (hper : ∀ dir, dir < o.bases.size → (o.basis dir).periodic ≥ 0 →
+      ((o.basis dir).order : Int) + (o.basis dir).periodic + 1 ≤ ((o.basis dir).knots.size : Int))
+    (hG : ∀ dir, checkDirection d o.pardim = .ok dir → SplitGuard o tol (ensure_listlike knots) dir) :
+    PyObject.split_fuel (f + 2) (ofObj o) tol knots d = (do
+      let dir ← checkDirection d o.pardim
+      let r ← o.split tol (ensure_listlike knots) dir
+      pure (resOf r)) := by
+  have hpd : o.pardim = o.bases.size := by unfold Obj.pardim; omega
+  unfold PyObject.split_fuel
+  simp only [PyObject_pardim_eq o tol (by omega), ok_bind, PyObject_check_direction_eq]
+  cases hc : checkDirection d o.pardim with
+  | error e => rfl
+  | ok dir =>
+    have hdir : dir < o.bases.size := by have := checkDirection_lt hc; omega
+    have hd2 := checkDirection_le2 hc
+    have hI : LpInv o dir := ⟨hb, hdir⟩
+    simp only [map_ok, ok_bind]
+    rw [PyObject_order_dir_eq o tol _ (by omega) (by omega), checkDirection_int (by omega) hd2]
+    simp only [map_ok, ok_bind, pure_eq_ok]
+    generalize hks : ensure_listlike knots = ks
+    have hG' := hG dir hc
+    rw [hks] at hG'
+    unfold Obj.split
+    rw [splitInsert_eq]
+    rw [bind_assoc]
+    refine (si_loop o tol dir _ ?_ _ _ ks o (SiInv.refl o dir hI) ?_).trans rfl
+    · intro so k hIs
+      exact si_body o so tol dir k hd2 hdir hIs
+    · intro so hS hso
+      have hS' := hS
+      obtain ⟨⟨hbs, hdirs⟩, i1, i2, i3, i4, i5, i6, i7⟩ := hS
+      simp only [ofObj_bases]
+      rw [getBasis_nat _ hdirs]
+      simp only [ok_bind]
+      have hbd : so.bases.getD dir default = so.basis dir := rfl
+      rw [hbd]
+      by_cases hp : (so.basis dir).periodic > -1
+      · unfold SplitGuard at hG'
+        have hGs := hG' so hso
+        rw [if_pos hp] at hGs
+        rw [if_pos hp, if_pos hp]
+        cases ks with
+        | nil => rfl
+        | cons k0 rest =>
+          have hg0 : getItem (k0 :: rest) (0 : Int) = .ok k0 := by
+            have := getItem_nat (k0 :: rest) (k := 0) (by simp)
+            simpa using this
+          rw [hg0]
+          simp only [ok_bind, pyBisectLeft_knots, List.headD_cons, List.tail_cons] at hGs ⊢
+          have hsz : ((so.basis dir).order : Int) + (so.basis dir).periodic + 1 ≤ ((so.basis dir).knots.size : Int) := by
+            have := hper dir hdir (by rw [← i2]; omega)
+            rw [i1, i2]; omega
+          unfold basisRoll
+          have h1 : ¬ ((((so.basis dir).bisectL k0 : ℕ) : Int) < 0) := by omega
+          have h2 : ¬ ((so.basis dir).periodic < 0) := by omega
+          rw [if_neg h1, if_neg h2]
+          by_cases hgd : ((so.basis dir).order : Int) + (so.basis dir).periodic + 1 + (((so.basis dir).bisectL k0 : ℕ) : Int)
+              > ((so.basis dir).knots.size : Int)
+          · have hgd' : (so.basis dir).bisectL k0 >
+                (so.basis dir).knots.size - (so.basis dir).order - (so.basis dir).periodic.toNat - 1 := by omega
+            rw [if_pos hgd, if_pos hgd']
+            rfl
+          · have hgd' : ¬ ((so.basis dir).bisectL k0 >
+                (so.basis dir).knots.size - (so.basis dir).order - (so.basis dir).periodic.toNat - 1) := by omega
+            rw [if_neg hgd, if_neg hgd']
+            simp only [Int.toNat_natCast, pure_eq_ok, ok_bind]
+            cases hroll : (so.basis dir).roll ((so.basis dir).bisectL k0) with
+            | error e => rfl
+            | ok b1 =>
+              have hb1 : b1.periodic = (so.basis dir).periodic ∧ b1.order = (so.basis dir).order := by
+                unfold Basis.roll at hroll
+                rw [if_neg h2] at hroll
+                cases hroll
+                exact ⟨rfl, rfl⟩
+              simp only [ok_bind]
+              rw [setBasis_nat _ hdirs]
+              simp only [ok_bind, ofObj_cps]
+              rw [npRoll_neg _ _ _ (by omega)]
+              simp only [ok_bind]
+              rw [getBasis_nat _ (by simp; omega), getD_set!_self _ _ hdirs]
+              simp only [ok_bind]
+              rw [setBasis_nat _ (by simp; omega)]
+              simp only [ok_bind, set!_set!]
+              rw [getBasis_nat _ (by simp; omega), getD_set!_self _ _ hdirs]
+              simp only [ok_bind]
+              rw [setBasis_nat _ (by simp; omega)]
+              simp only [ok_bind, set!_set!]
+              have hr : b1.periodic = (((so.basis dir).periodic.toNat : ℕ) : Int) := by rw [hb1.1]; omega
+              rw [hr, slice_ghost]
+              have hobj : PyObj.mk (so.bases.set! dir
+                    (Basis.mk b1.order (b1.knots.extract 0 (b1.knots.size - (so.basis dir).periodic.toNat - 1)) (-1)))
+                  (so.cps.rollAxisNeg dir ((so.basis dir).bisectL k0)) (ofObj so).dimension (ofObj so).rational
+                  = ofObj (openAt so dir ((so.basis dir).bisectL k0) b1) := by
+                unfold ofObj openAt
+                simp only [PyObj.mk.injEq, true_and, and_true, Nat.cast_inj]
+                symm
+                apply ofObj_dimension_shape
+                · simp only [rollAxisNeg_shape]
+                · rfl
+              rw [hobj]
+              have hlen : (len (k0 :: rest) > (1 : Int)) ↔ rest.length ≥ 1 := by
+                simp only [len, List.length_cons]; omega
+              by_cases hr1 : rest.length ≥ 1
+              · rw [if_pos (hlen.mpr hr1), if_pos hr1, slice_tail]
+                have hI2 : LpInv (openAt so dir ((so.basis dir).bisectL k0) b1) dir := by
+                  unfold openAt LpInv
+                  simp only [rollAxisNeg_shape, Array.size_set!]
+                  exact ⟨hbs, hdirs⟩
+                rw [split_fuel_np f _ tol rest dir hI2 hd2 (by unfold openAt; simp; omega)
+                  (by unfold openAt Obj.ncomp; simp only [rollAxisNeg_shape]; unfold Obj.ncomp at hnc; omega)
+                  (by unfold openAt; rw [basis_set _ _ hdirs]; simp)
+                  (fun so3 h3 => hGs b1 hroll so3 h3)]
+                show _ = (do
+                  let so3 ← (openAt so dir ((so.basis dir).bisectL k0) b1).splitInsert tol rest dir
+                  let ps ← (openAt so dir ((so.basis dir).bisectL k0) b1).splitPieces so3 tol rest dir
+                  pure (SplitRes.many ps)) >>= fun r => Except.ok (resOf r)
+                cases (openAt so dir ((so.basis dir).bisectL k0) b1).splitInsert tol rest dir with
+                | error e => rfl
+                | ok so3 =>
+                  simp only [ok_bind]
+                  cases (openAt so dir ((so.basis dir).bisectL k0) b1).splitPieces so3 tol rest dir <;> rfl
+              · rw [if_neg (fun h => hr1 (hlen.mp h)), if_neg hr1]
+                rfl
+      · unfold SplitGuard at hG'
+        have hGs := hG' so hso
+        rw [if_neg hp] at hGs
+        rw [if_neg hp, if_neg hp]
+        have hc : ctorFirst ((o.bases.size : ℕ) : Int) = .ok ((o.bases.size : ℕ) : Int) := by
+          unfold ctorFirst; rw [if_pos]; constructor <;> omega
+        rw [hc]
+        simp only [ok_bind]
+        have key := np_tail o so tol dir hI hd2 hS' hnc ks hGs
+        rw [show (do let ps ← o.splitPieces so tol ks dir; pure (SplitRes.many ps)) >>= (fun r => Except.ok (resOf r))
+            = (o.splitPieces so tol ks dir).map (fun ps => PyRes.objs (ps.map ofObj)) from by
+          cases o.splitPieces so tol ks dir <;> rfl]
+        rw [← key]
+        rfl
+
+/-- `SplineObject.split(knots, direction)` = the hand model `Obj.split`.  Guards: one basis per parametric axis
+    (`hb`); at most three parametric directions (`hd3`: the code looks the class of the pieces up among
+    Curve / Surface / Volume and raises `IndexError` otherwise, the model does not); at least one component
+    (`hnc`); a periodic basis has its `p + k + 1` ghost knots (`hper`); `SplitGuard` (`hG`). -/
+theorem _root_.PyObject_split_eq (o : Obj K) (tol : K) (knots : Param K) (d : DirTok)
+    (hb : o.cps.shape.length = o.bases.size + 1) (hd3 : o.bases.size ≤ 3) (hnc : 1 ≤ o.ncomp)
+    (hper : ∀ dir, dir < o.bases.size → (o.basis dir).periodic ≥ 0 →
+      ((o.basis dir).order : Int) + (o.basis dir).periodic + 1 ≤ ((o.basis dir).knots.size : Int))
+    (hG : ∀ dir, checkDirection d o.pardim = .ok dir → SplitGuard o tol (ensure_listlike knots) dir) :
+    PyObject.split (ofObj o) tol knots d = (do
+      let dir ← checkDirection d o.pardim
+      let r ← o.split tol (ensure_listlike knots) dir
+      pure (resOf r)) :=
+  split_fuel_eq 0 o tol knots d hb hd3 hnc hper hG
+
+end Splipy.PyO
+
+-- ---------------------------------------------------------------------------- t3b part 13
+
+namespace Splipy.PyO
+open Splipy Splipy.Generated Splipy.C06
+variable {K : Type} [Field K] [LinearOrder K] [FloorRing K]
+
+/-! ## `np.tensordot(M, t, axes=(1, pardim-1))` = `Tensor.tensordotFront` (no generated code) -/
+
+theorem flatIdx_append (A B x y : List ℕ) (h : x.length = A.length) :
+    flatIdx (A ++ B) (x ++ y) = flatIdx A x * Tensor.prod B + flatIdx B y := by
+  induction A generalizing x with
+  | nil =>
+    cases x with
+    | nil => simp
+    | cons a x => simp at h
+  | cons n A ih =>
+    cases x with
+    | nil => simp at h
+    | cons a x =>
+      have h' : x.length = A.length := by simpa using h
+      simp only [List.cons_append, flatIdx_cons, ih x h', prod_append]
+      ring
+
+theorem take_insertIdx_self (rest : List ℕ) (ax j : ℕ) : (rest.insertIdx ax j).take ax = rest.take ax := by
+  apply List.ext_getElem?
+  intro k
+  simp only [List.getElem?_take]
+  by_cases hk : k < ax
+  · simp only [hk, if_true]; rw [List.getElem?_insertIdx]; simp [hk]
+  · simp [hk]
+
+theorem drop_insertIdx_self (rest : List ℕ) (ax j : ℕ) : (rest.insertIdx ax j).drop (ax + 1) = rest.drop ax := by
+  apply List.ext_getElem?
+  intro k
+  simp only [List.getElem?_drop]
+  rw [List.getElem?_insertIdx]
+  have h1 : ¬ (ax + 1 + k < ax) := by omega
+  have h2 : ¬ (ax + 1 + k = ax) := by omega
+  simp only [h1, h2, if_false]
+  congr 1
+  omega
+
+theorem take_eraseIdx_self (s : List ℕ) (ax : ℕ) (h : ax < s.length) : (s.eraseIdx ax).take ax = s.take ax := by
+  rw [List.eraseIdx_eq_take_drop_succ, List.take_append_of_le_length (by simp; omega), List.take_take]; simp
+
+theorem drop_eraseIdx_self (s : List ℕ) (ax : ℕ) (h : ax < s.length) : (s.eraseIdx ax).drop ax = s.drop (ax + 1) := by
+  rw [List.eraseIdx_eq_take_drop_succ, List.drop_append_of_le_length (by simp; omega)]
+  simp
+
+theorem inRange_cons_inv {idx : List ℕ} {n : ℕ} {shape : List ℕ} (h : InRange idx (n :: shape)) :
+    ∃ r rest, idx = r :: rest ∧ r < n ∧ InRange rest shape := by
+  cases h with
+  | cons h1 h2 => exact ⟨_, _, rfl, h1, h2⟩
+
+theorem tensordot_front (M : Mat K) (t : Tensor K) (pd : ℕ) (hpd : 1 ≤ pd) (hax : pd - 1 < t.shape.length) :
+    npTensordot M t ((pd : Int) - 1) = .ok (Tensor.tensordotFront M t pd) := by
+  have e : ((pd : Int) - 1) = ((pd - 1 : ℕ) : Int) := by omega
+  rw [e, npTensordot_ok M t (pd - 1) hax]
+  congr 1
+  set ax := pd - 1 with hAx
+  have hE : t.shape.eraseIdx ax = t.shape.take ax ++ t.shape.drop (ax + 1) := List.eraseIdx_eq_take_drop_succ _ _
+  have hprodE : Tensor.prod (t.shape.eraseIdx ax) = Tensor.prod (t.shape.take ax) * Tensor.prod (t.shape.drop (ax + 1)) := by
+    rw [hE, prod_append]
+  apply tensor_ext
+  · rfl
+  · rw [ofIdxFn_size]; rfl
+  · unfold Tensor.tensordotFront
+    simp only [Array.size_ofFn, prod_cons]
+    rw [← hAx, hprodE]; ring
+  · intro idx hidx
+    simp only [ofIdxFn_shape] at hidx
+    rw [getIdx_ofIdxFn _ _ hidx]
+    obtain ⟨r, rest, rfl, hr, hrest⟩ := inRange_cons_inv hidx
+    simp only [List.headD_cons, List.tail_cons]
+    have hlr : rest.length = t.shape.length - 1 := by
+      rw [hrest.length_eq, List.length_eraseIdx, if_pos hax]
+    -- the blocks of `rest`
+    have hsplit : rest = rest.take ax ++ rest.drop ax := (List.take_append_drop ax rest).symm
+    have hlt : (rest.take ax).length = (t.shape.take ax).length := by
+      simp only [List.length_take]; omega
+    have hA : InRange (rest.take ax) (t.shape.take ax) := by
+      have := List.forall₂_take ax hrest
+      rwa [take_eraseIdx_self _ _ hax] at this
+    have hI : InRange (rest.drop ax) (t.shape.drop (ax + 1)) := by
+      have := List.forall₂_drop ax hrest
+      rwa [drop_eraseIdx_self _ _ hax] at this
+    set a := flatIdx (t.shape.take ax) (rest.take ax) with ha
+    set i := flatIdx (t.shape.drop (ax + 1)) (rest.drop ax) with hi
+    set o := Tensor.prod (t.shape.take ax) with ho
+    set inn := Tensor.prod (t.shape.drop (ax + 1)) with hinn
+    have hao : a < o := flatIdx_lt hA
+    have hii : i < inn := flatIdx_lt hI
+    have hflatE : flatIdx (t.shape.eraseIdx ax) rest = a * inn + i := by
+      rw [hE]
+      conv_lhs => rw [hsplit]
+      exact flatIdx_append _ _ _ _ hlt
+    have hk : flatIdx (M.size :: t.shape.eraseIdx ax) (r :: rest) = (r * o + a) * inn + i := by
+      rw [flatIdx_cons, hflatE, hprodE]; ring
+    obtain ⟨e1, e2, e3⟩ := digits3 r o a inn i hao hii
+    have hbound : (r * o + a) * inn + i < M.size * o * inn := by
+      have : (r * o + a + 1) * inn ≤ M.size * o * inn := by
+        apply Nat.mul_le_mul_right
+        have : (r + 1) * o ≤ M.size * o := Nat.mul_le_mul_right _ hr
+        nlinarith
+      nlinarith
+    unfold getIdx
+    show _ = (Tensor.tensordotFront M t pd).get (flatIdx (M.size :: t.shape.eraseIdx ax) (r :: rest))
+    rw [hk]
+    unfold Tensor.tensordotFront Tensor.get
+    simp only [← hAx, ← ho, ← hinn]
+    rw [getD_ofFn _ _ hbound]
+    simp only [e1, Nat.div_div_eq_div_mul, e3, e2]
+    unfold Mat.dot Mat.get
+    apply foldl_range_congr
+    intro acc j hj
+    congr 2
+    -- the entry of `t`
+    have hfull : (rest.insertIdx ax 0).length = t.shape.length := by
+      rw [List.length_insertIdx]; simp only [hlr]; split_ifs <;> omega
+    have hrest' : rest = (rest.insertIdx ax 0).eraseIdx ax := by
+      rw [List.eraseIdx_insertIdx_self]
+    have hins : rest.insertIdx ax j = (rest.insertIdx ax 0).set ax j := by
+      conv_lhs => rw [hrest']
+      exact eraseIdx_insertIdx_set _ _ _ (by omega)
+    rw [hins]
+    congr 1
+    rw [flatIdx_split _ _ ax hax (by rw [List.length_set]; exact hfull), List.take_set_of_le (le_refl ax),
+      getD_set_self _ _ _ _ (by omega), List.drop_set_of_lt (Nat.lt_succ_self ax), take_insertIdx_self,
+      drop_insertIdx_self]
+
+end Splipy.PyO
+
+-- ---------------------------------------------------------------------------- t3b part 14
+
+namespace Splipy.PyO
+open Splipy Splipy.Generated Splipy.C06
+variable {K : Type} [Field K] [LinearOrder K] [FloorRing K]
+
+/-! ### method: pardim -/
+
+-- the interpolation shared by `raise_order_implicit` and `lower_order`; the only generated code it mentions is `pardim`
+
+theorem tensordotFront_shape (M : Mat K) (t : Tensor K) (pd : ℕ) :
+    (Tensor.tensordotFront M t pd).shape = M.size :: t.shape.eraseIdx (pd - 1) := rfl
+
+/-- invariant of the two contraction loops: rank and number of components -/
+def TdInv (pd nc : ℕ) (t : Tensor K) : Prop := t.shape.length = pd + 1 ∧ t.shape.getLastD 0 = nc
+
+theorem tdInv_step (M : Mat K) (t : Tensor K) (pd nc : ℕ) (hpd : 1 ≤ pd) (h : TdInv pd nc t) :
+    TdInv pd nc (Tensor.tensordotFront M t pd) := by
+  obtain ⟨h1, h2⟩ := h
+  refine ⟨?_, ?_⟩
+  · rw [tensordotFront_shape, List.length_cons, List.length_eraseIdx, if_pos (by omega)]; omega
+  · rw [tensordotFront_shape, ← h2]
+    rw [List.getLastD_eq_getLast?, List.getLastD_eq_getLast?, List.getLast?_eq_getElem?, List.getLast?_eq_getElem?]
+    simp only [List.length_cons, List.length_eraseIdx, if_pos (show pd - 1 < t.shape.length by omega)]
+    have e : t.shape.length - 1 + 1 - 1 = (t.shape.length - 2) + 1 := by omega
+    rw [e, List.getElem?_cons_succ, List.getElem?_eraseIdx]
+    have : ¬ (t.shape.length - 2 < pd - 1) := by omega
+    simp only [this, if_false]
+    congr 2
+    omega
+
+/-- first loop: `for n in N_old[::-1]: result = np.tensordot(n, result, axes=(1, self.pardim-1))` -/
+theorem td_loop1 (o : Obj K) (tol : K) (hb : o.cps.shape.length = o.bases.size + 1) (h1 : 1 ≤ o.bases.size)
+    (body : Mat K → Tensor K → PyM (Tensor K))
+    (hbody : ∀ N s, body N s = (do
+        let tmp12 ← PyObject.pardim (ofObj o) tol
+        npTensordot N s (tmp12 - (1 : Int))))
+    (Ns : List (Mat K)) (t : Tensor K) (nc : ℕ) (ht : TdInv o.pardim nc t) :
+    forEach Ns t body
+      = .ok (Ns.foldl (fun t N => Tensor.tensordotFront N t o.pardim) t) ∧
+    TdInv o.pardim nc (Ns.foldl (fun t N => Tensor.tensordotFront N t o.pardim) t) := by
+  have hpd : o.pardim = o.bases.size := by unfold Obj.pardim; omega
+  unfold forEach
+  apply foldlM_ok_inv Ns _ _ (TdInv o.pardim nc) t ht
+  intro N _ s hs
+  refine ⟨?_, tdInv_step N s _ nc (by omega) hs⟩
+  simp only [hbody, PyObject_pardim_eq o tol (by omega), ok_bind, pure_eq_ok]
+  rw [tensordot_front N s o.pardim (by omega) (by rw [hs.1]; omega)]
+
+/-- body of the second loop -/
+def tdBody2 (o : Obj K) (tol : K) (x14 : Mat K) (st14 : Tensor K) : PyM (Tensor K) := do
+  let tmp15 ← npLinalgInv x14
+  let tmp16 ← PyObject.pardim (ofObj o) tol
+  npTensordot tmp15 st14 (tmp16 - (1 : Int))
+
+/-- second loop: `for n in N_new[::-1]: result = np.tensordot(np.linalg.inv(n), result, axes=(1, self.pardim-1))` -/
+theorem td_loop2 {β : Type} (o : Obj K) (tol : K) (hb : o.cps.shape.length = o.bases.size + 1) (h1 : 1 ≤ o.bases.size)
+    (nc : ℕ) (F : Tensor K → PyM β) (G : Tensor K → PyM β)
+    (hFG : ∀ t, TdInv o.pardim nc t → F t = G t)
+    (body : Mat K → Tensor K → PyM (Tensor K)) (hbody : ∀ N s, body N s = tdBody2 o tol N s) :
+    ∀ (Ns : List (Mat K)) (t : Tensor K), TdInv o.pardim nc t →
+    (forEach Ns t body >>= F) = (Obj.solveChain o.pardim Ns t >>= G) := by
+  have hpd : o.pardim = o.bases.size := by unfold Obj.pardim; omega
+  intro Ns
+  induction Ns with
+  | nil => intro t ht; exact hFG t ht
+  | cons N Ns ih =>
+    intro t ht
+    unfold forEach at ih ⊢
+    rw [List.foldlM_cons]
+    have hstep : body N t = (Mat.invChecked N).map (fun Ni => Tensor.tensordotFront Ni t o.pardim) := by
+      rw [hbody]
+      unfold tdBody2 npLinalgInv
+      cases hinv : Mat.invChecked N with
+      | error e => rfl
+      | ok Ni =>
+        simp only [ok_bind, PyObject_pardim_eq o tol (by omega), pure_eq_ok, map_ok]
+        rw [tensordot_front Ni t o.pardim (by omega) (by rw [ht.1]; omega)]
+    rw [hstep]
+    unfold Obj.solveChain
+    cases hinv : Mat.invChecked N with
+    | error e => rfl
+    | ok Ni =>
+      simp only [map_ok, ok_bind]
+      exact ih _ (tdInv_step Ni t _ nc (by omega) ht)
+
+theorem listComp_greville (bs : List (Basis K)) (f : Basis K → PyM (List K))
+    (hf : ∀ b, f b = (b.greville).map Array.toList) :
+    listComp bs f = (Obj.grevilles bs).map (fun l => l.map Array.toList) := by
+  induction bs with
+  | nil => rfl
+  | cons b bs ih =>
+    simp only [listComp, Obj.grevilles, hf, ih]
+    cases b.greville with
+    | error e => rfl
+    | ok g =>
+      simp only [map_ok, ok_bind]
+      cases Obj.grevilles bs <;> rfl
+
+theorem listComp_basisMat (bs : List (Basis K)) (tol : K) (pts : List (Array K))
+    (f : Basis K × List K → PyM (Mat K)) (hf : ∀ x, f x = .ok (basisEvaluate x.1 tol x.2 (0 : Int) true)) :
+    listComp (zip2 bs (pts.map Array.toList)) f
+    = .ok ((List.zip bs pts).map (fun (b, p) => Obj.basisMat b tol p.toList 0 true)) := by
+  rw [listComp_ok _ _ (fun x => basisEvaluate x.1 tol x.2 (0 : Int) true) (fun x _ => hf x)]
+  congr 1
+  unfold zip2
+  rw [List.zip_map_right, List.map_map]
+  rfl
+
+end Splipy.PyO
+
+namespace Splipy.PyO
+open Splipy Splipy.Generated Splipy.C06
+variable {K : Type} [Field K] [LinearOrder K] [FloorRing K]
+
+theorem forEach_congr {α σ : Type} (l : List α) (s : σ) (f g : α → σ → PyM σ) (h : ∀ x s, f x s = g x s) :
+    forEach l s f = forEach l s g := by
+  unfold forEach
+  exact foldlM_congr' l _ _ s (fun s a => h a s)
+
+theorem tdInv_cps (o : Obj K) (h : 1 ≤ o.cps.shape.length) : TdInv o.pardim o.ncomp o.cps := by
+  refine ⟨?_, rfl⟩
+  unfold Obj.pardim; omega
+
+/-- the interpolation, with the rest of the method as a continuation -/
+theorem reinterp_eq {β : Type} (o : Obj K) (tol : K) (hb : o.cps.shape.length = o.bases.size + 1)
+    (h1 : 1 ≤ o.bases.size) (newBases : List (Basis K)) (F : Tensor K → PyM β) (G : Tensor K → PyM β)
+    (hFG : ∀ t, TdInv o.pardim o.ncomp t → F t = G t) :
+    (do
+      let tmp6 ← listComp newBases (fun x4 => do
+          let b := x4
+          let tmp5 ← basisGreville b
+          pure tmp5)
+      let interpolation_pts := tmp6
+      let tmp8 ← listComp (zip2 (ofObj o).bases.toList interpolation_pts) (fun x7 => do
+          let b := x7.1
+          let pts := x7.2
+          pure (basisEvaluate b tol pts (0 : Int) true))
+      let N_old := tmp8
+      let tmp10 ← listComp (zip2 newBases interpolation_pts) (fun x9 => do
+          let b := x9.1
+          let pts := x9.2
+          pure (basisEvaluate b tol pts (0 : Int) true))
+      let N_new := tmp10
+      let result := (ofObj o).controlpoints
+      let st11 ← forEach (reversed N_old) result (fun x11 st11 => do
+          let result := st11
+          let n := x11
+          let tmp12 ← PyObject.pardim (ofObj o) tol
+          let tmp13 ← npTensordot n result (tmp12 - (1 : Int))
+          let result := tmp13
+          pure result)
+      let result := st11
+      let st14 ← forEach (reversed N_new) result (fun x14 st14 => do
+          let result := st14
+          let n := x14
+          let tmp15 ← npLinalgInv n
+          let tmp16 ← PyObject.pardim (ofObj o) tol
+          let tmp17 ← npTensordot tmp15 result (tmp16 - (1 : Int))
+          let result := tmp17
+          pure result)
+      F st14) = (o.reinterpolate tol newBases >>= G) := by
+  unfold Obj.reinterpolate
+  rw [listComp_greville newBases _ (fun b => by
+    show basisGreville b = _
+    unfold basisGreville
+    cases b.greville <;> rfl)]
+  cases hg : Obj.grevilles newBases with
+  | error e => rfl
+  | ok pts =>
+    simp only [map_ok, ok_bind, ofObj_bases, ofObj_cps]
+    rw [listComp_basisMat o.bases.toList tol pts (fun x7 => pure (basisEvaluate x7.1 tol x7.2 0 true)) (fun x => rfl),
+      ok_bind,
+      listComp_basisMat newBases tol pts (fun x7 => pure (basisEvaluate x7.1 tol x7.2 0 true)) (fun x => rfl), ok_bind]
+    rw [forEach_congr _ _ _ (fun N s => do
+        let tmp12 ← PyObject.pardim (ofObj o) tol
+        npTensordot N s (tmp12 - (1 : Int))) (fun N s => by
+      cases PyObject.pardim (ofObj o) tol with
+      | error e => rfl
+      | ok pd => simp only [ok_bind]; exact bind_ok_eta _)]
+    obtain ⟨hl1, hl2⟩ := td_loop1 o tol hb h1 _ (fun N s => rfl)
+      (reversed ((List.zip o.bases.toList pts).map (fun (b, p) => Obj.basisMat b tol p.toList 0 true))) o.cps o.ncomp
+      (tdInv_cps o (by omega))
+    rw [hl1, ok_bind]
+    refine td_loop2 o tol hb h1 o.ncomp F G hFG _ (fun N s => ?_) _ _ hl2
+    unfold tdBody2
+    cases npLinalgInv N with
+    | error e => rfl
+    | ok Ni =>
+      simp only [ok_bind]
+      cases PyObject.pardim (ofObj o) tol with
+      | error e => rfl
+      | ok pd => simp only [ok_bind]; exact bind_ok_eta _
+
+end Splipy.PyO
+
+-- ---------------------------------------------------------------------------- t3b part 15
+
+namespace Splipy.PyO
+open Splipy Splipy.Generated Splipy.C06
+variable {K : Type} [Field K] [LinearOrder K] [FloorRing K]
+
+/-! ## comprehension / argument-normalisation facts used by the order methods (no generated code) -/
+
+theorem pyAll_map {α : Type} (l : List α) (p : α → Bool) : pyAll (l.map p) = l.all p := by
+  simp [pyAll, List.all_map]
+
+theorem checkDirection_int_eq (d : Int) (pd : ℕ) : checkDirection (.int d) pd = Obj.checkDirection d pd := by
+  unfold checkDirection Obj.checkDirection
+  simp
+
+theorem getItem_head (l : List Int) (h : l.length = 1) : getItem l (0 : Int) = .ok (l.headD 0) := by
+  match l, h with
+  | [a], _ => rfl
+
+theorem listComp_zip_ok {α β γ : Type} (xs : List α) (ys : List β) (f : α × β → PyM γ) (g : α × β → γ)
+    (h : ∀ x, f x = .ok (g x)) : listComp (zip2 xs ys) f = .ok ((List.zip xs ys).map g) :=
+  listComp_ok _ _ g (fun x _ => h x)
+
+/-! ### method: raise_order_implicit -/
+
+theorem raiseBases_eq (tol : K) (bs : List (Basis K)) (rs : List Int) (h : ∀ r ∈ rs, 0 ≤ r)
+    (f : Basis K × Int → PyM (Basis K)) (hf : ∀ x, f x = basisRaiseOrder x.1 tol x.2) :
+    listComp (zip2 bs rs) f = Obj.raiseBases tol bs (rs.map Int.toNat) := by
+  induction bs generalizing rs with
+  | nil => simp [zip2, listComp, Obj.raiseBases]
+  | cons b bs ih =>
+    cases rs with
+    | nil => simp [zip2, listComp, Obj.raiseBases]
+    | cons r rs =>
+      have hr : ¬ (r < 0) := by have := h r (by simp); omega
+      simp only [zip2, List.zip_cons_cons, listComp, hf, basisRaiseOrder, Basis.raiseOrderInt, hr, if_false,
+        List.map_cons, Obj.raiseBases]
+      cases b.raiseOrder tol r.toNat with
+      | error e => rfl
+      | ok b' =>
+        simp only [ok_bind]
+        have := ih rs (fun r hr => h r (by simp [hr]))
+        unfold zip2 at this
+        rw [this]
+        cases Obj.raiseBases tol bs (rs.map Int.toNat) <;> rfl
+
+/-- the object built from the interpolated control points -/
+theorem ofObj_reinterp (o : Obj K) (nb : Array (Basis K)) (t : Tensor K) (ht : TdInv o.pardim o.ncomp t) :
+    ({ (ofObj o) with controlpoints := t, bases := nb } : PyObj K)
+      = ofObj { o with bases := nb, cps := t } := by
+  unfold ofObj
+  simp only [PyObj.mk.injEq, true_and, and_true, Nat.cast_inj]
+  symm
+  apply ofObj_dimension_shape
+  · exact ht.2
+  · rfl
+
+theorem _root_.PyObject_raise_order_implicit_eq (o : Obj K) (tol : K) (raises : List Int)
+    (hb : o.cps.shape.length = o.bases.size + 1) (h1 : 1 ≤ o.bases.size) (hnn : ∀ r ∈ raises, 0 ≤ r) :
+    PyObject.raise_order_implicit (ofObj o) tol raises
+      = (o.raiseOrderImplicit tol (raises.map Int.toNat)).map ofObj := by
+  unfold PyObject.raise_order_implicit Obj.raiseOrderImplicit
+  simp only [ofObj_bases]
+  rw [raiseBases_eq tol _ _ hnn _ (fun x => by
+    show (basisRaiseOrder x.1 tol x.2) = _
+    rfl)]
+  cases Obj.raiseBases tol o.bases.toList (raises.map Int.toNat) with
+  | error e => rfl
+  | ok newBases =>
+    simp only [ok_bind]
+    have key := reinterp_eq o tol hb h1 newBases
+      (fun st14 => (pure ({ (ofObj o) with controlpoints := st14, bases := newBases.toArray } : PyObj K) : PyM (PyObj K)))
+      (fun cps => .ok (ofObj { o with bases := newBases.toArray, cps := cps }))
+      (fun t ht => by rw [ofObj_reinterp o _ t ht]; rfl)
+    simp only [ofObj_bases, ofObj_cps] at key
+    refine key.trans ?_
+    cases o.reinterpolate tol newBases <;> rfl
+
+end Splipy.PyO
+
+namespace Splipy.PyO
+open Splipy Splipy.Generated Splipy.C06
+variable {K : Type} [Field K] [LinearOrder K] [FloorRing K]
+
+/-! ### method: raise_order -/
+
+theorem anyM_raiseGuard (tol : K) (bs : List (Basis K)) (hk : ∀ b ∈ bs, 0 < b.knots.size)
+    (f : Basis K → PyM Bool)
+    (hf : ∀ b, f b = (do
+      let tmp15 ← getItem b.knots.toList (0 : Int)
+      let tmp16 ← basisContinuity b tol tmp15
+      pure (decide ((extLt tmp16 ((b.order : ℕ) : Int) = true) ∨ (b.periodic > (-1 : Int)))))) :
+    anyM bs f = Obj.raiseGuard tol bs := by
+  induction bs with
+  | nil => rfl
+  | cons b bs ih =>
+    have hb0 := hk b (by simp)
+    have hg : getItem b.knots.toList (0 : Int) = .ok (b.kn 0) := by
+      have := getItem_nat b.knots.toList (k := 0) (by simpa using hb0)
+      simp only [Nat.cast_zero] at this
+      rw [this]
+      congr 1
+      simp [Basis.kn, hb0]
+    simp only [anyM, Obj.raiseGuard, hf, hg, ok_bind, basisContinuity]
+    cases b.continuity tol (b.kn 0) with
+    | error e => rfl
+    | ok c =>
+      simp only [ok_bind, pure_eq_ok]
+      have e : decide ((extLt c ((b.order : ℕ) : Int) = true) ∨ (b.periodic > (-1 : Int)))
+          = ((match c with | none => false | some c => decide (c < (b.order : Int))) || decide (b.periodic > -1)) := by
+        cases c <;> simp [extLt]
+      rw [e, ih (fun b' hb' => hk b' (by simp [hb']))]
+      cases ((match c with | none => false | some c => decide (c < (b.order : Int))) || decide (b.periodic > -1)) <;> rfl
+
+
+end Splipy.PyO
+
+namespace Splipy.PyO
+open Splipy Splipy.Generated Splipy.C06
+variable {K : Type} [Field K] [LinearOrder K] [FloorRing K]
+
+/-- the part of `raise_order` after the normalisation of `raises` -/
+theorem raise_order_tail (o : Obj K) (tol : K) (rs : List Int)
+    (hb : o.cps.shape.length = o.bases.size + 1) (h1 : 1 ≤ o.bases.size)
+    (hk : ∀ b ∈ o.bases.toList, 0 < b.knots.size) :
+    (do
+      let tmp10 ← listComp rs (fun x9 => do
+          let r := x9
+          pure (decide (r ≥ (0 : Int))))
+      let st11 ← (if (¬ ((pyAll tmp10) = true)) then do
+          throw .value
+        else do
+          pure ())
+      let tmp13 ← listComp rs (fun x12 => do
+          let r := x12
+          pure (decide (r = (0 : Int))))
+      if ((pyAll tmp13) = true) then do
+        pure (ofObj o)
+      else do
+        let tmp17 ← anyM (ofObj o).bases.toList (fun x14 => do
+            let b := x14
+            let tmp15 ← getItem b.knots.toList (0 : Int)
+            let tmp16 ← basisContinuity b tol tmp15
+            pure (decide ((extLt tmp16 ((b.order : ℕ) : Int) = true) ∨ (b.periodic > (-1 : Int)))))
+        if (tmp17 = true) then do
+          let self_ ← PyObject.raise_order_implicit (ofObj o) tol rs
+          pure self_
+        else do
+          throw .other)
+    = (if rs.any (fun r => decide (r < 0)) then (.error .value : PyM (Ret × Obj K))
+       else if rs.all (fun r => decide (r = 0)) then .ok (.self, o)
+       else
+         match Obj.raiseGuard tol o.bases.toList with
+         | .error e => .error e
+         | .ok true =>
+           (match o.raiseOrderImplicit tol (rs.map Int.toNat) with
+            | .error e => .error e
+            | .ok o' => .ok (.self, o'))
+         | .ok false => .error .other).map (fun r => ofObj r.2) := by
+  show (listComp rs (fun x9 => (pure (decide (x9 ≥ (0 : Int))) : PyM Bool)) >>= _) = _
+  rw [listComp_ok rs (fun x9 => (pure (decide (x9 ≥ (0 : Int))) : PyM Bool)) (fun r => decide (r ≥ (0 : Int)))
+    (fun x _ => rfl)]
+  simp only [ok_bind, pyAll_map]
+  by_cases hneg : rs.any (fun r => decide (r < 0)) = true
+  · have hall : ¬ (rs.all (fun r => decide (r ≥ (0 : Int))) = true) := by
+      simp only [List.any_eq_true, decide_eq_true_eq, List.all_eq_true, not_forall] at hneg ⊢
+      obtain ⟨r, hr, hlt⟩ := hneg
+      exact ⟨r, hr, by omega⟩
+    rw [if_pos hall, if_pos hneg]
+    rfl
+  · have hall : rs.all (fun r => decide (r ≥ (0 : Int))) = true := by
+      simp only [List.any_eq_true, decide_eq_true_eq, List.all_eq_true, not_exists, not_and] at hneg ⊢
+      intro r hr
+      have := hneg r hr; omega
+    have hnn : ∀ r ∈ rs, 0 ≤ r := by
+      simp only [List.all_eq_true, decide_eq_true_eq] at hall
+      exact fun r hr => hall r hr
+    rw [if_neg (by rw [hall]; simp), if_neg hneg]
+    simp only [pure_eq_ok, ok_bind]
+    show (listComp rs (fun x9 => (pure (decide (x9 = (0 : Int))) : PyM Bool)) >>= _) = _
+    rw [listComp_ok rs (fun x9 => (pure (decide (x9 = (0 : Int))) : PyM Bool)) (fun r => decide (r = (0 : Int)))
+      (fun x _ => rfl)]
+    simp only [ok_bind, pyAll_map]
+    by_cases hz : rs.all (fun r => decide (r = 0)) = true
+    · rw [if_pos hz, if_pos hz]; rfl
+    · rw [if_neg hz, if_neg hz]
+      simp only [ofObj_bases]
+      rw [anyM_raiseGuard tol o.bases.toList hk (fun x14 => do
+            let tmp15 ← getItem x14.knots.toList 0
+            let tmp16 ← basisContinuity x14 tol tmp15
+            Except.ok (decide (extLt tmp16 ↑x14.order = true ∨ x14.periodic > -1))) (fun b => rfl)]
+      cases hg : Obj.raiseGuard tol o.bases.toList with
+      | error e => rfl
+      | ok g =>
+        cases g with
+        | false => rfl
+        | true =>
+          simp only [ok_bind, if_true]
+          rw [PyObject_raise_order_implicit_eq o tol rs hb h1 hnn]
+          cases o.raiseOrderImplicit tol (rs.map Int.toNat) <;> rfl
+
+end Splipy.PyO
+
+namespace Splipy.PyO
+open Splipy Splipy.Generated Splipy.C06
+variable {K : Type} [Field K] [LinearOrder K] [FloorRing K]
+
+/-- `SplineObject.raise_order(*raises)` = `Obj.raiseOrder o tol raises none`.  Guards: one basis per axis,
+    at least one basis, no basis with an empty knot array (`b.knots[0]` is an `IndexError` there). -/
+theorem _root_.PyObject_raise_order_eq (o : Obj K) (tol : K) (raises : List Int)
+    (hb : o.cps.shape.length = o.bases.size + 1) (h1 : 1 ≤ o.bases.size)
+    (hk : ∀ b ∈ o.bases.toList, 0 < b.knots.size) :
+    PyObject.raise_order (ofObj o) tol raises = (o.raiseOrder tol raises none).map (fun r => ofObj r.2) := by
+  unfold PyObject.raise_order Obj.raiseOrder Obj.normRaises
+  simp only [PyObject_pardim_eq o tol (by omega), ok_bind, and_true]
+  by_cases hl : raises.length = 1
+  · have hl' : len raises = (1 : Int) := by simp [len, hl]
+    rw [if_pos hl', if_pos hl, getItem_head _ hl]
+    simp only [ok_bind, pure_eq_ok, listMul_singleton]
+    exact raise_order_tail o tol _ hb h1 hk
+  · have hl' : ¬ (len raises = (1 : Int)) := by simp only [len]; omega
+    rw [if_neg hl', if_neg hl', if_neg hl]
+    simp only [ok_bind, pure_eq_ok]
+    exact raise_order_tail o tol _ hb h1 hk
+
+/-! ### method: raise_order_dir -/
+
+theorem _root_.PyObject_raise_order_dir_eq (o : Obj K) (tol : K) (raises : List Int) (d : Int)
+    (hb : o.cps.shape.length = o.bases.size + 1) (h1 : 1 ≤ o.bases.size)
+    (hk : ∀ b ∈ o.bases.toList, 0 < b.knots.size) :
+    PyObject.raise_order_dir (ofObj o) tol raises (DirTok.int d)
+      = (o.raiseOrder tol raises (some d)).map (fun r => ofObj r.2) := by
+  unfold PyObject.raise_order_dir Obj.raiseOrder Obj.normRaises
+  simp only [PyObject_pardim_eq o tol (by omega), ok_bind, and_false, if_false]
+  by_cases hl : raises.length = 1
+  · have hl' : len raises = (1 : Int) := by simp [len, hl]
+    rw [if_pos hl', if_pos hl, getItem_head _ hl]
+    simp only [ok_bind, pure_eq_ok, listMul_singleton, PyObject_check_direction_eq, checkDirection_int_eq]
+    cases hc : Obj.checkDirection d o.pardim with
+    | error e => rfl
+    | ok i =>
+      have hi : i < o.pardim := by
+        unfold Obj.checkDirection at hc
+        split_ifs at hc <;> cases hc <;> omega
+      simp only [map_ok, ok_bind]
+      rw [setItem_nat _ (by simp; omega)]
+      simp only [ok_bind]
+      exact raise_order_tail o tol _ hb h1 hk
+  · have hl' : ¬ (len raises = (1 : Int)) := by simp only [len]; omega
+    rw [if_neg hl', if_neg hl]
+    simp only [ok_bind, pure_eq_ok]
+    exact raise_order_tail o tol _ hb h1 hk
+
+/-! ### method: set_order -/
+
+/-- `SplineObject.set_order(*order)` for an object whose class does not override `raise_order`
+    (`isCurve = false`: `Curve.raise_order` is a different method, handled by the override translator). -/
+theorem _root_.PyObject_set_order_eq (o : Obj K) (tol : K) (order : List Int)
+    (hb : o.cps.shape.length = o.bases.size + 1) (h1 : 1 ≤ o.bases.size)
+    (hk : ∀ b ∈ o.bases.toList, 0 < b.knots.size) :
+    PyObject.set_order (ofObj o) tol order = (o.setOrder tol false order).map (fun r => ofObj r.2) := by
+  unfold PyObject.set_order Obj.setOrder Obj.raiseOrderDispatch
+  simp only [PyObject_pardim_eq o tol (by omega), ok_bind, PyObject_order_eq, pure_eq_ok, Bool.false_eq_true, if_false]
+  have hnorm : (if len order = (1 : Int) then (do
+        let tmp2 ← getItem order (0 : Int)
+        (Except.ok (listMul ([tmp2] : List Int) (o.pardim : Int)) : PyM (List Int))) else Except.ok order)
+      = .ok (if order.length = 1 then List.replicate o.pardim (order.headD 0) else order) := by
+    by_cases hl : order.length = 1
+    · have hl' : len order = (1 : Int) := by simp [len, hl]
+      rw [if_pos hl', if_pos hl, getItem_head _ hl]
+      simp only [ok_bind, listMul_singleton]
+    · have hl' : ¬ (len order = (1 : Int)) := by simp only [len]; omega
+      rw [if_neg hl', if_neg hl]
+  rw [hnorm]
+  simp only [ok_bind]
+  generalize (if order.length = 1 then List.replicate o.pardim (order.headD 0) else order) = ord
+  rw [listComp_zip_ok ord _ _ (fun x => decide (x.1 ≥ x.2)) (fun x => rfl)]
+  simp only [ok_bind, pyAll_map]
+  by_cases hall : ((List.zip ord (o.bases.toList.map (fun b => ((b.order : ℕ) : Int)))).all
+      (fun x => decide (x.1 ≥ x.2))) = true
+  · have e : (!((List.zip ord (o.bases.toList.map (fun b => ((b.order : ℕ) : Int)))).all
+        (fun (n, ol) => decide (n ≥ ol)))) = false := by
+      simp only [Bool.not_eq_false']; exact hall
+    rw [if_neg (by rw [hall]; simp)]
+    simp only [e, Bool.false_eq_true, if_false, ok_bind]
+    rw [listComp_zip_ok ord _ _ (fun x => x.1 - x.2) (fun x => rfl)]
+    simp only [ok_bind]
+    rw [PyObject_raise_order_eq o tol _ hb h1 hk]
+  · have e : (!((List.zip ord (o.bases.toList.map (fun b => ((b.order : ℕ) : Int)))).all
+        (fun (n, ol) => decide (n ≥ ol)))) = true := by
+      simp only [Bool.not_eq_true']
+      cases h : ((List.zip ord (o.bases.toList.map (fun b => ((b.order : ℕ) : Int)))).all
+        (fun x => decide (x.1 ≥ x.2))) with
+      | true => exact absurd h hall
+      | false => rfl
+    rw [if_pos hall]
+    simp only [e, if_true]
+    rfl
+
+end Splipy.PyO
+
+namespace Splipy.PyO
+open Splipy Splipy.Generated Splipy.C06
+variable {K : Type} [Field K] [LinearOrder K] [FloorRing K]
+
+/-! ### method: lower_order -/
+
+theorem lowerBases_eq (tol : K) (bs : List (Basis K)) (ls : List Int)
+    (f : Basis K × Int → PyM (Basis K)) (hf : ∀ x, f x = basisLowerOrder x.1 tol x.2) :
+    listComp (zip2 bs ls) f = Obj.lowerBases tol bs ls := by
+  induction bs generalizing ls with
+  | nil => simp [zip2, listComp, Obj.lowerBases]
+  | cons b bs ih =>
+    cases ls with
+    | nil => simp [zip2, listComp, Obj.lowerBases]
+    | cons r rs =>
+      simp only [zip2, List.zip_cons_cons, listComp, hf, basisLowerOrder, Obj.lowerBases]
+      cases b.lowerOrder tol r with
+      | error e => rfl
+      | ok b' =>
+        simp only [ok_bind]
+        have := ih rs
+        unfold zip2 at this
+        rw [this]
+        cases Obj.lowerBases tol bs rs <;> rfl
+
+theorem lowerBases_length (tol : K) (bs : List (Basis K)) (ls : List Int) (nb : List (Basis K))
+    (h : Obj.lowerBases tol bs ls = .ok nb) : nb.length = min bs.length ls.length := by
+  induction bs generalizing ls nb with
+  | nil => simp [Obj.lowerBases] at h; subst h; simp
+  | cons b bs ih =>
+    cases ls with
+    | nil => simp [Obj.lowerBases] at h; subst h; simp
+    | cons r rs =>
+      simp only [Obj.lowerBases] at h
+      cases hb : b.lowerOrder tol r with
+      | error e => rw [hb] at h; exact absurd h (by simp)
+      | ok b' =>
+        rw [hb] at h
+        simp only [] at h
+        cases hr : Obj.lowerBases tol bs rs with
+        | error e => rw [hr] at h; exact absurd h (by simp)
+        | ok l =>
+          rw [hr] at h
+          cases h
+          simp only [List.length_cons, ih rs l hr]
+          omega
+
+/-- `SplineObject.lower_order(*lowers)` = `Obj.lowerOrder`.  Guards: one basis per axis; between one and three
+    parametric directions (the constructor look-up raises `IndexError` for more, the model does not); at least
+    one component; one amount, or an amount for every direction (with fewer, `zip` drops bases and the
+    constructor is called with the wrong number of arguments). -/
+theorem _root_.PyObject_lower_order_eq (o : Obj K) (tol : K) (lowers : List Int)
+    (hb : o.cps.shape.length = o.bases.size + 1) (h1 : 1 ≤ o.bases.size) (hd3 : o.bases.size ≤ 3)
+    (hnc : 1 ≤ o.ncomp) (hlen : lowers.length = 1 ∨ o.bases.size ≤ lowers.length) :
+    PyObject.lower_order (ofObj o) tol lowers = (o.lowerOrder tol lowers).map (fun r => ofObj r.2) := by
+  have hpd : o.pardim = o.bases.size := by unfold Obj.pardim; omega
+  unfold PyObject.lower_order Obj.lowerOrder
+  simp only [PyObject_pardim_eq o tol (by omega), ok_bind, pure_eq_ok]
+  have hnorm : (if len lowers = (1 : Int) then (do
+        let tmp2 ← getItem lowers (0 : Int)
+        (Except.ok (listMul ([tmp2] : List Int) (o.pardim : Int)) : PyM (List Int))) else Except.ok lowers)
+      = .ok (if lowers.length = 1 then List.replicate o.pardim (lowers.headD 0) else lowers) := by
+    by_cases hl : lowers.length = 1
+    · have hl' : len lowers = (1 : Int) := by simp [len, hl]
+      rw [if_pos hl', if_pos hl, getItem_head _ hl]
+      simp only [ok_bind, listMul_singleton]
+    · have hl' : ¬ (len lowers = (1 : Int)) := by simp only [len]; omega
+      rw [if_neg hl', if_neg hl]
+  rw [hnorm]
+  simp only [ok_bind]
+  have hlsl : o.bases.size ≤ (if lowers.length = 1 then List.replicate o.pardim (lowers.headD 0) else lowers).length := by
+    split_ifs with h
+    · simp [hpd]
+    · rcases hlen with h' | h'
+      · exact absurd h' h
+      · exact h'
+  generalize (if lowers.length = 1 then List.replicate o.pardim (lowers.headD 0) else lowers) = ls at hlsl
+  show (listComp ls (fun x9 => (pure (decide (x9 = (0 : Int))) : PyM Bool)) >>= _) = _
+  rw [listComp_ok ls (fun x9 => (pure (decide (x9 = (0 : Int))) : PyM Bool)) (fun r => decide (r = (0 : Int)))
+    (fun x _ => rfl)]
+  simp only [ok_bind, pyAll_map]
+  by_cases hz : ls.all (fun r => decide (r = 0)) = true
+  · rw [if_pos hz, if_pos hz]; rfl
+  · rw [if_neg hz, if_neg hz]
+    simp only [ofObj_bases]
+    rw [lowerBases_eq tol _ _ _ (fun x => by
+      show (basisLowerOrder x.1 tol x.2) = _
+      rfl)]
+    cases hlb : Obj.lowerBases tol o.bases.toList ls with
+    | error e => rfl
+    | ok newBases =>
+      simp only [ok_bind]
+      have hnl : newBases.toArray.size = o.bases.size := by
+        have := lowerBases_length tol _ _ _ hlb
+        simp only [Array.length_toList] at this
+        simp only [List.size_toArray]
+        omega
+      have hc : ctorFirst ((o.bases.size : ℕ) : Int) = .ok ((o.bases.size : ℕ) : Int) := by
+        unfold ctorFirst; rw [if_pos]; constructor <;> omega
+      have key := reinterp_eq o tol hb h1 newBases
+        (fun st19 => (do
+          let tmp23 ← ctorFirst ((o.bases.size : ℕ) : Int)
+          mkRaw tmp23 newBases.toArray st19 (ofObj o).rational : PyM (PyObj K)))
+        (fun cps => .ok (ofObj { o with bases := newBases.toArray, cps := cps }))
+        (fun t ht => by
+          simp only [hc, ok_bind, ofObj_rational]
+          rw [mkRaw_ofObj o.bases.size _ _ _ hnl
+            (by intro h; have := ht.1; rw [h] at this; simp at this)
+            (by rw [ht.2]; exact hnc)])
+      simp only [PyObject_pardim_eq o tol (by omega), ok_bind, pure_eq_ok, ofObj_bases, ofObj_cps] at key ⊢
+      refine Eq.trans ?_ (key.trans ?_)
+      · rfl
+      · cases o.reinterpolate tol newBases <;> rfl
+
+end Splipy.PyO
+
+-- ---------------------------------------------------------------------------- t3b part 16
+
+namespace Splipy.PyO
+open Splipy Splipy.Generated Splipy.C06
+variable {K : Type} [Field K] [LinearOrder K] [FloorRing K]
+
+/-! ## `scale` with one operand that may be a sequence (no generated code) -/
+
+/-- a positional argument of `scale` / the right operand of `*`, `/` as the hand model sees it -/
+def toArg : Param K → ScaleArg K
+  | .scalar x => .scalar x
+  | .list xs => .vec xs
+
+/-- the number stored for a scalar entry (1 is never read for a sequence: the store fails first) -/
+def pval : Param K → K
+  | .scalar x => x
+  | .list _ => 1
+
+def isSeq : Param K → Bool
+  | .scalar _ => false
+  | .list _ => true
+
+theorem flatten_eq (args : List (Param K)) :
+    ScaleArg.flatten (args.map toArg) = (ensure_flatlist_p args).map (List.map toArg) := by
+  cases args with
+  | nil => rfl
+  | cons a rest =>
+    cases a with
+    | scalar x => rfl
+    | list v =>
+      simp only [List.map_cons, toArg, ScaleArg.flatten, ensure_flatlist_p, map_ok, List.map_map]
+      congr 1
+
+theorem listlike3_eq (s : List (Param K)) :
+    Obj.ensureListlike3 (s.map toArg) = (ensure_listlike_dups s 3).map toArg := by
+  unfold Obj.ensureListlike3 ensure_listlike_dups
+  rw [List.getLast?_map]
+  cases s.getLast? with
+  | none => rfl
+  | some l => simp
+
+theorem mapM_scalars (l : List (Param K)) (f : ScaleArg K → PyM K)
+    (h1 : ∀ x, f (.scalar x) = .ok x) (h2 : ∀ v, f (.vec v) = .error .value) :
+    (l.map toArg).mapM f = if l.any isSeq then .error .value else .ok (l.map pval) := by
+  induction l with
+  | nil => rfl
+  | cons a l ih =>
+    simp only [List.map_cons, List.mapM_cons, ih, List.any_cons]
+    cases a with
+    | scalar x =>
+      simp only [toArg, isSeq, Bool.false_or, pval, h1, ok_bind]
+      split_ifs <;> rfl
+    | list v =>
+      simp only [toArg, h2]
+      rfl
+
+theorem affineCp_congr (o : Obj K) (M M' : ℕ → ℕ → K) (tr : ℕ → K)
+    (h : ∀ j i, j < o.dimension → i < o.dimension → M j i = M' j i) : o.affineCp M tr = o.affineCp M' tr := by
+  unfold Obj.affineCp
+  simp only []
+  congr 2
+  funext row
+  apply Array.ext (by simp)
+  intro i h1 h2
+  simp only [Array.getElem_ofFn]
+  by_cases hi : i < o.dimension
+  · rw [if_pos hi, if_pos hi]
+    congr 1
+    apply foldl_range_congr
+    intro acc j hj
+    rw [h j i hj hi]
+  · rw [if_neg hi, if_neg hi]
+
+end Splipy.PyO
+
+namespace Splipy.PyO
+open Splipy Splipy.Generated Splipy.C06
+variable {K : Type} [Field K] [LinearOrder K] [FloorRing K]
+
+/-! ### method: scale_p -/
+
+theorem getD_map_pval (s : List (Param K)) (i : ℕ) (hi : i < s.length) (hsc : isSeq s[i] = false) :
+    paramScalar s[i] = .ok ((s.map pval).getD i 1) := by
+  have : (s.map pval).getD i 1 = pval s[i] := by simp [List.getD_eq_getElem?_getD, hi]
+  rw [this]
+  cases h : s[i] with
+  | scalar x => rfl
+  | list v => rw [h] at hsc; simp [isSeq] at hsc
+
+theorem _root_.PyObject_scale_p_eq (o : Obj K) (tol : K) (args : List (Param K)) (hs : o.cps.shape ≠ [])
+    (hdim : 1 ≤ o.dimension) (hwf : o.cps.data.size = Tensor.prod o.cps.shape) (hlen : o.len = nPts o.cps) :
+    PyObject.scale_p (ofObj o) tol args = (o.scaleArgs (args.map toArg)).map ofObj := by
+  have hnc : 1 ≤ o.ncomp := by unfold Obj.dimension at hdim; omega
+  have hdn : o.dimension ≤ o.ncomp := by unfold Obj.dimension; omega
+  have hL := lastN_eq_ncomp o hs
+  unfold PyObject.scale_p Obj.scaleArgs Obj.scaleNums
+  simp only [PyObject_len_eq, ok_bind, ofObj_dimension, ofObj_rational, ofObj_cps, flatten_eq]
+  cases hfl : ensure_flatlist_p args with
+  | error e => rfl
+  | ok s =>
+    simp only [map_ok, ok_bind, listlike3_eq, ← List.map_take, List.length_map]
+    rw [mapM_scalars _ _ (fun x => rfl) (fun v => rfl)]
+    rw [ncomp_eq o hnc]
+    set s3 := ensure_listlike_dups s 3 with hs3
+    set v := s3.map pval with hv
+    have hid : npIdentity (K := K) ((o.ncomp : ℕ) : Int) = .ok (diagM o.ncomp v 0) := by
+      unfold npIdentity
+      have : ¬ (((o.ncomp : ℕ) : Int) < 0) := by omega
+      simp [this, diagM_zero]
+    rw [hid, ok_bind]
+    by_cases hseq : (s3.take o.dimension).any isSeq = true
+    · -- a sequence among the entries that are read: ValueError at the first one
+      rw [if_pos hseq]
+      obtain ⟨j, hj1, hj2, hj3⟩ : ∃ j, j < min o.dimension s3.length ∧ isSeq (s3.getD j (.scalar 0)) = true ∧
+          ∀ i, i < j → isSeq (s3.getD i (.scalar 0)) = false := by
+        have hex : ∃ j, j < min o.dimension s3.length ∧ isSeq (s3.getD j (.scalar 0)) = true := by
+          rw [List.any_eq_true] at hseq
+          obtain ⟨x, hx, hxs⟩ := hseq
+          obtain ⟨j, hjl, rfl⟩ := List.getElem_of_mem hx
+          rw [List.length_take] at hjl
+          refine ⟨j, hjl, ?_⟩
+          rw [List.getElem_take] at hxs
+          simpa [List.getD_eq_getElem?_getD, (by omega : j < s3.length)] using hxs
+        classical
+        refine ⟨Nat.find hex, (Nat.find_spec hex).1, (Nat.find_spec hex).2, ?_⟩
+        intro i hi
+        have := Nat.find_min hex hi
+        have hil : i < min o.dimension s3.length := lt_trans hi (Nat.find_spec hex).1
+        cases h : isSeq (s3.getD i (.scalar 0)) with
+        | false => rfl
+        | true => exact absurd ⟨hil, h⟩ this
+      have hjl : j < s3.length := by omega
+      rw [forRange_fail o.dimension j _ (fun m => diagM o.ncomp v m) .value (by omega)
+        (by
+          intro i hi
+          have hi' : i < s3.length := by omega
+          have hsc := hj3 i hi
+          rw [show s3.getD i (.scalar 0) = s3[i] by simp [List.getD_eq_getElem?_getD, hi']] at hsc
+          rw [getItem_nat _ hi', ok_bind, getD_map_pval s3 i hi' hsc, ok_bind]
+          exact diagM_step o.ncomp v i (by omega))
+        (by
+          rw [getItem_nat _ hjl, ok_bind]
+          rw [show s3.getD j (.scalar 0) = s3[j] by simp [List.getD_eq_getElem?_getD, hjl]] at hj2
+          cases h : s3[j] with
+          | scalar x => rw [h] at hj2; simp [isSeq] at hj2
+          | list l => rfl)]
+      rfl
+    · rw [if_neg hseq]
+      simp only [ok_bind, pure_eq_ok]
+      have hsc : ∀ i, i < o.dimension → ∀ hi' : i < s3.length, isSeq s3[i] = false := by
+        intro i hi hi'
+        cases h : isSeq s3[i] with
+        | false => rfl
+        | true =>
+          exfalso; apply hseq
+          rw [List.any_eq_true]
+          exact ⟨s3[i], by
+            rw [List.mem_take_iff_getElem]
+            exact ⟨i, by omega, rfl⟩, h⟩
+      by_cases hshort : s3.length < o.dimension
+      · rw [if_pos hshort]
+        rw [forRange_fail o.dimension s3.length _ (fun m => diagM o.ncomp v m) .index hshort
+          (by
+            intro i hi
+            rw [getItem_nat _ hi, ok_bind, getD_map_pval s3 i hi (hsc i (by omega) hi), ok_bind]
+            exact diagM_step o.ncomp v i (by omega))
+          (by
+            simp only [getItem, normIdx_nat_ge (le_refl _)]
+            rfl)]
+        rfl
+      · rw [if_neg hshort]
+        rw [forRange_iter o.dimension _ (fun m => diagM o.ncomp v m)
+          (by
+            intro i hi
+            have hi' : i < s3.length := by omega
+            rw [getItem_nat _ hi', ok_bind, getD_map_pval s3 i hi' (hsc i hi hi'), ok_bind]
+            exact diagM_step o.ncomp v i (by omega)), ok_bind]
+        rw [npReshape2_ok _ _ _ (by rw [hlen, hwf, prod_eq_nPts_mul _ hs, hL]), ok_bind, hlen, scale_cps o v hs hnc hwf,
+          ok_bind]
+        simp only [ok_bind]
+        unfold Obj.scale
+        have hlt : (List.take o.dimension s3).length = o.dimension := by rw [List.length_take]; omega
+        have hne : ¬ ((List.map pval (List.take o.dimension s3)).isEmpty = true) := by
+          rw [List.isEmpty_iff]; intro h
+          have := congrArg List.length h
+          simp only [List.length_map, hlt, List.length_nil] at this; omega
+        simp only []
+        rw [if_neg hne, if_neg (by simp only [List.length_append, List.length_map, hlt]; omega)]
+        simp only [map_ok]
+        congr 1
+        have hA : o.affineCp (fun j i => if i = j then
+              ((List.map pval (List.take o.dimension s3)) ++ List.replicate (3 - (List.map pval (List.take o.dimension s3)).length)
+                ((List.map pval (List.take o.dimension s3)).getLastD 1)).getD i 1 else 0) (fun _ => 0)
+            = o.affineCp (fun j i => if i = j then v.getD i 1 else 0) (fun _ => 0) := by
+          apply affineCp_congr
+          intro j i hj hi
+          by_cases hij : i = j
+          · rw [if_pos hij, if_pos hij]
+            rw [List.getD_append _ _ _ _ (by simp only [List.length_map, hlt]; exact hi)]
+            simp only [hv, List.getD_eq_getElem?_getD, List.getElem?_map, List.getElem?_take, hi, if_true]
+          · rw [if_neg hij, if_neg hij]
+        rw [hA]
+        unfold ofObj
+        simp only [PyObj.mk.injEq, true_and, and_true, Nat.cast_inj]
+        unfold Obj.affineCp Obj.dimension Obj.ncomp
+        simp only [mapLast_shape, List.getLastD_concat]
+        trivial
+
+end Splipy.PyO
+
+namespace Splipy.PyO
+open Splipy Splipy.Generated Splipy.C06
+variable {K : Type} [Field K] [LinearOrder K] [FloorRing K]
+
+/-! ## the operators: shared guards (no generated code) -/
+
+/-- guards shared by the operator theorems (those of `PyObject_translate_eq` / `PyObject_scale_p_eq`) -/
+structure OpGuard (o : Obj K) : Prop where
+  hs : o.cps.shape ≠ []
+  hdim : 1 ≤ o.dimension
+  hwf : o.cps.data.size = Tensor.prod o.cps.shape
+  hlen : o.len = nPts o.cps
+
+theorem OpGuard.hnc {o : Obj K} (g : OpGuard o) : 1 ≤ o.ncomp := by
+  have := g.hdim; unfold Obj.dimension at this; omega
+
+theorem recip_eq (x : Param K) : AffOp.recip (toArg x) = (paramRecip x).map toArg := by
+  cases x with
+  | scalar a =>
+    simp only [toArg, AffOp.recip, paramRecip]
+    split_ifs <;> rfl
+  | list l =>
+    simp only [toArg, AffOp.recip, paramRecip]
+    split_ifs <;> rfl
+
+/-! ### method: __iadd__ -/
+theorem _root_.PyObject_iadd_eq (o : Obj K) (tol : K) (x : List K) (g : OpGuard o) :
+    PyObject.op_iadd (ofObj o) tol x = (AffOp.inplace o (.iadd x)).map ofObj := by
+  unfold PyObject.op_iadd AffOp.inplace
+  rw [PyObject_translate_eq o tol x g.hs g.hnc g.hwf g.hlen]
+
+/-! ### method: __isub__ -/
+theorem _root_.PyObject_isub_eq (o : Obj K) (tol : K) (x : List K) (g : OpGuard o) :
+    PyObject.op_isub (ofObj o) tol x = (AffOp.inplace o (.isub x)).map ofObj := by
+  unfold PyObject.op_isub AffOp.inplace listNeg
+  rw [PyObject_translate_eq o tol _ g.hs g.hnc g.hwf g.hlen]
+
+/-! ### method: __imul__ -/
+theorem _root_.PyObject_imul_eq (o : Obj K) (tol : K) (x : Param K) (g : OpGuard o) :
+    PyObject.op_imul (ofObj o) tol x = (AffOp.inplace o (.imul (toArg x))).map ofObj := by
+  unfold PyObject.op_imul AffOp.inplace
+  rw [PyObject_scale_p_eq o tol _ g.hs g.hdim g.hwf g.hlen]
+  rfl
+
+/-! ### method: __itruediv__ -/
+theorem _root_.PyObject_itruediv_eq (o : Obj K) (tol : K) (x : Param K) (g : OpGuard o) :
+    PyObject.op_itruediv (ofObj o) tol x = (AffOp.inplace o (.itruediv (toArg x))).map ofObj := by
+  unfold PyObject.op_itruediv
+  show _ = Except.map ofObj (do let r ← AffOp.recip (toArg x); o.scaleArgs [r])
+  rw [recip_eq]
+  cases paramRecip x with
+  | error e => rfl
+  | ok y =>
+    simp only [ok_bind, map_ok]
+    rw [PyObject_scale_p_eq o tol _ g.hs g.hdim g.hwf g.hlen]
+    simp only [List.map_cons, List.map_nil]
+
+/-! ### method: __add__ -/
+theorem _root_.PyObject_add_eq (o : Obj K) (tol : K) (x : List K) (g : OpGuard o) :
+    PyObject.op_add (ofObj o) tol x = (AffOp.inplace o (.add x)).map ofObj := by
+  unfold PyObject.op_add
+  simp only [PyObject_iadd_eq o tol x g]
+  unfold AffOp.inplace
+  cases o.translateChecked x <;> rfl
+
+/-! ### method: __radd__ -/
+theorem _root_.PyObject_radd_eq (o : Obj K) (tol : K) (x : List K) (g : OpGuard o) :
+    PyObject.op_radd (ofObj o) tol x = (AffOp.inplace o (.radd x)).map ofObj := by
+  unfold PyObject.op_radd
+  simp only [PyObject_add_eq o tol x g]
+  unfold AffOp.inplace
+  cases o.translateChecked x <;> rfl
+
+/-! ### method: __sub__ -/
+theorem _root_.PyObject_sub_eq (o : Obj K) (tol : K) (x : List K) (g : OpGuard o) :
+    PyObject.op_sub (ofObj o) tol x = (AffOp.inplace o (.sub x)).map ofObj := by
+  unfold PyObject.op_sub
+  simp only [PyObject_isub_eq o tol x g]
+  unfold AffOp.inplace
+  cases o.translateChecked (x.map (- ·)) <;> rfl
+
+/-! ### method: __mul__ -/
+theorem _root_.PyObject_mul_eq (o : Obj K) (tol : K) (x : Param K) (g : OpGuard o) :
+    PyObject.op_mul (ofObj o) tol x = (AffOp.inplace o (.mul (toArg x))).map ofObj := by
+  unfold PyObject.op_mul
+  simp only [PyObject_imul_eq o tol x g]
+  unfold AffOp.inplace
+  cases o.scaleArgs [toArg x] <;> rfl
+
+/-! ### method: __rmul__ -/
+theorem _root_.PyObject_rmul_eq (o : Obj K) (tol : K) (x : Param K) (g : OpGuard o) :
+    PyObject.op_rmul (ofObj o) tol x = (AffOp.inplace o (.rmul (toArg x))).map ofObj := by
+  unfold PyObject.op_rmul
+  simp only [PyObject_mul_eq o tol x g]
+  unfold AffOp.inplace
+  cases o.scaleArgs [toArg x] <;> rfl
+
+/-! ### method: __div__ -/
+theorem _root_.PyObject_div_eq (o : Obj K) (tol : K) (x : Param K) (g : OpGuard o) :
+    PyObject.op_div (ofObj o) tol x = (AffOp.inplace o (.div (toArg x))).map ofObj := by
+  unfold PyObject.op_div
+  simp only [PyObject_itruediv_eq o tol x g]
+  unfold AffOp.inplace
+  cases AffOp.recip (toArg x) with
+  | error e => rfl
+  | ok y =>
+    simp only [ok_bind]
+
+end Splipy.PyO
+
+-- ---------------------------------------------------------------------------- t3b part 17
+
+namespace Splipy.PyO
+open Splipy Splipy.Generated Splipy.C06
+variable {K : Type} [Field K] [LinearOrder K] [FloorRing K]
+
+/-! ## `cp @ M` for a matrix that acts on the physical coordinates only (no generated code) -/
+
+/-- `np.identity(nc)` with the block `[0:dim, 0:dim]` replaced by `R` -/
+def blockM (nc dim : ℕ) (R : ℕ → ℕ → K) : Mat K :=
+  Array.ofFn (n := nc) (fun i => Array.ofFn (n := nc) (fun j =>
+    if i.val < dim ∧ j.val < dim then R i.val j.val else if i.val = j.val then 1 else 0))
+
+theorem blockM_get (nc dim : ℕ) (R : ℕ → ℕ → K) (i j : ℕ) (hi : i < nc) (hj : j < nc) :
+    (blockM nc dim R).get i j = if i < dim ∧ j < dim then R i j else if i = j then 1 else 0 := by
+  unfold Mat.get blockM
+  simp [Array.getD, hi, hj]
+
+theorem blockM_nrows (nc dim : ℕ) (R : ℕ → ℕ → K) : (blockM nc dim R).nrows = nc := by
+  simp [blockM, Mat.nrows]
+
+theorem blockM_ncols (nc dim : ℕ) (R : ℕ → ℕ → K) (h : 0 < nc) : (blockM nc dim R).ncols = nc := by
+  simp [blockM, Mat.ncols, Array.getD, h]
+
+theorem foldl_range_prefix (n m : ℕ) (f : ℕ → K) (hm : m ≤ n) (h : ∀ l, m ≤ l → l < n → f l = 0) :
+    (List.range n).foldl (fun acc l => acc + f l) 0 = (List.range m).foldl (fun acc l => acc + f l) 0 := by
+  induction n with
+  | zero =>
+    have : m = 0 := by omega
+    subst this; rfl
+  | succ n ih =>
+    by_cases hmn : m = n + 1
+    · subst hmn; rfl
+    · rw [List.range_succ, List.foldl_append, ih (by omega) (fun l h1 h2 => h l h1 (by omega))]
+      simp only [List.foldl_cons, List.foldl_nil]
+      rw [h n (by omega) (by omega), add_zero]
+
+/-- `np.reshape(cp @ M, shape)` is the model's `affineCp` with the block `R` -/
+theorem block_cps (o : Obj K) (R : ℕ → ℕ → K) (hs : o.cps.shape ≠ []) (hnc : 1 ≤ o.ncomp)
+    (hwf : o.cps.data.size = Tensor.prod o.cps.shape) :
+    npReshapeMat (npMatmul (matOfTensor o.cps (nPts o.cps) o.ncomp) (blockM o.ncomp o.dimension R)) (npShape o.cps)
+      = .ok (o.affineCp R (fun _ => 0)).cps := by
+  have hL := lastN_eq_ncomp o hs
+  have hL' : o.cps.shape.getLastD 1 = o.ncomp := hL
+  have hdn : o.dimension ≤ o.ncomp := by unfold Obj.dimension; omega
+  set nc := o.ncomp with hncd
+  set P := nPts o.cps with hP
+  have hsize : o.cps.size / nc = P := by
+    unfold Tensor.size
+    rw [prod_eq_nPts_mul _ hs, hL, Nat.mul_div_cancel _ (by omega)]
+  have hprod : Tensor.prod o.cps.shape = P * nc := by rw [prod_eq_nPts_mul _ hs, hL]
+  set A := matOfTensor o.cps P nc with hA
+  set D := blockM nc o.dimension R with hD
+  have hrows : ∀ r ∈ (Mat.mul A D).toList, r.size = nc := by
+    intro r hr
+    rw [mul_row_size A D r hr, blockM_ncols _ _ _ (by omega)]
+  have hAs : A.size = P := by simp [hA, matOfTensor]
+  have hfl : (tensorOfMat (Mat.mul A D) []).data.size = P * nc := by
+    show ((Mat.mul A D).foldl (· ++ ·) #[]).size = _
+    rw [flatten_size _ nc hrows, mul_rows, hAs]
+  unfold npReshapeMat npReshape npMatmul
+  rw [npShape_nonneg, npShape_toNat]
+  simp only [Bool.false_eq_true, if_false, hfl, hprod, if_true]
+  congr 1
+  unfold Obj.affineCp
+  simp only [← hncd]
+  apply tensor_mk_ext
+  · rw [mapLast_shape]
+    show o.cps.shape = o.cps.shape.dropLast ++ [nc]
+    conv_lhs => rw [← List.dropLast_append_getLast hs]
+    congr 2
+    rw [← hL]; unfold lastN
+    rw [List.getLastD_eq_getLast?, List.getLast?_eq_some_getLast hs]; rfl
+  · apply Array.ext
+    · rw [mapLast_data_size, hL', hsize]
+      exact hfl
+    · intro k h1 h2
+      have hk : k < P * nc := by rw [← hfl]; exact h1
+      have hp : k / nc < P := mod_div_lt hk
+      have hi : k % nc < nc := Nat.mod_lt _ (by omega)
+      have hLeft : ∀ (a : Array K) (h : k < a.size), a[k] = a.getD k 0 := by
+        intro a h; simp [Array.getD, h]
+      rw [hLeft _ h1, hLeft _ h2]
+      show ((Mat.mul A D).foldl (· ++ ·) #[]).getD k 0 = _
+      conv_lhs => rw [← Nat.div_add_mod' k nc]
+      rw [flatten_getD _ nc hrows (by rw [mul_rows, hAs]; exact hp) hi,
+        mul_get A D (by rw [hAs]; exact hp) (by rw [blockM_ncols _ _ _ (by omega)]; exact hi), blockM_nrows]
+      have hg := mapLast_get o.cps nc (fun row =>
+          let w : K := if o.rational then row.getD o.dimension 0 else 1
+          Array.ofFn (n := nc) (fun i =>
+            if i.val < o.dimension then
+              (List.range o.dimension).foldl (fun acc j => acc + row.getD j 0 * R j i.val) 0 + 0 * w
+            else row.getD i.val 0))
+        (pI := k / nc) (c := k % nc) (by rw [hL', hsize]; exact hp) hi
+      rw [Nat.div_add_mod' k nc] at hg
+      show _ = (Tensor.get _ k)
+      rw [hg, hL']
+      simp only []
+      rw [C06.getD_ofFn _ _ hi]
+      simp only []
+      have hrow : k / nc * nc + nc ≤ o.cps.data.size := by
+        rw [hwf, hprod]
+        have := Nat.mul_le_mul_right nc (Nat.succ_le_of_lt hp)
+        rw [Nat.succ_mul] at this
+        exact this
+      by_cases hlt : k % nc < o.dimension
+      · rw [if_pos hlt, zero_mul, add_zero]
+        rw [foldl_range_prefix nc o.dimension _ hdn (by
+          intro l hl1 hl2
+          rw [blockM_get _ _ _ _ _ hl2 hi, if_neg (by omega), if_neg (by omega), mul_zero])]
+        apply foldl_range_congr
+        intro acc j hj
+        rw [matOfTensor_get _ _ _ _ _ hp (by omega), blockM_get _ _ _ _ _ (by omega) hi, if_pos ⟨hj, hlt⟩,
+          extract_getD _ _ _ _ (by omega)]
+        rfl
+      · rw [if_neg hlt]
+        rw [foldl_range_single nc (k % nc) _ hi (by
+          intro l hl hne
+          rw [blockM_get _ _ _ _ _ hl hi, if_neg (by omega), if_neg hne, mul_zero])]
+        rw [matOfTensor_get _ _ _ _ _ hp hi, blockM_get _ _ _ _ _ hi hi, if_neg (by omega), if_pos rfl, mul_one,
+          extract_getD _ _ _ _ (by omega)]
+        rfl
+
+end Splipy.PyO
+
+namespace Splipy.PyO
+open Splipy Splipy.Generated Splipy.C06
+variable {K : Type} [Field K] [LinearOrder K] [FloorRing K]
+
+theorem identity_size (nc : ℕ) : (Mat.identity (K := K) nc).size = nc := by simp [Mat.identity]
+
+theorem identity_row (nc i : ℕ) (hi : i < nc) :
+    (Mat.identity (K := K) nc).getD i #[] = Array.ofFn (n := nc) (fun j => if i = j.val then (1 : K) else 0) := by
+  simp [Mat.identity, Array.getD, hi]
+
+theorem bcast_eq (A : Mat K) (dim : ℕ) (h2 : 2 ≤ dim) (hA : A.size = dim)
+    (hAr : ∀ i, i < dim → (A.getD i #[]).size = dim) :
+    bcast A dim dim = .ok (fun i j => (A.getD i #[]).getD j 0) := by
+  unfold bcast
+  simp only []
+  have hall : (A.all fun r => decide (r.size = (A.getD 0 #[]).size)) = true := by
+    rw [Array.all_eq_true]
+    intro i hi
+    have := hAr i (by omega)
+    simp only [Array.getD, hi, dif_pos] at this
+    rw [hAr 0 (by omega)]
+    simpa using this
+  rw [if_pos ⟨Or.inl hA, Or.inl (hAr 0 (by omega)), hall⟩]
+  have h1 : ¬ (A.size = 1) := by omega
+  have h1' : ¬ ((A.getD 0 #[]).size = 1) := by rw [hAr 0 (by omega)]; omega
+  simp only [h1, h1', if_false]
+
+theorem matBlockUpd_identity (nc dim : ℕ) (hd : dim ≤ nc) (h2 : 2 ≤ dim) (A : Mat K) (hA : A.size = dim)
+    (hAr : ∀ i, i < dim → (A.getD i #[]).size = dim) (f : K → K → K) :
+    matBlockUpd (Mat.identity nc) (dim : Int) (dim : Int) A f
+      = .ok (blockM nc dim (fun i j => f (if i = j then 1 else 0) (A.get i j))) := by
+  unfold matBlockUpd
+  have hneg : ¬ ((dim : Int) < 0 ∨ (dim : Int) < 0) := by omega
+  rw [if_neg hneg]
+  simp only [Int.toNat_natCast, identity_size]
+  have hr0 : ((Mat.identity (K := K) nc).getD 0 #[]).size = nc := by rw [identity_row nc 0 (by omega)]; simp
+  rw [hr0, Nat.min_eq_left hd, bcast_eq A dim h2 hA hAr]
+  simp only []
+  congr 1
+  unfold blockM
+  apply Array.ext (by simp [identity_size])
+  intro i hi1 hi2
+  have hi : i < nc := by simpa using hi2
+  simp only [Array.getElem_ofFn]
+  apply Array.ext (by simp [identity_row nc i hi])
+  intro j hj1 hj2
+  have hj : j < nc := by simpa using hj2
+  simp only [Array.getElem_ofFn, identity_row nc i hi]
+  by_cases hc : i < dim ∧ j < dim
+  · rw [if_pos hc, if_pos hc]
+    simp [Mat.get, Array.getD, hj]
+  · rw [if_neg hc, if_neg hc]
+    simp [Array.getD, hj]
+
+end Splipy.PyO
+
+namespace Splipy.PyO
+open Splipy Splipy.Generated Splipy.C06
+variable {K : Type} [Field K] [LinearOrder K] [FloorRing K]
+
+/-! ### method: mirror -/
+
+theorem npOuter_size (xs ys : List K) : (npOuter xs ys).size = xs.length := by simp [npOuter]
+
+theorem npOuter_get (xs ys : List K) (i j : ℕ) (hi : i < xs.length) (hj : j < ys.length) :
+    ((npOuter xs ys).getD i #[]).getD j 0 = xs.getD i 0 * ys.getD j 0 := by
+  simp [npOuter, Array.getD, hi, hj, List.getD_eq_getElem?_getD]
+
+theorem npOuter_row (xs ys : List K) (i : ℕ) (hi : i < xs.length) : ((npOuter xs ys).getD i #[]).size = ys.length := by
+  simp [npOuter, Array.getD, hi]
+
+theorem matScale_size (c : K) (M : Mat K) : (matScale c M).size = M.size := by simp [matScale]
+
+theorem matScale_row (c : K) (M : Mat K) (i : ℕ) : ((matScale c M).getD i #[]).size = (M.getD i #[]).size := by
+  unfold matScale
+  by_cases hi : i < M.size
+  · simp [Array.getD, hi]
+  · simp [Array.getD, hi]
+
+theorem matScale_get (c : K) (M : Mat K) (i j : ℕ) :
+    ((matScale c M).getD i #[]).getD j 0 = c * (M.getD i #[]).getD j 0 := by
+  unfold matScale
+  by_cases hi : i < M.size
+  · by_cases hj : j < (M.getD i #[]).size
+    · simp only [Array.getD, hi, dif_pos, Array.size_map, Array.getElem_map] at hj ⊢
+      simp [hj]
+    · simp only [Array.getD, hi, dif_pos, Array.size_map, Array.getElem_map] at hj ⊢
+      simp [hj]
+  · simp [Array.getD, hi]
+
+/-- `SplineObject.mirror(normal)`: the square root is the abstract input `sqrt_`; the hand model takes the
+    already normalised normal `normal / sqrt_(normal · normal)`.  Guards: those of the operators, and a
+    normal with three entries (other lengths fail or broadcast in `reflection_matrix[0:3, 0:3] -= …`). -/
+theorem _root_.PyObject_mirror_eq (o : Obj K) (tol : K) (sqrt_ : K → K) (normal : List K) (g : OpGuard o)
+    (hn : normal.length = 3) :
+    PyObject.mirror (ofObj o) tol sqrt_ normal
+      = (o.mirror (listDivS normal (sqrt_ (listDot normal normal)))).map ofObj := by
+  have hnc := g.hnc
+  have hL := lastN_eq_ncomp o g.hs
+  unfold PyObject.mirror Obj.mirror
+  simp only [PyObject_len_eq, ok_bind, ofObj_dimension, ofObj_rational, ofObj_cps]
+  by_cases hd : o.dimension = 3
+  · have hd' : ¬ (((o.dimension : ℕ) : Int) ≠ 3) := by omega
+    have hd'' : ¬ (o.dimension ≠ 3) := by omega
+    simp only [hd', hd'', if_false, pure_eq_ok, ok_bind]
+    rw [ncomp_eq o hnc]
+    set nrm := listDivS normal (sqrt_ (listDot normal normal)) with hnrm
+    have hnl : nrm.length = 3 := by simp [hnrm, listDivS, hn]
+    have hid : npIdentity (K := K) ((o.ncomp : ℕ) : Int) = .ok (Mat.identity o.ncomp) := by
+      unfold npIdentity
+      have : ¬ (((o.ncomp : ℕ) : Int) < 0) := by omega
+      simp [this]
+    have hdn : o.dimension ≤ o.ncomp := by unfold Obj.dimension; omega
+    rw [hid, ok_bind]
+    unfold matBlockSub
+    rw [matBlockUpd_identity o.ncomp o.dimension hdn (by omega) _
+      (by rw [matScale_size, npOuter_size, hnl, hd])
+      (by intro i hi; rw [matScale_row, npOuter_row _ _ _ (by omega), hnl, hd])]
+    simp only [ok_bind]
+    rw [npReshape2_ok _ _ _ (by rw [g.hlen, g.hwf, prod_eq_nPts_mul _ g.hs, hL]), ok_bind, g.hlen,
+      block_cps o _ g.hs hnc g.hwf, ok_bind]
+    simp only [map_ok]
+    congr 1
+    have hA : o.affineCp (fun i j => (if i = j then (1 : K) else 0) - (matScale (2 : K) (npOuter nrm nrm)).get i j)
+          (fun _ => 0)
+        = o.affineCp (fun j i => (if i = j then 1 else 0) - 2 * nrm.getD j 0 * nrm.getD i 0) (fun _ => 0) := by
+      apply affineCp_congr
+      intro j i hj hi
+      unfold Mat.get
+      rw [matScale_get, npOuter_get _ _ _ _ (by omega) (by omega)]
+      by_cases hij : i = j
+      · subst hij; simp only [if_true]; ring
+      · rw [if_neg hij, if_neg (fun h => hij h.symm)]; ring
+    rw [hA]
+    unfold ofObj
+    simp only [PyObj.mk.injEq, true_and, and_true, Nat.cast_inj]
+    unfold Obj.affineCp Obj.dimension Obj.ncomp
+    simp only [mapLast_shape, List.getLastD_concat]
+    trivial
+  · have hd' : ((o.dimension : ℕ) : Int) ≠ 3 := by omega
+    simp only [hd', hd, if_true, ne_eq, not_false_eq_true]
+    rfl
+
+end Splipy.PyO
+
+-- ---------------------------------------------------------------------------- t3b part 18
+
+namespace Splipy.PyO
+open Splipy Splipy.Generated Splipy.C06
+variable {K : Type} [Field K] [LinearOrder K] [FloorRing K]
+
+/-! ## `rotate`: the object after `set_dimension(3)` (no generated code) -/
+
+theorem setDimension_facts' (o : Obj K) (m : ℕ) (hs : o.cps.shape ≠ []) (hnc : 1 ≤ o.ncomp)
+    (hwf : o.cps.data.size = Tensor.prod o.cps.shape) :
+    (o.setDimension m).cps.shape ≠ [] ∧
+    (o.setDimension m).cps.data.size = Tensor.prod (o.setDimension m).cps.shape ∧
+    nPts (o.setDimension m).cps = nPts o.cps ∧ (o.setDimension m).dimension = m ∧
+    (o.setDimension m).len = o.len ∧ (o.setDimension m).rational = o.rational := by
+  have hc := setDimension_cps o m hs hnc hwf
+  have hsh : (o.setDimension m).cps.shape = o.cps.shape.dropLast ++ [m + (o.ncomp - o.dimension)] := by
+    rw [hc]; rfl
+  have hdn : o.dimension ≤ o.ncomp := by unfold Obj.dimension; omega
+  refine ⟨by rw [hsh]; simp, ?_, ?_, ?_, rfl, rfl⟩
+  · rw [hsh, C06.prod_append, C06.prod_cons, C06.prod_nil, mul_one, hc]
+    simp [setDimT, nPts]
+  · rw [hc]; exact setDimT_nPts _ _ _ _
+  · have hr : (o.setDimension m).rational = o.rational := rfl
+    unfold Obj.dimension Obj.ncomp
+    rw [hsh, List.getLastD_concat, hr]
+    unfold Obj.dimension Obj.ncomp
+    split_ifs with h
+    · have : 1 ≤ o.cps.shape.getLastD 0 := hnc
+      omega
+    · omega
+
+end Splipy.PyO
+
+namespace Splipy.PyO
+open Splipy Splipy.Generated Splipy.C06
+variable {K : Type} [Field K] [LinearOrder K] [FloorRing K]
+
+theorem len3 (l : List K) (h : l.length = 3) : ∃ a b c, l = [a, b, c] := by
+  match l, h with
+  | [a, b, c], _ => exact ⟨a, b, c, rfl⟩
+
+/-- the tail of `rotate`, `mirror`: identity with a block, reshape, product, reshape -/
+theorem block_tail (o1 : Obj K) (n : ℕ) (R : Mat K) (hs : o1.cps.shape ≠ []) (hdim : 2 ≤ o1.dimension)
+    (hwf : o1.cps.data.size = Tensor.prod o1.cps.shape) (hn : n = nPts o1.cps)
+    (hR : R.size = o1.dimension) (hRr : ∀ i, i < o1.dimension → (R.getD i #[]).size = o1.dimension) :
+    (do
+      let tmp10 ← npIdentity (((o1.dimension : ℕ) : Int) + (b2i o1.rational))
+      let rot_matrix := tmp10
+      let rot_matrix ← matBlockSet rot_matrix ((o1.dimension : ℕ) : Int) ((o1.dimension : ℕ) : Int) R
+      let tmp11 ← npReshape2 (ofObj o1).controlpoints (n : Int) (((o1.dimension : ℕ) : Int) + (b2i o1.rational))
+      let cp := tmp11
+      let cp := (npMatmul cp rot_matrix)
+      let tmp12 ← npReshapeMat cp (npShape (ofObj o1).controlpoints)
+      let self_ : PyObj K := { (ofObj o1) with controlpoints := tmp12 }
+      pure self_)
+    = .ok (ofObj (o1.affineCp (fun i j => R.get i j) (fun _ => 0))) := by
+  have hnc : 1 ≤ o1.ncomp := by unfold Obj.dimension at hdim; omega
+  have hdn : o1.dimension ≤ o1.ncomp := by unfold Obj.dimension; omega
+  have hL := lastN_eq_ncomp o1 hs
+  rw [ncomp_eq o1 hnc]
+  have hid : npIdentity (K := K) ((o1.ncomp : ℕ) : Int) = .ok (Mat.identity o1.ncomp) := by
+    unfold npIdentity
+    have : ¬ (((o1.ncomp : ℕ) : Int) < 0) := by omega
+    simp [this]
+  rw [hid, ok_bind]
+  unfold matBlockSet
+  simp only []
+  rw [matBlockUpd_identity o1.ncomp o1.dimension hdn hdim R hR hRr]
+  simp only [ok_bind, ofObj_cps]
+  rw [npReshape2_ok _ _ _ (by rw [hn, hwf, prod_eq_nPts_mul _ hs, hL]), ok_bind, hn,
+    block_cps o1 _ hs hnc hwf, ok_bind]
+  simp only [pure_eq_ok]
+  congr 1
+  unfold ofObj
+  simp only [PyObj.mk.injEq, true_and, and_true, Nat.cast_inj]
+  unfold Obj.affineCp Obj.dimension Obj.ncomp
+  simp only [mapLast_shape, List.getLastD_concat]
+  trivial
+
+end Splipy.PyO
+
+namespace Splipy.PyO
+open Splipy Splipy.Generated Splipy.C06
+variable {K : Type} [Field K] [LinearOrder K] [FloorRing K]
+
+/-! ### method: rotation_matrix -/
+
+/-- `utils.rotation_matrix(theta, axis)` for a three-entry axis: the matrix of the hand model's `rotate`. -/
+theorem _root_.PyObject_rotation_matrix_eq (cos_ sin_ sqrt_ : K → K) (theta a0 a1 a2 : K) :
+    PyObject.rotation_matrix cos_ sin_ sqrt_ theta [a0, a1, a2] = .ok (
+      let s := sqrt_ (listDot [a0, a1, a2] [a0, a1, a2])
+      let a := cos_ (theta / 2)
+      let sh := sin_ (theta / 2)
+      let b := -(a0 / s) * sh
+      let c := -(a1 / s) * sh
+      let d := -(a2 / s) * sh
+      #[#[a*a+b*b-c*c-d*d, 2*(b*c-a*d), 2*(b*d+a*c)],
+        #[2*(b*c+a*d), a*a+c*c-b*b-d*d, 2*(c*d-a*b)],
+        #[2*(b*d-a*c), 2*(c*d+a*b), a*a+d*d-b*b-c*c]]) := by
+  unfold PyObject.rotation_matrix
+  simp [listDivS, listMulS, listNeg, unpack3, matOfRows]
+
+end Splipy.PyO
+
+namespace Splipy.PyO
+open Splipy Splipy.Generated Splipy.C06
+variable {K : Type} [Field K] [LinearOrder K] [FloorRing K]
+
+/-! ### method: rotate -/
+
+/-- `SplineObject.rotate(theta, normal)`.  `cos_`, `sin_`, `sqrt_` are abstract inputs; the hand model takes
+    `ch = cos(θ/2)`, `sh = sin(θ/2)` and the normalised axis, and writes `cos θ`, `sin θ` of the 2-D branch as
+    `ch² − sh²`, `2·ch·sh`: the two double-angle identities are hypotheses (`hc`, `hs2`).  Other guards: those
+    of the operators and a three-entry `normal`. -/
+theorem _root_.PyObject_rotate_eq (o : Obj K) (tol : K) (cos_ sin_ sqrt_ : K → K) (theta : K) (normal : List K)
+    (g : OpGuard o) (hn : normal.length = 3)
+    (hc : cos_ theta = cos_ (theta / 2) * cos_ (theta / 2) - sin_ (theta / 2) * sin_ (theta / 2))
+    (hs2 : sin_ theta = 2 * cos_ (theta / 2) * sin_ (theta / 2)) :
+    PyObject.rotate (ofObj o) tol cos_ sin_ sqrt_ theta normal
+      = (o.rotate (cos_ (theta / 2)) (sin_ (theta / 2)) normal
+          (listDivS normal (sqrt_ (listDot normal normal)))).map ofObj := by
+  obtain ⟨n0, n1, n2, rfl⟩ := len3 normal hn
+  have hnc := g.hnc
+  unfold PyObject.rotate Obj.rotate
+  simp only [PyObject_len_eq, ok_bind, ofObj_dimension, ofObj_rational]
+  have hg0 : getItem [n0, n1, n2] (0 : Int) = .ok n0 := rfl
+  have hg1 : getItem [n0, n1, n2] (1 : Int) = .ok n1 := rfl
+  rw [hg0, ok_bind]
+  simp only [hg1, ok_bind, pure_eq_ok, List.getD_cons_zero, List.getD_cons_succ]
+  -- the dimension promotion
+  set o1 : Obj K := if ¬ (n0 = 0 ∧ n1 = 0) then o.setDimension 3 else o with ho1
+  have hfacts : o1.cps.shape ≠ [] ∧ o1.cps.data.size = Tensor.prod o1.cps.shape ∧
+      nPts o1.cps = nPts o.cps ∧ o1.rational = o.rational ∧ o1.len = o.len := by
+    rw [ho1]
+    split_ifs with h
+    · exact ⟨g.hs, g.hwf, rfl, rfl, rfl⟩
+    · obtain ⟨f1, f2, f3, f4, f5, f6⟩ := setDimension_facts' o 3 g.hs hnc g.hwf
+      exact ⟨f1, f2, f3, f6, f5⟩
+  obtain ⟨g1, g3, g4, g5, g6⟩ := hfacts
+  have hprom : ∀ {β : Type} (F : PyObj K × Int → PyM β), (do
+        let tmp4 ← (if n0 = (0 : K) then (Except.ok (decide (n1 = (0 : K))) : PyM Bool) else Except.ok false)
+        let st5 ← (if (¬ (tmp4 = true)) then do
+          let self_ ← PyObject.set_dimension (ofObj o) tol (3 : Int)
+          (Except.ok (self_, self_.dimension) : PyM (PyObj K × Int))
+        else Except.ok (ofObj o, ((o.dimension : ℕ) : Int)))
+        F st5)
+      = F (ofObj o1, ((o1.dimension : ℕ) : Int)) := by
+    intro β F
+    have hsd := PyObject_set_dimension_eq o tol 3 g.hs hnc g.hwf
+    simp only [Nat.cast_ofNat] at hsd
+    by_cases h0 : n0 = 0
+    · by_cases h1 : n1 = 0
+      · simp only [h0, h1, if_true, ok_bind, decide_true, not_true_eq_false, if_false, ho1, and_self]
+      · simp only [h0, h1, if_true, ok_bind, decide_false, Bool.false_eq_true, not_false_eq_true, hsd, ho1,
+          and_false, if_true]
+        rfl
+    · simp only [h0, if_false, ok_bind, Bool.false_eq_true, not_false_eq_true, if_true, hsd, ho1, false_and]
+      rfl
+  rw [hprom]
+  simp only [ofObj_cps, ofObj_bases, ofObj_dimension, ofObj_rational]
+  by_cases hd2 : o1.dimension = 2
+  · have hd2' : ((o1.dimension : ℕ) : Int) = 2 := by omega
+    rw [if_pos hd2', if_pos hd2]
+    have hm : matOfRows [[cos_ theta, -sin_ theta], [sin_ theta, cos_ theta]]
+        = .ok (#[#[cos_ theta, -sin_ theta], #[sin_ theta, cos_ theta]] : Mat K) := by
+      simp [matOfRows]
+    rw [hm]
+    simp only [ok_bind]
+    set R : Mat K := matT #[#[cos_ theta, -sin_ theta], #[sin_ theta, cos_ theta]] with hR
+    have key := block_tail o1 o.len R g1 (by omega) g3 (by rw [g.hlen, g4])
+      (by rw [hd2]; simp [hR, matT, Mat.transpose, Mat.ncols, Array.getD])
+      (by
+        intro i hi
+        rw [hd2] at hi ⊢
+        interval_cases i <;> simp [hR, matT, Mat.transpose, Mat.ncols, Mat.nrows, Array.getD])
+    simp only [ofObj_cps, ofObj_bases, ofObj_dimension, ofObj_rational, pure_eq_ok] at key
+    rw [← g5, key]
+    simp only [map_ok]
+    congr 2
+    apply affineCp_congr
+    intro j i hj hi
+    rw [hd2] at hj hi
+    have e00 : R.get 0 0 = cos_ theta := by simp [hR, matT, Mat.transpose, Mat.get, Mat.ncols, Mat.nrows, Array.getD]
+    have e01 : R.get 0 1 = sin_ theta := by simp [hR, matT, Mat.transpose, Mat.get, Mat.ncols, Mat.nrows, Array.getD]
+    have e10 : R.get 1 0 = -sin_ theta := by simp [hR, matT, Mat.transpose, Mat.get, Mat.ncols, Mat.nrows, Array.getD]
+    have e11 : R.get 1 1 = cos_ theta := by simp [hR, matT, Mat.transpose, Mat.get, Mat.ncols, Mat.nrows, Array.getD]
+    interval_cases j <;> interval_cases i <;> simp only [e00, e01, e10, e11, hc, hs2]
+  · have hd2' : ¬ (((o1.dimension : ℕ) : Int) = 2) := by omega
+    rw [if_neg hd2', if_neg hd2]
+    by_cases hd3 : o1.dimension = 3
+    · have hd3' : ((o1.dimension : ℕ) : Int) = 3 := by omega
+      rw [if_pos hd3', if_pos hd3, PyObject_rotation_matrix_eq]
+      simp only [ok_bind]
+      set R : Mat K := (
+        let s := sqrt_ (listDot [n0, n1, n2] [n0, n1, n2])
+        let a := cos_ (theta / 2)
+        let sh := sin_ (theta / 2)
+        let b := -(n0 / s) * sh
+        let c := -(n1 / s) * sh
+        let d := -(n2 / s) * sh
+        #[#[a*a+b*b-c*c-d*d, 2*(b*c-a*d), 2*(b*d+a*c)],
+          #[2*(b*c+a*d), a*a+c*c-b*b-d*d, 2*(c*d-a*b)],
+          #[2*(b*d-a*c), 2*(c*d+a*b), a*a+d*d-b*b-c*c]]) with hR
+      have key := block_tail o1 o.len R g1 (by omega) g3 (by rw [g.hlen, g4])
+        (by rw [hd3]; simp [hR])
+        (by
+          intro i hi
+          rw [hd3] at hi ⊢
+          interval_cases i <;> simp [hR, Array.getD])
+      simp only [ofObj_cps, ofObj_bases, ofObj_dimension, ofObj_rational, pure_eq_ok] at key
+      rw [← g5, key]
+      simp only [map_ok]
+      congr 2
+      apply affineCp_congr
+      intro j i hj hi
+      rw [hd3] at hj hi
+      interval_cases j <;> interval_cases i <;>
+        simp [hR, Mat.get, Array.getD, listDivS]
+    · have hd3' : ¬ (((o1.dimension : ℕ) : Int) = 3) := by omega
+      rw [if_neg hd3', if_neg hd3]
+      rfl
+
+end Splipy.PyO
+
+-- ---------------------------------------------------------------------------- t3b part 19
+
+namespace Splipy.PyO
+open Splipy Splipy.Generated Splipy.C06
+variable {K : Type} [Field K] [LinearOrder K] [FloorRing K]
+
+/-! ## fixing an index along one axis, by multi-index (no generated code) -/
+
+theorem eraseIdx_comm (l : List ℕ) (d e : ℕ) (h : d ≤ e) :
+    (l.eraseIdx d).eraseIdx e = (l.eraseIdx (e + 1)).eraseIdx d := by
+  apply List.ext_getElem?
+  intro k
+  simp only [List.getElem?_eraseIdx]
+  by_cases h1 : k < d
+  · have : k < e := by omega
+    have : k < e + 1 := by omega
+    simp [*]
+  · by_cases h2 : k < e
+    · have h3 : k + 1 < e + 1 := by omega
+      simp [h1, h2, h3]
+    · have h3 : ¬ (k + 1 < e + 1) := by omega
+      have h4 : ¬ (k + 1 < d) := by omega
+      simp [h1, h2, h3, h4]
+
+theorem inRange_insertIdx {idx s : List ℕ} {ax k : ℕ} (hax : ax < s.length) (hk : k < s.getD ax 0)
+    (h : InRange idx (s.eraseIdx ax)) : InRange (idx.insertIdx ax k) s := by
+  have hl : idx.length = s.length - 1 := by rw [h.length_eq, List.length_eraseIdx, if_pos hax]
+  rw [inRange_iff] at h ⊢
+  refine ⟨by rw [List.length_insertIdx]; split_ifs <;> omega, ?_⟩
+  intro j hj
+  have hgi : (idx.insertIdx ax k).getD j 0 = if j < ax then idx.getD j 0 else if j = ax then k else idx.getD (j - 1) 0 := by
+    simp only [List.getD_eq_getElem?_getD, List.getElem?_insertIdx]
+    split_ifs <;> first | rfl | omega
+  rw [hgi]
+  by_cases h1 : j < ax
+  · rw [if_pos h1]
+    have := h.2 j (by rw [List.length_eraseIdx, if_pos hax]; omega)
+    rw [getD_eraseIdx] at this
+    simpa [h1] using this
+  · rw [if_neg h1]
+    by_cases h2 : j = ax
+    · rw [if_pos h2, h2]
+      simpa [List.getD_eq_getElem?_getD, hax] using hk
+    · rw [if_neg h2]
+      have := h.2 (j - 1) (by rw [List.length_eraseIdx, if_pos hax]; omega)
+      rw [getD_eraseIdx] at this
+      have h3 : ¬ (j - 1 < ax) := by omega
+      have e : j - 1 + 1 = j := by omega
+      simpa [h3, e] using this
+
+theorem flatIdx_insert_one (s idx : List ℕ) (ax : ℕ) (hax : ax < s.length) (hl : idx.length = s.length - 1) :
+    flatIdx (s.set ax 1) (idx.insertIdx ax 0) = flatIdx (s.eraseIdx ax) idx := by
+  have hfull : (idx.insertIdx ax 0).length = s.length := by
+    rw [List.length_insertIdx]; split_ifs <;> omega
+  rw [flatIdx_set_split s _ ax 1 hax hfull, take_insertIdx_self, drop_insertIdx_self]
+  have hg : (idx.insertIdx ax 0).getD ax 0 = 0 := by
+    simp only [List.getD_eq_getElem?_getD, List.getElem?_insertIdx]
+    simp only [lt_irrefl, if_false, if_true]
+    split_ifs <;> rfl
+  rw [hg, List.eraseIdx_eq_take_drop_succ]
+  conv_rhs => rw [← List.take_append_drop ax idx]
+  rw [flatIdx_append _ _ _ _ (by simp only [List.length_take]; omega)]
+  ring
+
+theorem getIdx_takeAxis (t : Tensor K) (ax k : ℕ) (idx : List ℕ) (hax : ax < t.shape.length)
+    (h : InRange idx (t.shape.eraseIdx ax)) :
+    getIdx (t.takeAxis ax k) idx = getIdx t (idx.insertIdx ax k) := by
+  have hl : idx.length = t.shape.length - 1 := by rw [h.length_eq, List.length_eraseIdx, if_pos hax]
+  have hfull : (idx.insertIdx ax 0).length = t.shape.length := by
+    rw [List.length_insertIdx]; split_ifs <;> omega
+  have h1 : InRange (idx.insertIdx ax 0) (t.shape.set ax 1) := by
+    apply inRange_insertIdx (by rw [List.length_set]; exact hax) (by rw [getD_set_self _ _ _ _ hax]; omega)
+    rw [List.eraseIdx_set_eq]
+    exact h
+  have := getIdx_reindexAxis t ax 1 (fun _ => k) (idx.insertIdx ax 0) hax h1
+  have hset : (idx.insertIdx ax 0).set ax k = idx.insertIdx ax k := by
+    have e : idx = (idx.insertIdx ax 0).eraseIdx ax := by rw [List.eraseIdx_insertIdx_self]
+    conv_rhs => rw [e]
+    exact (eraseIdx_insertIdx_set _ _ _ (by omega)).symm
+  rw [hset] at this
+  rw [← this]
+  unfold getIdx
+  show (t.takeAxis ax k).get (flatIdx (t.takeAxis ax k).shape idx) = _
+  rw [takeAxis_shape']
+  have hsh : (t.reindexAxis ax 1 (fun _ => k)).shape = t.shape.set ax 1 := rfl
+  rw [hsh, flatIdx_insert_one _ _ _ hax hl]
+  rfl
+
+end Splipy.PyO
+
+namespace Splipy.PyO
+open Splipy Splipy.Generated Splipy.C06
+variable {K : Type} [Field K] [LinearOrder K] [FloorRing K]
+
+theorem takeAxis_wf (t : Tensor K) (ax k : ℕ) (hax : ax < t.shape.length) :
+    (t.takeAxis ax k).data.size = Tensor.prod (t.takeAxis ax k).shape := by
+  rw [takeAxis_size, takeAxis_shape', List.eraseIdx_eq_take_drop_succ, prod_append]
+
+theorem getD_eraseIdx' (l : List ℕ) (ax j d : ℕ) :
+    (l.eraseIdx ax).getD j d = if j < ax then l.getD j d else l.getD (j + 1) d := getD_eraseIdx l ax j d
+
+/-- fixing two different axes commutes (the later axis first, or the earlier one first with the later
+    axis renumbered) -/
+theorem takeAxis_comm (X : Tensor K) (d e j k : ℕ) (hde : d ≤ e) (he : e + 1 < X.shape.length)
+    (hj : j < X.shape.getD d 0) (hk : k < X.shape.getD (e + 1) 0) :
+    (X.takeAxis d j).takeAxis e k = (X.takeAxis (e + 1) k).takeAxis d j := by
+  have hd : d < X.shape.length := by omega
+  have hsh : ((X.takeAxis d j).takeAxis e k).shape = ((X.takeAxis (e + 1) k).takeAxis d j).shape := by
+    simp only [takeAxis_shape']
+    exact eraseIdx_comm _ _ _ hde
+  have he' : e < (X.takeAxis d j).shape.length := by
+    rw [takeAxis_shape', List.length_eraseIdx, if_pos hd]; omega
+  have hd' : d < (X.takeAxis (e + 1) k).shape.length := by
+    rw [takeAxis_shape', List.length_eraseIdx, if_pos he]; omega
+  apply tensor_ext _ _ hsh (takeAxis_wf _ _ _ he') (takeAxis_wf _ _ _ hd')
+  intro idx hidx
+  have hidx1 : InRange idx ((X.takeAxis d j).shape.eraseIdx e) := by
+    rw [takeAxis_shape'] at hidx; exact hidx
+  have hidx2 : InRange idx ((X.takeAxis (e + 1) k).shape.eraseIdx d) := by
+    rw [hsh, takeAxis_shape'] at hidx; exact hidx
+  have hil : idx.length = X.shape.length - 2 := by
+    rw [hidx1.length_eq, List.length_eraseIdx, if_pos he', takeAxis_shape', List.length_eraseIdx, if_pos hd]; omega
+  rw [getIdx_takeAxis _ _ _ _ he' hidx1, getIdx_takeAxis _ _ _ _ hd' hidx2]
+  have hk1 : k < (X.shape.eraseIdx d).getD e 0 := by
+    rw [getD_eraseIdx', if_neg (by omega)]; exact hk
+  have hj1 : j < (X.shape.eraseIdx (e + 1)).getD d 0 := by
+    rw [getD_eraseIdx', if_pos (by omega)]; exact hj
+  have hr1 : InRange (idx.insertIdx e k) (X.shape.eraseIdx d) := by
+    have := inRange_insertIdx (s := X.shape.eraseIdx d) (ax := e) (k := k)
+      (by rw [List.length_eraseIdx, if_pos hd]; omega) hk1 (by rw [takeAxis_shape'] at hidx1; exact hidx1)
+    exact this
+  have hr2 : InRange (idx.insertIdx d j) (X.shape.eraseIdx (e + 1)) := by
+    have := inRange_insertIdx (s := X.shape.eraseIdx (e + 1)) (ax := d) (k := j)
+      (by rw [List.length_eraseIdx, if_pos he]; omega) hj1 (by rw [takeAxis_shape'] at hidx2; exact hidx2)
+    exact this
+  rw [getIdx_takeAxis X d j _ hd hr1, getIdx_takeAxis X (e + 1) k _ he hr2]
+  rw [List.insertIdx_comm j k hde (by omega)]
+
+end Splipy.PyO
+
+-- ---------------------------------------------------------------------------- t3b part 20
+
+namespace Splipy.PyO
+open Splipy Splipy.Generated Splipy.C06 Splipy.Sections
+variable {K : Type} [Field K] [LinearOrder K] [FloorRing K]
+
+/-! ## `self.controlpoints[slices]` of `section` (no generated code) -/
+
+/-- a resolved section only fixes indices that exist -/
+def SecOk : List (Option ℕ) → List ℕ → Prop
+  | [], _ => True
+  | none :: r, _ :: ns => SecOk r ns
+  | some j :: r, n :: ns => j < n ∧ SecOk r ns
+  | _ :: _, [] => False
+
+/-- the axis lengths that remain -/
+def secShape : List (Option ℕ) → List ℕ → List ℕ
+  | [], s => s
+  | none :: r, n :: ns => n :: secShape r ns
+  | some _ :: r, _ :: ns => secShape r ns
+  | _ :: _, [] => []
+
+theorem pyIndex_eq (n : ℕ) (i : Int) :
+    pyIndex n i = match normIdx n i with | some k => .ok k | none => .error .index := by
+  unfold pyIndex normIdx
+  by_cases h : 0 ≤ i
+  · have h' : ¬ (i < 0) := by omega
+    simp only [h, h', if_true, if_false]
+    by_cases h2 : i < n
+    · simp [h2, h]
+    · simp [h2]
+  · have h' : i < 0 := by omega
+    simp only [h, h', if_true, if_false]
+    by_cases h2 : 0 ≤ i + n
+    · have : i + (n : Int) < n := by omega
+      simp [h2, this]
+    · simp [h2]
+
+theorem resolveSel_ok (s : List ℕ) (sec : Sec) (idx : List (Option ℕ)) (h : Obj.resolveSel s sec = .ok idx) :
+    SecOk idx s := by
+  induction sec generalizing s idx with
+  | nil => simp [Obj.resolveSel] at h; subst h; trivial
+  | cons a r ih =>
+    cases s with
+    | nil => simp [Obj.resolveSel] at h
+    | cons n ns =>
+      cases a with
+      | none =>
+        simp only [Obj.resolveSel] at h
+        cases hr : Obj.resolveSel ns r with
+        | error e => rw [hr] at h; simp at h
+        | ok idx' =>
+          rw [hr] at h; simp at h; subst h
+          exact ih ns idx' hr
+      | some i =>
+        simp only [Obj.resolveSel, pyIndex_eq] at h
+        cases hn : normIdx n i with
+        | none => rw [hn] at h; simp at h
+        | some k =>
+          rw [hn] at h
+          simp only [] at h
+          cases hr : Obj.resolveSel ns r with
+          | error e => rw [hr] at h; simp at h
+          | ok idx' =>
+            rw [hr] at h; simp at h; subst h
+            refine ⟨?_, ih ns idx' hr⟩
+            unfold normIdx at hn
+            split_ifs at hn <;> cases hn <;> omega
+
+theorem sliceSecFrom_shape (idx : List (Option ℕ)) (t : Tensor K) (f : ℕ) (hf : f ≤ t.shape.length)
+    (hok : SecOk idx (t.shape.drop f)) :
+    (Obj.sliceSecFrom f idx t).shape = t.shape.take f ++ secShape idx (t.shape.drop f) := by
+  induction idx generalizing f t with
+  | nil => simp [Obj.sliceSecFrom, secShape]
+  | cons a r ih =>
+    cases hdrop : t.shape.drop f with
+    | nil => rw [hdrop] at hok; cases a <;> exact absurd hok (by simp [SecOk])
+    | cons n ns =>
+      have hfl : f < t.shape.length := by
+        by_contra hc
+        have : t.shape.drop f = [] := List.drop_eq_nil_of_le (by omega)
+        rw [this] at hdrop; cases hdrop
+      have hns : t.shape.drop (f + 1) = ns := by
+        have := congrArg List.tail hdrop
+        simpa [List.tail_drop] using this
+      have hn : t.shape.getD f 0 = n := by
+        have := congrArg (fun l => l.headD 0) hdrop
+        simpa [List.getD_eq_getElem?_getD, List.head?_drop, List.headD_eq_head?_getD] using this
+      have htk : t.shape.take (f + 1) = t.shape.take f ++ [n] := by
+        rw [List.take_succ]
+        simp [List.getD_eq_getElem?_getD, hfl] at hn
+        simp [hfl, hn]
+      rw [hdrop] at hok
+      cases a with
+      | none =>
+        simp only [Obj.sliceSecFrom, secShape]
+        rw [ih t (f + 1) (by omega) (by rw [hns]; exact hok), hns, htk]
+        simp
+      | some j =>
+        simp only [Obj.sliceSecFrom, secShape]
+        rw [takeAxis_shape', ih t (f + 1) (by omega) (by rw [hns]; exact hok.2), hns, htk]
+        rw [List.append_assoc, List.eraseIdx_append_of_length_le (by simp only [List.length_take]; omega)]
+        simp only [List.length_take, Nat.min_eq_left (le_of_lt hfl), Nat.sub_self, List.singleton_append,
+          List.eraseIdx_cons_zero]
+
+end Splipy.PyO
+
+namespace Splipy.PyO
+open Splipy Splipy.Generated Splipy.C06 Splipy.Sections
+variable {K : Type} [Field K] [LinearOrder K] [FloorRing K]
+
+theorem getD_append_left' (a b : List ℕ) (k d : ℕ) (h : k < a.length) : (a ++ b).getD k d = a.getD k d := by
+  simp [List.getD_eq_getElem?_getD, List.getElem?_append_left h]
+
+theorem sliceSecFrom_takeAxis (idx : List (Option ℕ)) (t : Tensor K) (d k e : ℕ) (hde : d ≤ e)
+    (he : e < t.shape.length) (hk : k < t.shape.getD d 0) (hok : SecOk idx (t.shape.drop (e + 1))) :
+    Obj.sliceSecFrom e idx (t.takeAxis d k) = (Obj.sliceSecFrom (e + 1) idx t).takeAxis d k := by
+  induction idx generalizing e with
+  | nil => rfl
+  | cons a r ih =>
+    cases hdrop : t.shape.drop (e + 1) with
+    | nil => rw [hdrop] at hok; cases a <;> exact absurd hok (by simp [SecOk])
+    | cons n ns =>
+      have hfl : e + 1 < t.shape.length := by
+        by_contra hc
+        have : t.shape.drop (e + 1) = [] := List.drop_eq_nil_of_le (by omega)
+        rw [this] at hdrop; cases hdrop
+      have hns : t.shape.drop (e + 2) = ns := by
+        have := congrArg List.tail hdrop
+        simpa [List.tail_drop] using this
+      have hn : t.shape.getD (e + 1) 0 = n := by
+        have := congrArg (fun l => l.headD 0) hdrop
+        simpa [List.getD_eq_getElem?_getD, List.head?_drop, List.headD_eq_head?_getD] using this
+      rw [hdrop] at hok
+      cases a with
+      | none =>
+        simp only [Obj.sliceSecFrom]
+        exact ih (e + 1) (by omega) hfl (by rw [hns]; exact hok)
+      | some j =>
+        simp only [Obj.sliceSecFrom]
+        rw [ih (e + 1) (by omega) hfl (by rw [hns]; exact hok.2)]
+        have hshX := sliceSecFrom_shape r t (e + 2) (by omega) (by rw [hns]; exact hok.2)
+        have hlenX : e + 1 < (Obj.sliceSecFrom (e + 2) r t).shape.length := by
+          rw [hshX, List.length_append, List.length_take]; omega
+        have hgX : ∀ q, q < e + 2 → (Obj.sliceSecFrom (e + 2) r t).shape.getD q 0 = t.shape.getD q 0 := by
+          intro q hq
+          rw [hshX, getD_append_left' _ _ _ _ (by simp only [List.length_take]; omega)]
+          simp [List.getD_eq_getElem?_getD, List.getElem?_take, hq]
+        exact takeAxis_comm _ d e k j hde hlenX (by rw [hgX d (by omega)]; exact hk)
+          (by rw [hgX (e + 1) (by omega), hn]; exact hok.1)
+
+theorem drop_cons_of_lt (s : List ℕ) (d : ℕ) (h : d < s.length) : s.drop d = s.getD d 0 :: s.drop (d + 1) := by
+  rw [List.drop_eq_getElem_cons h]
+  simp [List.getD_eq_getElem?_getD, h]
+
+/-- the fold of `npIndex` over the tokens of a section = the hand model's resolution and slicing -/
+theorem fold_sec (sec : Sec) (t : Tensor K) (d : ℕ) (hlen : d + sec.length ≤ t.shape.length) :
+    ((sec.map selTok).foldlM ixStep (t, d)).map (fun st => st.1)
+      = (Obj.resolveSel (t.shape.drop d) sec).map (fun idx => Obj.sliceSecFrom d idx t) := by
+  induction sec generalizing t d with
+  | nil =>
+    cases hs : t.shape.drop d <;> simp [Obj.resolveSel, Obj.sliceSecFrom, hs]
+  | cons a r ih =>
+    have hd : d < t.shape.length := by simp only [List.length_cons] at hlen; omega
+    rw [drop_cons_of_lt _ _ hd]
+    cases a with
+    | none =>
+      simp only [List.map_cons, selTok, List.foldlM_cons, Obj.resolveSel]
+      show ((pure (t, d + 1) : PyM (Tensor K × ℕ)) >>= fun s => List.foldlM ixStep s (r.map selTok)).map _ = _
+      rw [pure_bind, ih t (d + 1) (by simp only [List.length_cons] at hlen; omega)]
+      cases Obj.resolveSel (t.shape.drop (d + 1)) r <;> rfl
+    | some i =>
+      simp only [List.map_cons, selTok, List.foldlM_cons, Obj.resolveSel, pyIndex_eq]
+      show ((match normIdx (t.shape.getD d 0) i with
+          | some k => (pure (t.takeAxis d k, d) : PyM (Tensor K × ℕ))
+          | none => .error .index) >>= fun s => List.foldlM ixStep s (r.map selTok)).map _ = _
+      cases hn : normIdx (t.shape.getD d 0) i with
+      | none => rfl
+      | some k =>
+        simp only [pure_bind]
+        have hk : k < t.shape.getD d 0 := by
+          unfold normIdx at hn
+          split_ifs at hn <;> cases hn <;> omega
+        have hsh : (t.takeAxis d k).shape.drop d = t.shape.drop (d + 1) := by
+          rw [takeAxis_shape', drop_eraseIdx_self _ _ hd]
+        rw [ih (t.takeAxis d k) d (by
+          rw [takeAxis_shape', List.length_eraseIdx, if_pos hd]
+          simp only [List.length_cons] at hlen; omega), hsh]
+        cases hr : Obj.resolveSel (t.shape.drop (d + 1)) r with
+        | error e => rfl
+        | ok idx =>
+          simp only [map_ok]
+          congr 1
+          exact sliceSecFrom_takeAxis idx t d k d (le_refl d) hd hk (resolveSel_ok _ _ _ hr)
+
+theorem resolveSel_long (s : List ℕ) (sec : Sec) (h : s.length < sec.length) : Obj.resolveSel s sec = .error .index := by
+  induction sec generalizing s with
+  | nil => simp at h
+  | cons a r ih =>
+    cases s with
+    | nil => rfl
+    | cons n ns =>
+      have h' : ns.length < r.length := by simpa using h
+      cases a with
+      | none => simp [Obj.resolveSel, ih ns h']
+      | some i =>
+        simp only [Obj.resolveSel, pyIndex_eq]
+        cases normIdx n i with
+        | none => rfl
+        | some k => simp [ih ns h']
+
+/-- `t[tuple(slice(None) if p is None else p for p in section)]` -/
+theorem npIndex_sec (t : Tensor K) (sec : Sec) :
+    npIndex t (sec.map selTok) = (Obj.resolveSel t.shape sec).map (fun idx => Obj.sliceSec t idx) := by
+  rw [npIndex_eq]
+  simp only [List.length_map]
+  by_cases h : t.shape.length < sec.length
+  · rw [if_pos h, resolveSel_long _ _ h]; rfl
+  · rw [if_neg h]
+    have := fold_sec sec t 0 (by omega)
+    simpa [Obj.sliceSec] using this
+
+end Splipy.PyO
+
+-- ---------------------------------------------------------------------------- t3b part 21
+
+namespace Splipy.PyO
+open Splipy Splipy.Generated Splipy.C06 Splipy.Sections
+variable {K : Type} [Field K] [LinearOrder K] [FloorRing K]
+
+/-! ### method: section -/
+
+/-- the two result types, compared on their content: an object, or the bare control point -/
+def secOf : SecResult K → PyObj K ⊕ Array K
+  | .obj _ o => .inl (ofObj o)
+  | .point a => .inr a
+
+def pyOf : PySec K → PyObj K ⊕ Array K
+  | .obj o => .inl o
+  | .point t => .inr t.data
+
+theorem pyCheckSection_eq (args : Sec) (kw : List (ℕ × Sel)) (pd : ℕ) :
+    pyCheckSection args kw (pd : Int) = checkSection pd args kw := by
+  unfold pyCheckSection checkSection
+  simp only [Int.toNat_natCast]
+
+theorem checkSection_length (pd : ℕ) (args : Sec) (kw : List (ℕ × Sel)) (sec : Sec)
+    (h : checkSection pd args kw = .ok sec) : sec.length = max args.length pd := by
+  unfold checkSection at h
+  simp only [] at h
+  have key : ∀ (kw : List (ℕ × Sel)) (a sec : Sec),
+      kw.foldlM (fun a (x : ℕ × Sel) => if x.1 < a.length then (.ok (a.set x.1 x.2) : PyM Sec) else .error .index) a = .ok sec →
+      sec.length = a.length := by
+    intro kw
+    induction kw with
+    | nil => intro a sec h; simp at h; cases h; rfl
+    | cons x kw ih =>
+      intro a sec h
+      simp only [List.foldlM_cons] at h
+      by_cases hx : x.1 < a.length
+      · rw [if_pos hx] at h
+        simp only [ok_bind] at h
+        rw [ih _ _ h, List.length_set]
+      · rw [if_neg hx] at h; simp at h
+  have := key kw _ sec h
+  rw [this, List.length_append, List.length_replicate]
+  omega
+
+theorem freeBases_eq (bs : List (Basis K)) (sec : Sec) :
+    listCompIf (zip2 bs sec) (fun x5 => do
+      let b := x5.1
+      let p := x5.2
+      pure (decide (p = none), b)) = .ok (Obj.freeBases bs sec) := by
+  induction bs generalizing sec with
+  | nil => cases sec <;> rfl
+  | cons b bs ih =>
+    cases sec with
+    | nil => rfl
+    | cons p r =>
+      simp only [zip2, List.zip_cons_cons, listCompIf, pure_eq_ok, ok_bind]
+      have := ih r
+      unfold zip2 at this
+      simp only [pure_eq_ok] at this
+      rw [this]
+      cases p <;> simp [Obj.freeBases]
+
+theorem resolveSel_length (s : List ℕ) (sec : Sec) (idx : List (Option ℕ)) (h : Obj.resolveSel s sec = .ok idx) :
+    idx.length = sec.length := by
+  induction sec generalizing s idx with
+  | nil => simp [Obj.resolveSel] at h; subst h; rfl
+  | cons a r ih =>
+    cases s with
+    | nil => simp [Obj.resolveSel] at h
+    | cons n ns =>
+      cases a with
+      | none =>
+        simp only [Obj.resolveSel] at h
+        cases hr : Obj.resolveSel ns r with
+        | error e => rw [hr] at h; simp at h
+        | ok idx' => rw [hr] at h; simp at h; subst h; simp [ih ns idx' hr]
+      | some i =>
+        simp only [Obj.resolveSel] at h
+        cases hp : pyIndex n i with
+        | error e => rw [hp] at h; simp at h
+        | ok k =>
+          rw [hp] at h
+          simp only [] at h
+          cases hr : Obj.resolveSel ns r with
+          | error e => rw [hr] at h; simp at h
+          | ok idx' => rw [hr] at h; simp at h; subst h; simp [ih ns idx' hr]
+
+theorem secShape_last (idx : List (Option ℕ)) (s : List ℕ) (h : idx.length < s.length) (hok : SecOk idx s) :
+    secShape idx s ≠ [] ∧ (secShape idx s).getLastD 0 = s.getLastD 0 := by
+  induction idx generalizing s with
+  | nil =>
+    simp only [secShape]
+    refine ⟨by intro h0; rw [h0] at h; simp at h, ?_⟩
+    trivial
+  | cons a r ih =>
+    cases s with
+    | nil => simp at h
+    | cons n ns =>
+      have h' : r.length < ns.length := by simpa using h
+      have hne : ns ≠ [] := by intro h0; rw [h0] at h'; simp at h'
+      have hl : (n :: ns).getLastD 0 = ns.getLastD 0 := by
+        cases ns with
+        | nil => exact absurd rfl hne
+        | cons m ms => simp [List.getLastD_cons]
+      cases a with
+      | none =>
+        obtain ⟨i1, i2⟩ := ih ns h' hok
+        simp only [secShape]
+        refine ⟨by simp, ?_⟩
+        rw [hl, ← i2]
+        cases hss : secShape r ns with
+        | nil => exact absurd hss i1
+        | cons m ms => simp [List.getLastD_cons]
+      | some j =>
+        obtain ⟨i1, i2⟩ := ih ns h' hok.2
+        simp only [secShape]
+        exact ⟨i1, by rw [hl, i2]⟩
+
+end Splipy.PyO
+
+namespace Splipy.PyO
+open Splipy Splipy.Generated Splipy.C06 Splipy.Sections
+variable {K : Type} [Field K] [LinearOrder K] [FloorRing K]
+
+/-- `SplineObject.section(*args, u=…, v=…, w=…, unwrap_points=…)` = `Obj.section`, compared on the content of
+    the result (`secOf` / `pyOf`: the class of the returned object is not part of `PyObj`).  Guards: one basis
+    per axis, at least one component, and at most `pardim` positional selectors (more would index the
+    component axis). -/
+theorem _root_.PyObject_section_eq (o : Obj K) (tol : K) (args : Sec) (kwu : Option Bool) (kw : List (ℕ × Sel))
+    (hb : o.cps.shape.length = o.bases.size + 1) (hnc : 1 ≤ o.ncomp) (hargs : args.length ≤ o.pardim) :
+    (PyObject.«section» (ofObj o) tol args kwu kw).map pyOf
+      = (o.«section» args kw (kwu.getD true)).map secOf := by
+  have hpd : o.pardim = o.bases.size := by unfold Obj.pardim; omega
+  unfold PyObject.«section» Obj.«section»
+  simp only [PyObject_pardim_eq o tol (by omega), ok_bind, pyCheckSection_eq]
+  cases hcs : checkSection o.pardim args kw with
+  | error e => rfl
+  | ok sec =>
+    have hsl : sec.length = o.pardim := by
+      rw [checkSection_length _ _ _ _ hcs]; omega
+    simp only [ok_bind, ofObj_bases, ofObj_cps, ofObj_rational]
+    rw [listComp_ok sec _ selTok (fun x _ => by cases x <;> rfl)]
+    simp only [ok_bind]
+    rw [freeBases_eq o.bases.toList sec]
+    simp only [ok_bind, npIndex_sec]
+    unfold Obj.sectionSel
+    cases hrs : Obj.resolveSel o.cps.shape sec with
+    | error e =>
+      simp only [map_error, error_bind]
+      split_ifs <;> rfl
+    | ok idx =>
+      simp only [map_ok, ok_bind]
+      have hok := resolveSel_ok _ _ _ hrs
+      have hil := resolveSel_length _ _ _ hrs
+      have hsh : (Obj.sliceSec o.cps idx).shape = secShape idx o.cps.shape := by
+        have := sliceSecFrom_shape idx o.cps 0 (by omega) (by simpa using hok)
+        simpa [Obj.sliceSec] using this
+      obtain ⟨hne, hlast⟩ := secShape_last idx o.cps.shape (by rw [hil, hsl]; unfold Obj.pardim; omega) hok
+      have hne' : (Obj.sliceSec o.cps idx).shape ≠ [] := by rw [hsh]; exact hne
+      have hemp : (Obj.sliceSec o.cps idx).shape.isEmpty = false := by
+        cases h : (Obj.sliceSec o.cps idx).shape with
+        | nil => exact absurd h hne'
+        | cons a l => rfl
+      have hncs : 1 ≤ (Obj.sliceSec o.cps idx).shape.getLastD 0 := by rw [hsh, hlast]; exact hnc
+      by_cases hcond : Obj.freeBases o.bases.toList sec ≠ [] ∨ ¬ (kwGet kwu true = true)
+      · have hcond' : (!(Obj.freeBases o.bases.toList sec).isEmpty) = true ∨ (!(kwu.getD true)) = true := by
+          rcases hcond with h | h
+          · left
+            cases hf : Obj.freeBases o.bases.toList sec with
+            | nil => exact absurd hf h
+            | cons a l => rfl
+          · right
+            have h' : ¬ (kwu.getD true = true) := h
+            cases hk : kwu.getD true with
+            | true => exact absurd hk h'
+            | false => rfl
+        rw [if_pos hcond, if_pos hcond']
+        simp only [hemp, Bool.false_eq_true, if_false]
+        by_cases hcls : (1 : Int) ≤ len (Obj.freeBases o.bases.toList sec) ∧ len (Obj.freeBases o.bases.toList sec) ≤ 3
+        · rw [if_pos hcls]
+          have hc : ctorFirst (len (Obj.freeBases o.bases.toList sec)) = .ok (len (Obj.freeBases o.bases.toList sec)) := by
+            unfold ctorFirst; rw [if_pos hcls]
+          rw [hc, ok_bind]
+          have := mkRaw_ofObj (Obj.freeBases o.bases.toList sec).length (Obj.freeBases o.bases.toList sec).toArray
+            (Obj.sliceSec o.cps idx) o.rational (by simp) hne' hncs
+          simp only [len] at this ⊢
+          rw [this]
+          rfl
+        · rw [if_neg hcls]
+          unfold mkRawObj
+          rw [if_neg hne']
+          simp only [ok_bind, pure_eq_ok, map_ok, pyOf, secOf]
+          congr 2
+          unfold ofObj
+          simp only [PyObj.mk.injEq, true_and, and_true]
+          unfold Obj.dimension Obj.ncomp b2i
+          simp only []
+          split_ifs <;> omega
+      · have hcond' : ¬ ((!(Obj.freeBases o.bases.toList sec).isEmpty) = true ∨ (!(kwu.getD true)) = true) := by
+          intro h
+          apply hcond
+          rcases h with h | h
+          · left
+            intro hf; rw [hf] at h; simp at h
+          · right
+            intro hk
+            have hk' : kwu.getD true = true := hk
+            rw [hk'] at h; simp at h
+        rw [if_neg hcond, if_neg hcond']
+        rfl
+
+end Splipy.PyO
+
+-- ---------------------------------------------------------------------------- t3b part 22
+
+namespace Splipy.PyO
+open Splipy Splipy.Generated Splipy.C06 Splipy.Sections
+variable {K : Type} [Field K] [LinearOrder K] [FloorRing K]
+
+/-! ### method: section -/
+
+-- the corner sections: a second statement about the generated `section` (all selectors given, no keywords)
+
+theorem pyCombos_eq (l : List ℕ) (r : ℕ) : pyCombos l r = combos l r := by
+  induction l generalizing r with
+  | nil => cases r <;> rfl
+  | cons x xs ih =>
+    cases r with
+    | zero => rfl
+    | succ r => simp only [pyCombos, combos, ih]
+
+theorem pyProd01_eq (n : ℕ) : pyProd01 n = prodIdx n := by
+  induction n with
+  | zero => rfl
+  | succ n ih => simp only [pyProd01, prodIdx, ih]
+
+theorem pyAssign_eq (a : Sec) (f : List ℕ) (i : List Int) : pyAssign a f i = assign a f i := by
+  induction f generalizing a i with
+  | nil => cases i <;> rfl
+  | cons x xs ih =>
+    cases i with
+    | nil => rfl
+    | cons y ys => simp only [pyAssign, assign, ih]
+
+theorem pySections_eq (pd : ℕ) : pySections (pd : Int) 0 = .ok (sections pd 0) := by
+  unfold pySections sections
+  have : ¬ ((pd : Int) < 0) := by omega
+  simp only [this, if_false, sub_zero, Int.toNat_natCast, Nat.sub_zero, pyCombos_eq, pyProd01_eq, pyAssign_eq]
+
+theorem sliceSecFrom_wf (idx : List (Option ℕ)) (t : Tensor K) (d : ℕ) (hd : d ≤ t.shape.length)
+    (hok : SecOk idx (t.shape.drop d)) (hwf : t.data.size = Tensor.prod t.shape) :
+    (Obj.sliceSecFrom d idx t).data.size = Tensor.prod (Obj.sliceSecFrom d idx t).shape := by
+  induction idx generalizing d with
+  | nil => exact hwf
+  | cons a r ih =>
+    cases hdrop : t.shape.drop d with
+    | nil => rw [hdrop] at hok; cases a <;> exact absurd hok (by simp [SecOk])
+    | cons n ns =>
+      have hfl : d < t.shape.length := by
+        by_contra hc
+        have : t.shape.drop d = [] := List.drop_eq_nil_of_le (by omega)
+        rw [this] at hdrop; cases hdrop
+      have hns : t.shape.drop (d + 1) = ns := by
+        have := congrArg List.tail hdrop
+        simpa [List.tail_drop] using this
+      rw [hdrop] at hok
+      cases a with
+      | none => exact ih (d + 1) (by omega) (by rw [hns]; exact hok)
+      | some j =>
+        simp only [Obj.sliceSecFrom]
+        apply takeAxis_wf
+        rw [sliceSecFrom_shape r t (d + 1) (by omega) (by rw [hns]; exact hok.2), List.length_append, List.length_take]
+        omega
+
+def AllSome {α : Type} (l : List (Option α)) : Prop := ∀ x ∈ l, x ≠ none
+
+theorem resolveSel_allsome (s : List ℕ) (sec : Sec) (idx : List (Option ℕ)) (h : Obj.resolveSel s sec = .ok idx)
+    (ha : AllSome sec) : AllSome idx := by
+  induction sec generalizing s idx with
+  | nil => simp [Obj.resolveSel] at h; subst h; intro x hx; simp at hx
+  | cons a r ih =>
+    cases s with
+    | nil => simp [Obj.resolveSel] at h
+    | cons n ns =>
+      cases a with
+      | none => exact absurd rfl (ha none (by simp))
+      | some i =>
+        simp only [Obj.resolveSel] at h
+        cases hp : pyIndex n i with
+        | error e => rw [hp] at h; simp at h
+        | ok k =>
+          rw [hp] at h
+          simp only [] at h
+          cases hr : Obj.resolveSel ns r with
+          | error e => rw [hr] at h; simp at h
+          | ok idx' =>
+            rw [hr] at h; simp at h; subst h
+            intro x hx
+            rcases List.mem_cons.mp hx with rfl | hx
+            · simp
+            · exact ih ns idx' hr (fun y hy => ha y (by simp [hy])) x hx
+
+theorem secShape_allsome (idx : List (Option ℕ)) (s : List ℕ) (hl : idx.length + 1 = s.length) (ha : AllSome idx) :
+    secShape idx s = [s.getLastD 0] := by
+  induction idx generalizing s with
+  | nil =>
+    match s, hl with
+    | [n], _ => rfl
+  | cons a r ih =>
+    cases s with
+    | nil => simp at hl
+    | cons n ns =>
+      cases a with
+      | none => exact absurd rfl (ha none (by simp))
+      | some j =>
+        simp only [secShape]
+        have hl' : r.length + 1 = ns.length := by simpa using hl
+        rw [ih ns hl' (fun y hy => ha y (by simp [hy]))]
+        cases ns with
+        | nil => simp at hl'
+        | cons m ms => simp [List.getLastD_cons]
+
+theorem freeBases_allsome (bs : List (Basis K)) (sec : Sec) (ha : AllSome sec) : Obj.freeBases bs sec = [] := by
+  induction bs generalizing sec with
+  | nil => cases sec <;> rfl
+  | cons b bs ih =>
+    cases sec with
+    | nil => rfl
+    | cons p r =>
+      cases p with
+      | none => exact absurd rfl (ha none (by simp))
+      | some i => simp only [Obj.freeBases]; exact ih r (fun y hy => ha y (by simp [hy]))
+
+end Splipy.PyO
+
+namespace Splipy.PyO
+open Splipy Splipy.Generated Splipy.C06 Splipy.Sections
+variable {K : Type} [Field K] [LinearOrder K] [FloorRing K]
+
+/-- one row of the hand model's `corners` -/
+def rowOf (o : Obj K) (sec : Sec) : PyM (Array K) := do
+  let r ← o.sectionSel sec true
+  match r with
+  | .point a => pure a
+  | .obj _ ob => pure ob.cps.data
+
+theorem checkSection_nil (pd : ℕ) (sec : Sec) (h : sec.length = pd) : checkSection pd sec [] = .ok sec := by
+  unfold checkSection
+  simp [h]
+
+theorem corner_row (o : Obj K) (tol : K) (sec : Sec) (hb : o.cps.shape.length = o.bases.size + 1)
+    (hwf : o.cps.data.size = Tensor.prod o.cps.shape) (hl : sec.length = o.pardim) (ha : AllSome sec) :
+    PyObject.«section» (ofObj o) tol sec none [] = (rowOf o sec).map (fun a => PySec.point ⟨[o.ncomp], a⟩) ∧
+    ∀ a, rowOf o sec = .ok a → a.size = o.ncomp := by
+  have hpd : o.pardim = o.bases.size := by unfold Obj.pardim; omega
+  unfold PyObject.«section» rowOf Obj.sectionSel
+  simp only [PyObject_pardim_eq o tol (by omega), ok_bind, pyCheckSection_eq, checkSection_nil _ _ hl,
+    ofObj_bases, ofObj_cps, ofObj_rational]
+  rw [listComp_ok sec _ selTok (fun x _ => by cases x <;> rfl)]
+  simp only [ok_bind]
+  rw [freeBases_eq o.bases.toList sec, freeBases_allsome _ _ ha]
+  simp only [ok_bind, npIndex_sec]
+  cases hrs : Obj.resolveSel o.cps.shape sec with
+  | error e =>
+    refine ⟨?_, fun a h => by simp at h⟩
+    simp only [map_error, error_bind]
+    split_ifs <;> rfl
+  | ok idx =>
+    have hok := resolveSel_ok _ _ _ hrs
+    have hil := resolveSel_length _ _ _ hrs
+    have hai := resolveSel_allsome _ _ _ hrs ha
+    have hsh : (Obj.sliceSec o.cps idx).shape = [o.ncomp] := by
+      have := sliceSecFrom_shape idx o.cps 0 (by omega) (by simpa using hok)
+      simp only [List.take_zero, List.nil_append, List.drop_zero] at this
+      rw [Obj.sliceSec, this, secShape_allsome idx o.cps.shape (by rw [hil, hl]; unfold Obj.pardim; omega) hai]
+      rfl
+    have hsz : (Obj.sliceSec o.cps idx).data.size = o.ncomp := by
+      have := sliceSecFrom_wf idx o.cps 0 (by omega) (by simpa using hok) hwf
+      rw [Obj.sliceSec, this]
+      have h2 : (Obj.sliceSecFrom 0 idx o.cps).shape = [o.ncomp] := hsh
+      rw [h2]; simp [Tensor.prod]
+    have hc1 : ¬ (([] : List (Basis K)) ≠ [] ∨ ¬ (kwGet (none : Option Bool) true = true)) := by
+      simp [kwGet]
+    simp only [map_ok, ok_bind]
+    rw [if_neg hc1]
+    simp only [List.isEmpty_nil, Bool.not_true, Bool.false_eq_true, Bool.not_false, or_self, if_false, pure_eq_ok,
+      ok_bind, map_ok]
+    refine ⟨?_, fun a h => by cases h; exact hsz⟩
+    congr 2
+    cases hT : Obj.sliceSec o.cps idx with
+    | mk sh dat =>
+      rw [hT] at hsh
+      simp only at hsh
+      rw [hsh]
+
+end Splipy.PyO
+
+-- ---------------------------------------------------------------------------- t3b part 23
+
+namespace Splipy.PyO
+open Splipy Splipy.Generated Splipy.C06 Splipy.Sections
+variable {K : Type} [Field K] [LinearOrder K] [FloorRing K]
+
+/-! ## `corners`: filling the rows (no generated code) -/
+
+theorem ofFn_getD_self (a : Array K) (n : ℕ) (ha : a.size = n) :
+    Array.ofFn (n := n) (fun j => a.getD j.val 0) = a := by
+  apply Array.ext (by simp [ha])
+  intro j hj1 hj2
+  simp [Array.getD, hj2]
+
+theorem matSetRow_point (M : Mat K) (i : ℕ) (hi : i < M.size) (n : ℕ) (hrow : (M.getD i #[]).size = n)
+    (a : Array K) (ha : a.size = n) :
+    matSetRowSec M (i : Int) (.point ⟨[n], a⟩) = .ok (M.set! i a) := by
+  unfold matSetRowSec
+  simp only [normIdx_nat hi]
+  generalize hnn : (M.getD i #[]).size = m
+  have hmn : m = n := by rw [← hnn]; exact hrow
+  subst hmn
+  by_cases h1 : m = 1
+  · subst h1
+    have : List.dropWhile (fun x => decide (x = 1)) [1] = [] := by simp
+    simp only [this]
+    rw [if_pos trivial, if_neg (by simp)]
+    congr 2
+    apply Array.ext (by simp [ha])
+    intro j hj1 hj2
+    have hj : j = 0 := by simp at hj1; omega
+    subst hj
+    simp [Array.getD, ha]
+  · have : List.dropWhile (fun x => decide (x = 1)) [m] = [m] := by simp [h1]
+    simp only [this]
+    rw [if_pos trivial, ofFn_getD_self a m ha]
+
+/-- rows `k, k+1, …` of `M` overwritten by `rows` -/
+def writeRows (M : Mat K) (k : ℕ) : List (Array K) → Mat K
+  | [] => M
+  | a :: rows => writeRows (M.set! k a) (k + 1) rows
+
+theorem writeRows_toList (M : Mat K) (k : ℕ) (rows : List (Array K)) (h : k + rows.length ≤ M.size) :
+    (writeRows M k rows).toList = M.toList.take k ++ rows ++ M.toList.drop (k + rows.length) := by
+  induction rows generalizing M k with
+  | nil => simp [writeRows]
+  | cons a rows ih =>
+    simp only [writeRows, List.length_cons] at h ⊢
+    rw [ih (M.set! k a) (k + 1) (by simp; omega)]
+    have hk : k < M.size := by omega
+    simp only [Array.set!_eq_setIfInBounds, Array.toList_setIfInBounds]
+    rw [List.take_set, List.drop_set]
+    have e1 : (M.toList.take (k + 1)).set k a = M.toList.take k ++ [a] := by
+      apply List.ext_getElem?
+      intro j
+      simp only [List.getElem?_set, List.getElem?_take, List.getElem?_append, List.length_take]
+      have hm : min k M.toList.length = k := by simp; omega
+      simp only [hm]
+      by_cases hj : j < k
+      · have : ¬ k = j := by omega
+        simp [hj, this, (by omega : j < k + 1)]
+      · by_cases hj2 : j = k
+        · subst hj2; simp [hk]
+        · have h3 : ¬ (j < k + 1) := by omega
+          have h4 : ¬ (k = j) := fun h => hj2 h.symm
+          simp [hj, h3, h4]
+          omega
+    rw [e1, if_pos (by omega)]
+    simp [Nat.add_comm 1, Nat.add_assoc]
+
+theorem writeRows_all (M : Mat K) (rows : List (Array K)) (h : rows.length = M.size) :
+    writeRows M 0 rows = rows.toArray := by
+  apply Array.ext'
+  rw [writeRows_toList M 0 rows (by omega)]
+  simp [h]
+
+end Splipy.PyO
+
+namespace Splipy.PyO
+open Splipy Splipy.Generated Splipy.C06 Splipy.Sections
+variable {K : Type} [Field K] [LinearOrder K] [FloorRing K]
+
+/-- the row loop with the generated body abstracted: `body (i, x) M` writes `f x` into row `i` -/
+theorem row_loop {α : Type} (f : α → PyM (Array K)) (n : ℕ) (body : Int × α → Mat K → PyM (Mat K)) :
+    ∀ (xs : List α) (k : ℕ) (M : Mat K), k + xs.length ≤ M.size → (∀ i, i < M.size → (M.getD i #[]).size = n) →
+    (∀ x ∈ xs, ∀ a, f x = .ok a → a.size = n) →
+    (∀ x ∈ xs, ∀ (i : ℕ) (M : Mat K), i < M.size → (∀ i, i < M.size → (M.getD i #[]).size = n) →
+      body ((i : Int), x) M = (f x >>= fun a => .ok (M.set! i a))) →
+    forEach ((List.zip (List.range' k xs.length) xs).map (fun x => (((x.1 : ℕ) : Int), x.2))) M body
+      = (xs.mapM f).map (fun rows => writeRows M k rows) := by
+  intro xs
+  induction xs with
+  | nil => intro k M _ _ _ _; rfl
+  | cons x xs ih =>
+    intro k M hk hM hf hbody
+    simp only [List.length_cons] at hk
+    simp only [List.length_cons, List.range'_succ, List.zip_cons_cons, List.map_cons, forEach, List.foldlM_cons,
+      List.mapM_cons]
+    rw [hbody x (by simp) k M (by omega) hM]
+    cases hfx : f x with
+    | error e => rfl
+    | ok a =>
+      simp only [ok_bind]
+      have ha := hf x (by simp) a hfx
+      have hM' : ∀ i, i < (M.set! k a).size → ((M.set! k a).getD i #[]).size = n := by
+        intro i hi
+        have hi' : i < M.size := by simpa using hi
+        by_cases hik : i = k
+        · subst hik; simp [Array.getD, hi', ha]
+        · have := hM i hi'
+          simp only [Array.getD, hi', dif_pos] at this
+          simp [Array.getD, hi', Array.getElem_setIfInBounds, hik, Ne.symm hik]
+          exact this
+      have := ih (k + 1) (M.set! k a) (by simp; omega) hM' (fun y hy => hf y (by simp [hy]))
+        (fun y hy => hbody y (by simp [hy]))
+      unfold forEach at this
+      rw [this]
+      cases xs.mapM f <;> rfl
+
+end Splipy.PyO
+
+namespace Splipy.PyO
+open Splipy Splipy.Generated Splipy.C06 Splipy.Sections
+variable {K : Type} [Field K] [LinearOrder K] [FloorRing K]
+
+/-! ### method: corners -/
+
+theorem sections_facts (pd : ℕ) (h : pd ≤ 3) :
+    (sections pd 0).length = 2 ^ pd ∧ ∀ sec ∈ sections pd 0, sec.length = pd ∧ AllSome sec := by
+  unfold AllSome
+  interval_cases pd <;> decide
+
+theorem mapM_length {α β : Type} (f : α → PyM β) (xs : List α) (ys : List β) (h : xs.mapM f = .ok ys) :
+    ys.length = xs.length := by
+  induction xs generalizing ys with
+  | nil => simp at h; cases h; rfl
+  | cons x xs ih =>
+    simp only [List.mapM_cons] at h
+    cases hx : f x with
+    | error e => rw [hx] at h; simp at h
+    | ok y =>
+      rw [hx] at h
+      simp only [ok_bind] at h
+      cases hxs : xs.mapM f with
+      | error e => rw [hxs] at h; simp at h
+      | ok ys' =>
+        rw [hxs] at h
+        simp at h
+        cases h
+        simp [ih ys' hxs]
+
+/-- `SplineObject.corners(order)` = `Obj.corners` (the 2-d result array read as the model's tensor).  Guards: one
+    basis per axis, at most three parametric directions, well-formed control array. -/
+theorem _root_.PyObject_corners_eq (o : Obj K) (tol : K) (order : String)
+    (hb : o.cps.shape.length = o.bases.size + 1) (hd3 : o.bases.size ≤ 3) (hnc : 1 ≤ o.ncomp)
+    (hwf : o.cps.data.size = Tensor.prod o.cps.shape) :
+    (PyObject.corners (ofObj o) tol order).map (fun M => tensorOfMat M [2 ^ o.pardim, o.ncomp])
+      = o.corners (decide (order = "F")) := by
+  have hpd : o.pardim = o.bases.size := by unfold Obj.pardim; omega
+  obtain ⟨hslen, hsall⟩ := sections_facts o.pardim (by omega)
+  unfold PyObject.corners
+  simp only [PyObject_pardim_eq o tol (by omega), ok_bind, ofObj_dimension, ofObj_rational, pySections_eq]
+  have hpow : intPow (2 : Int) (o.pardim : Int) = .ok (((2 ^ o.pardim : ℕ)) : Int) := by
+    unfold intPow
+    have : ¬ ((o.pardim : Int) < 0) := by omega
+    simp [this]
+  rw [hpow, ok_bind, ncomp_eq o hnc]
+  have hz : npZeros2 (K := K) ((2 ^ o.pardim : ℕ) : Int) ((o.ncomp : ℕ) : Int)
+      = .ok (Array.replicate (2 ^ o.pardim) (Array.replicate o.ncomp 0)) := by
+    unfold npZeros2
+    have h1 : ¬ ((((2 ^ o.pardim : ℕ)) : Int) < 0 ∨ ((o.ncomp : ℕ) : Int) < 0) := by omega
+    rw [if_neg h1]
+    simp only [Int.toNat_natCast]
+  rw [hz, ok_bind]
+  have henum : pyEnumerate (sections o.pardim 0)
+      = (List.zip (List.range' 0 (sections o.pardim 0).length) (sections o.pardim 0)).map
+          (fun x => (((x.1 : ℕ) : Int), x.2)) := by
+    unfold pyEnumerate
+    rw [List.range_eq_range']
+  rw [henum]
+  set M0 : Mat K := Array.replicate (2 ^ o.pardim) (Array.replicate o.ncomp 0) with hM0
+  have hloop := row_loop (fun args => rowOf o (if order = "F" then args.reverse else args)) o.ncomp
+    (fun x6 st6 => do
+      let tmp7 ← PyObject.«section» (ofObj o) tol (if (order = "F") then (reversed x6.2) else x6.2) none []
+      let result ← matSetRowSec st6 x6.1 tmp7
+      pure result)
+    (sections o.pardim 0) 0 M0 (by simp [hM0, hslen])
+    (by intro i hi; simp [hM0] at hi ⊢; simp [Array.getD, hi])
+    (by
+      intro sec hsec a ha
+      obtain ⟨hl, hall⟩ := hsall sec hsec
+      have hsec' : (if order = "F" then sec.reverse else sec).length = o.pardim ∧
+          AllSome (if order = "F" then sec.reverse else sec) := by
+        split_ifs
+        · exact ⟨by simp [hl], fun x hx => hall x (by simpa using hx)⟩
+        · exact ⟨hl, hall⟩
+      exact (corner_row o tol _ hb hwf hsec'.1 hsec'.2).2 a ha)
+    (by
+      intro sec hsec i M hi hM
+      obtain ⟨hl, hall⟩ := hsall sec hsec
+      have hsec' : (if order = "F" then sec.reverse else sec).length = o.pardim ∧
+          AllSome (if order = "F" then sec.reverse else sec) := by
+        split_ifs
+        · exact ⟨by simp [hl], fun x hx => hall x (by simpa using hx)⟩
+        · exact ⟨hl, hall⟩
+      obtain ⟨hc1, hc2⟩ := corner_row o tol _ hb hwf hsec'.1 hsec'.2
+      simp only [reversed]
+      rw [hc1]
+      cases hr : rowOf o (if order = "F" then sec.reverse else sec) with
+      | error e => rfl
+      | ok a =>
+        simp only [map_ok, ok_bind]
+        rw [matSetRow_point M i hi o.ncomp (hM i hi) a (hc2 a hr)])
+  rw [hloop]
+  unfold Obj.corners
+  show _ = (do
+    let rows ← (sections o.pardim 0).mapM (fun (args : Sec) => rowOf o (if decide (order = "F") = true then args.reverse else args))
+    pure ({ shape := [2 ^ o.pardim, o.ncomp], data := rows.foldl (· ++ ·) #[] } : Tensor K))
+  simp only [decide_eq_true_eq]
+  cases hm : (sections o.pardim 0).mapM (fun (args : Sec) => rowOf o (if order = "F" then args.reverse else args)) with
+  | error e => rfl
+  | ok rows =>
+    have hrl := mapM_length _ _ _ hm
+    simp only [map_ok, ok_bind, pure_eq_ok]
+    rw [writeRows_all M0 rows (by rw [hrl, hslen]; simp [hM0])]
+    congr 1
+    unfold tensorOfMat
+    simp
 
 end Splipy.PyO
